@@ -16,1410 +16,1248 @@ Definition terms (ts : list tok) (t : pt) : string :=
   digest (show_toks (Some ts)) ++ " " ++ digest (show_pt (Some t)) ++ " " ++ digest (show_pt (parse ts)).
 Definition terms_full (ts : list tok) (t : pt) : string :=
   show_toks (Some ts) ++ nl ++ show_pt (Some t) ++ nl ++ show_pt (parse ts).
-Eval vm_compute in ("<<<M20>>>" ++ check (runes_of_ascii "packet
-int // " ++ [27880; 37322]%N ++ runes_of_ascii "
-{ repeat // @lengthOf(
-MetaDataX // a // b
-{ //	t
-pack
-    { repeat Pad	{ i8 MetaDataX
-, repeat pack	trueish ,
-u
-    // trailing space 
-    charz	`" ++ [233]%N ++ runes_of_ascii "` ,string
-int
-, }	, f64 Z9_
-    ,
-} ,
-} // c
-,	} packet trueish {
-@lengthOf(
-    u)uint8 metadata
-    `" ++ [28040; 24687; 31867; 22411]%N ++ runes_of_ascii "` , match	uint8x
-as roots
-{ """ ++ [233]%N ++ runes_of_ascii "t" ++ [233]%N ++ runes_of_ascii """:
-    Pad 0123456789
-: msg_type// " ++ [27880; 37322]%N ++ runes_of_ascii "
-[ ""1"" ,	0 ,10] //	t
-:
-pack,
-[ ""it's"" ,  ""\" ++ [233]%N ++ runes_of_ascii """ ] :u8x
-, [// " ++ [128512]%N ++ runes_of_ascii " emoji
-0123456789 ] :
-MetaDataX
-    // packet A { u8 x, }
-    , },zchar[	00 ] pack @lengthOf( string_ ),// packet A { u8 x, }
-@tag( 4294967296 )
-x_y_z string_ ,
-    } options {A
-    =true float  =	""" ++ [28040; 24687]%N ++ runes_of_ascii """ ; }
-MetaData Header { zchar[//
-7 // `tick` ""quote"" 'q'
-]u128
-, char[]
-/// triple
-// trailing space 
-u , string_ metadata	,
-uint32 f32a `u8 x,` , } options{// trailing space 
-roots
-    =
-    true;
-int =false ; string_=
-"""" }")).
-Eval vm_compute in ("<<<T20>>>" ++ terms [mkTok 35 "packet" 1 0 false; mkTok 42 "int" 2 0 false; mkTok 44 (string_of_bytes [47; 47; 32; 230; 179; 168; 233; 135; 138]%N) 2 4 true; mkTok 2 "{" 3 0 false; mkTok 36 "repeat" 3 2 false; mkTok 44 "// @lengthOf(" 3 9 true; mkTok 42 "MetaDataX" 4 0 false; mkTok 44 "// a // b" 4 10 true; mkTok 2 "{" 5 0 false; mkTok 44 (string_of_bytes [47; 47; 9; 116]%N) 5 2 true; mkTok 42 "pack" 6 0 false; mkTok 2 "{" 7 4 false; mkTok 36 "repeat" 7 6 false; mkTok 42 "Pad" 7 13 false; mkTok 2 "{" 7 17 false; mkTok 24 "i8" 7 19 false; mkTok 42 "MetaDataX" 7 22 false; mkTok 40 "," 8 0 false; mkTok 36 "repeat" 8 2 false; mkTok 42 "pack" 8 9 false; mkTok 42 "trueish" 8 14 false; mkTok 40 "," 8 22 false; mkTok 42 "u" 9 0 false; mkTok 44 "// trailing space " 10 4 true; mkTok 42 "charz" 11 4 false; mkTok 43 (string_of_bytes [96; 195; 169; 96]%N) 11 10 false; mkTok 40 "," 11 14 false; mkTok 15 "string" 11 15 false; mkTok 42 "int" 12 0 false; mkTok 40 "," 13 0 false; mkTok 3 "}" 13 2 false; mkTok 40 "," 13 4 false; mkTok 29 "f64" 13 6 false; mkTok 42 "Z9_" 13 10 false; mkTok 40 "," 14 4 false; mkTok 3 "}" 15 0 false; mkTok 40 "," 15 2 false; mkTok 3 "}" 16 0 false; mkTok 44 "// c" 16 2 true; mkTok 40 "," 17 0 false; mkTok 3 "}" 17 2 false; mkTok 35 "packet" 17 4 false; mkTok 42 "trueish" 17 11 false; mkTok 2 "{" 17 19 false; mkTok 7 "@lengthOf(" 18 0 false; mkTok 42 "u" 19 4 false; mkTok 6 ")" 19 5 false; mkTok 20 "uint8" 19 6 false; mkTok 42 "metadata" 19 12 false; mkTok 43 (string_of_bytes [96; 230; 182; 136; 230; 129; 175; 231; 177; 187; 229; 158; 139; 96]%N) 20 4 false; mkTok 40 "," 20 11 false; mkTok 38 "match" 20 13 false; mkTok 42 "uint8x" 20 19 false; mkTok 17 "as" 21 0 false; mkTok 42 "roots" 21 3 false; mkTok 2 "{" 22 0 false; mkTok 31 (string_of_bytes [34; 195; 169; 116; 195; 169; 34]%N) 22 2 false; mkTok 39 ":" 22 7 false; mkTok 42 "Pad" 23 4 false; mkTok 30 "0123456789" 23 8 false; mkTok 39 ":" 24 0 false; mkTok 42 "msg_type" 24 2 false; mkTok 44 (string_of_bytes [47; 47; 32; 230; 179; 168; 233; 135; 138]%N) 24 10 true; mkTok 18 "[" 25 0 false; mkTok 31 """1""" 25 2 false; mkTok 40 "," 25 6 false; mkTok 30 "0" 25 8 false; mkTok 40 "," 25 10 false; mkTok 30 "10" 25 11 false; mkTok 13 "]" 25 13 false; mkTok 44 (string_of_bytes [47; 47; 9; 116]%N) 25 15 true; mkTok 39 ":" 26 0 false; mkTok 42 "pack" 27 0 false; mkTok 40 "," 27 4 false; mkTok 18 "[" 28 0 false; mkTok 31 """it's""" 28 2 false; mkTok 40 "," 28 9 false; mkTok 31 (string_of_bytes [34; 92; 195; 169; 34]%N) 28 12 false; mkTok 13 "]" 28 17 false; mkTok 39 ":" 28 19 false; mkTok 42 "u8x" 28 20 false; mkTok 40 "," 29 0 false; mkTok 18 "[" 29 2 false; mkTok 44 (string_of_bytes [47; 47; 32; 240; 159; 152; 128; 32; 101; 109; 111; 106; 105]%N) 29 3 true; mkTok 30 "0123456789" 30 0 false; mkTok 13 "]" 30 11 false; mkTok 39 ":" 30 13 false; mkTok 42 "MetaDataX" 31 0 false; mkTok 44 "// packet A { u8 x, }" 32 4 true; mkTok 40 "," 33 4 false; mkTok 3 "}" 33 6 false; mkTok 40 "," 33 7 false; mkTok 14 "zchar[" 33 8 false; mkTok 30 "00" 33 15 false; mkTok 13 "]" 33 18 false; mkTok 42 "pack" 33 20 false; mkTok 7 "@lengthOf(" 33 25 false; mkTok 42 "string_" 33 36 false; mkTok 6 ")" 33 44 false; mkTok 40 "," 33 45 false; mkTok 44 "// packet A { u8 x, }" 33 46 true; mkTok 9 "@tag(" 34 0 false; mkTok 30 "4294967296" 34 6 false; mkTok 6 ")" 34 17 false; mkTok 42 "x_y_z" 35 0 false; mkTok 42 "string_" 35 6 false; mkTok 40 "," 35 14 false; mkTok 3 "}" 36 4 false; mkTok 1 "options" 36 6 false; mkTok 2 "{" 36 14 false; mkTok 42 "A" 36 15 false; mkTok 4 "=" 37 4 false; mkTok 10 "true" 37 5 false; mkTok 42 "float" 37 10 false; mkTok 4 "=" 37 17 false; mkTok 31 (string_of_bytes [34; 230; 182; 136; 230; 129; 175; 34]%N) 37 19 false; mkTok 41 ";" 37 24 false; mkTok 3 "}" 37 26 false; mkTok 37 "MetaData" 38 0 false; mkTok 42 "Header" 38 9 false; mkTok 2 "{" 38 16 false; mkTok 14 "zchar[" 38 18 false; mkTok 44 "//" 38 24 true; mkTok 30 "7" 39 0 false; mkTok 44 "// `tick` ""quote"" 'q'" 39 2 true; mkTok 13 "]" 40 0 false; mkTok 42 "u128" 40 1 false; mkTok 40 "," 41 0 false; mkTok 16 "char[]" 41 2 false; mkTok 44 "/// triple" 42 0 true; mkTok 44 "// trailing space " 43 0 true; mkTok 42 "u" 44 0 false; mkTok 40 "," 44 2 false; mkTok 42 "string_" 44 4 false; mkTok 42 "metadata" 44 12 false; mkTok 40 "," 44 21 false; mkTok 22 "uint32" 45 0 false; mkTok 42 "f32a" 45 7 false; mkTok 43 "`u8 x,`" 45 12 false; mkTok 40 "," 45 20 false; mkTok 3 "}" 45 22 false; mkTok 1 "options" 45 24 false; mkTok 2 "{" 45 31 false; mkTok 44 "// trailing space " 45 32 true; mkTok 42 "roots" 46 0 false; mkTok 4 "=" 47 4 false; mkTok 10 "true" 48 4 false; mkTok 41 ";" 48 8 false; mkTok 42 "int" 49 0 false; mkTok 4 "=" 49 4 false; mkTok 11 "false" 49 5 false; mkTok 41 ";" 49 11 false; mkTok 42 "string_" 49 13 false; mkTok 4 "=" 49 20 false; mkTok 31 """""" 50 0 false; mkTok 3 "}" 50 3 false; mkTok 0 "<EOF>" 50 4 false] (mkPacket (mkPtok 35 "packet" 1 0 0) (Some (mkPtok 3 "}" 50 3 155)) [(DPacket (mkPacketDef (mkSpan (mkPtok 35 "packet" 1 0 0) (mkPtok 3 "}" 17 2 40)) None (mkPtok 35 "packet" 1 0 0) (mkPtok 42 "int" 2 0 1) (mkPtok 2 "{" 3 0 3) [(mkFieldWithAttr (mkSpan (mkPtok 36 "repeat" 3 2 4) (mkPtok 40 "," 17 0 39)) [] (InerObjectField (mkSpan (mkPtok 36 "repeat" 3 2 4) (mkPtok 40 "," 17 0 39)) (Some (mkPtok 36 "repeat" 3 2 4)) (InerObjectDecl (mkSpan (mkPtok 42 "MetaDataX" 4 0 6) (mkPtok 3 "}" 16 0 37)) (mkPtok 42 "MetaDataX" 4 0 6) (mkPtok 2 "{" 5 0 8) [(InerObjectField (mkSpan (mkPtok 42 "pack" 6 0 10) (mkPtok 40 "," 15 2 36)) None (InerObjectDecl (mkSpan (mkPtok 42 "pack" 6 0 10) (mkPtok 3 "}" 15 0 35)) (mkPtok 42 "pack" 6 0 10) (mkPtok 2 "{" 7 4 11) [(InerObjectField (mkSpan (mkPtok 36 "repeat" 7 6 12) (mkPtok 40 "," 13 4 31)) (Some (mkPtok 36 "repeat" 7 6 12)) (InerObjectDecl (mkSpan (mkPtok 42 "Pad" 7 13 13) (mkPtok 3 "}" 13 2 30)) (mkPtok 42 "Pad" 7 13 13) (mkPtok 2 "{" 7 17 14) [(MetaField (mkSpan (mkPtok 24 "i8" 7 19 15) (mkPtok 40 "," 8 0 17)) None (mkMetaDecl (mkSpan (mkPtok 24 "i8" 7 19 15) (mkPtok 40 "," 8 0 17)) (TyBasic (mkSpan (mkPtok 24 "i8" 7 19 15) (mkPtok 24 "i8" 7 19 15)) (mkBasicType (mkSpan (mkPtok 24 "i8" 7 19 15) (mkPtok 24 "i8" 7 19 15)) (mkPtok 24 "i8" 7 19 15))) (mkPtok 42 "MetaDataX" 7 22 16) None (mkPtok 40 "," 8 0 17))); (ObjectField (mkSpan (mkPtok 36 "repeat" 8 2 18) (mkPtok 40 "," 8 22 21)) (Some (mkPtok 36 "repeat" 8 2 18)) (mkPtok 42 "pack" 8 9 19) (Some (mkPtok 42 "trueish" 8 14 20)) None (mkPtok 40 "," 8 22 21)); (ObjectField (mkSpan (mkPtok 42 "u" 9 0 22) (mkPtok 40 "," 11 14 26)) None (mkPtok 42 "u" 9 0 22) (Some (mkPtok 42 "charz" 11 4 24)) (Some (mkPtok 43 (string_of_bytes [96; 195; 169; 96]%N) 11 10 25)) (mkPtok 40 "," 11 14 26)); (MetaField (mkSpan (mkPtok 15 "string" 11 15 27) (mkPtok 40 "," 13 0 29)) None (mkMetaDecl (mkSpan (mkPtok 15 "string" 11 15 27) (mkPtok 40 "," 13 0 29)) (TyDynamic (mkSpan (mkPtok 15 "string" 11 15 27) (mkPtok 15 "string" 11 15 27)) (mkDynamicString (mkSpan (mkPtok 15 "string" 11 15 27) (mkPtok 15 "string" 11 15 27)) (mkPtok 15 "string" 11 15 27))) (mkPtok 42 "int" 12 0 28) None (mkPtok 40 "," 13 0 29)))] (mkPtok 3 "}" 13 2 30)) (mkPtok 40 "," 13 4 31)); (MetaField (mkSpan (mkPtok 29 "f64" 13 6 32) (mkPtok 40 "," 14 4 34)) None (mkMetaDecl (mkSpan (mkPtok 29 "f64" 13 6 32) (mkPtok 40 "," 14 4 34)) (TyBasic (mkSpan (mkPtok 29 "f64" 13 6 32) (mkPtok 29 "f64" 13 6 32)) (mkBasicType (mkSpan (mkPtok 29 "f64" 13 6 32) (mkPtok 29 "f64" 13 6 32)) (mkPtok 29 "f64" 13 6 32))) (mkPtok 42 "Z9_" 13 10 33) None (mkPtok 40 "," 14 4 34)))] (mkPtok 3 "}" 15 0 35)) (mkPtok 40 "," 15 2 36))] (mkPtok 3 "}" 16 0 37)) (mkPtok 40 "," 17 0 39)))] (mkPtok 3 "}" 17 2 40))); (DPacket (mkPacketDef (mkSpan (mkPtok 35 "packet" 17 4 41) (mkPtok 3 "}" 36 4 107)) None (mkPtok 35 "packet" 17 4 41) (mkPtok 42 "trueish" 17 11 42) (mkPtok 2 "{" 17 19 43) [(mkFieldWithAttr (mkSpan (mkPtok 7 "@lengthOf(" 18 0 44) (mkPtok 40 "," 20 11 50)) [(FALengthOf (mkSpan (mkPtok 7 "@lengthOf(" 18 0 44) (mkPtok 6 ")" 19 5 46)) (mkLengthOf (mkSpan (mkPtok 7 "@lengthOf(" 18 0 44) (mkPtok 6 ")" 19 5 46)) (mkPtok 7 "@lengthOf(" 18 0 44) (mkPtok 42 "u" 19 4 45) (mkPtok 6 ")" 19 5 46)))] (MetaField (mkSpan (mkPtok 20 "uint8" 19 6 47) (mkPtok 40 "," 20 11 50)) None (mkMetaDecl (mkSpan (mkPtok 20 "uint8" 19 6 47) (mkPtok 40 "," 20 11 50)) (TyBasic (mkSpan (mkPtok 20 "uint8" 19 6 47) (mkPtok 20 "uint8" 19 6 47)) (mkBasicType (mkSpan (mkPtok 20 "uint8" 19 6 47) (mkPtok 20 "uint8" 19 6 47)) (mkPtok 20 "uint8" 19 6 47))) (mkPtok 42 "metadata" 19 12 48) (Some (mkPtok 43 (string_of_bytes [96; 230; 182; 136; 230; 129; 175; 231; 177; 187; 229; 158; 139; 96]%N) 20 4 49)) (mkPtok 40 "," 20 11 50)))); (mkFieldWithAttr (mkSpan (mkPtok 38 "match" 20 13 51) (mkPtok 40 "," 33 7 91)) [] (MatchField (mkSpan (mkPtok 38 "match" 20 13 51) (mkPtok 40 "," 33 7 91)) (mkMatchFieldDecl (mkSpan (mkPtok 38 "match" 20 13 51) (mkPtok 3 "}" 33 6 90)) (mkPtok 38 "match" 20 13 51) (mkPtok 42 "uint8x" 20 19 52) (mkPtok 17 "as" 21 0 53) (mkPtok 42 "roots" 21 3 54) (mkPtok 2 "{" 22 0 55) [(mkMatchPair (mkSpan (mkPtok 31 (string_of_bytes [34; 195; 169; 116; 195; 169; 34]%N) 22 2 56) (mkPtok 42 "Pad" 23 4 58)) (MKString (mkPtok 31 (string_of_bytes [34; 195; 169; 116; 195; 169; 34]%N) 22 2 56)) (mkPtok 39 ":" 22 7 57) (mkPtok 42 "Pad" 23 4 58) None); (mkMatchPair (mkSpan (mkPtok 30 "0123456789" 23 8 59) (mkPtok 42 "msg_type" 24 2 61)) (MKDigits (mkPtok 30 "0123456789" 23 8 59)) (mkPtok 39 ":" 24 0 60) (mkPtok 42 "msg_type" 24 2 61) None); (mkMatchPair (mkSpan (mkPtok 18 "[" 25 0 63) (mkPtok 40 "," 27 4 73)) (MKList (mkKeyList (mkSpan (mkPtok 18 "[" 25 0 63) (mkPtok 13 "]" 25 13 69)) (mkPtok 18 "[" 25 0 63) (mkPtok 31 """1""" 25 2 64) [((mkPtok 40 "," 25 6 65), (mkPtok 30 "0" 25 8 66)); ((mkPtok 40 "," 25 10 67), (mkPtok 30 "10" 25 11 68))] (mkPtok 13 "]" 25 13 69))) (mkPtok 39 ":" 26 0 71) (mkPtok 42 "pack" 27 0 72) (Some (mkPtok 40 "," 27 4 73))); (mkMatchPair (mkSpan (mkPtok 18 "[" 28 0 74) (mkPtok 40 "," 29 0 81)) (MKList (mkKeyList (mkSpan (mkPtok 18 "[" 28 0 74) (mkPtok 13 "]" 28 17 78)) (mkPtok 18 "[" 28 0 74) (mkPtok 31 """it's""" 28 2 75) [((mkPtok 40 "," 28 9 76), (mkPtok 31 (string_of_bytes [34; 92; 195; 169; 34]%N) 28 12 77))] (mkPtok 13 "]" 28 17 78))) (mkPtok 39 ":" 28 19 79) (mkPtok 42 "u8x" 28 20 80) (Some (mkPtok 40 "," 29 0 81))); (mkMatchPair (mkSpan (mkPtok 18 "[" 29 2 82) (mkPtok 40 "," 33 4 89)) (MKList (mkKeyList (mkSpan (mkPtok 18 "[" 29 2 82) (mkPtok 13 "]" 30 11 85)) (mkPtok 18 "[" 29 2 82) (mkPtok 30 "0123456789" 30 0 84) [] (mkPtok 13 "]" 30 11 85))) (mkPtok 39 ":" 30 13 86) (mkPtok 42 "MetaDataX" 31 0 87) (Some (mkPtok 40 "," 33 4 89)))] (mkPtok 3 "}" 33 6 90)) (mkPtok 40 "," 33 7 91))); (mkFieldWithAttr (mkSpan (mkPtok 14 "zchar[" 33 8 92) (mkPtok 40 "," 33 45 99)) [] (LengthField (mkSpan (mkPtok 14 "zchar[" 33 8 92) (mkPtok 40 "," 33 45 99)) (mkLengthFieldDecl (mkSpan (mkPtok 14 "zchar[" 33 8 92) (mkPtok 40 "," 33 45 99)) (Some (TyFixed (mkSpan (mkPtok 14 "zchar[" 33 8 92) (mkPtok 13 "]" 33 18 94)) (mkFixedString (mkSpan (mkPtok 14 "zchar[" 33 8 92) (mkPtok 13 "]" 33 18 94)) (mkPtok 14 "zchar[" 33 8 92) (mkPtok 30 "00" 33 15 93) (mkPtok 13 "]" 33 18 94)))) (mkPtok 42 "pack" 33 20 95) (mkLengthOf (mkSpan (mkPtok 7 "@lengthOf(" 33 25 96) (mkPtok 6 ")" 33 44 98)) (mkPtok 7 "@lengthOf(" 33 25 96) (mkPtok 42 "string_" 33 36 97) (mkPtok 6 ")" 33 44 98)) None (mkPtok 40 "," 33 45 99)))); (mkFieldWithAttr (mkSpan (mkPtok 9 "@tag(" 34 0 101) (mkPtok 40 "," 35 14 106)) [(FATag (mkSpan (mkPtok 9 "@tag(" 34 0 101) (mkPtok 6 ")" 34 17 103)) (mkTagAttr (mkSpan (mkPtok 9 "@tag(" 34 0 101) (mkPtok 6 ")" 34 17 103)) (mkPtok 9 "@tag(" 34 0 101) (mkPtok 30 "4294967296" 34 6 102) (mkPtok 6 ")" 34 17 103)))] (ObjectField (mkSpan (mkPtok 42 "x_y_z" 35 0 104) (mkPtok 40 "," 35 14 106)) None (mkPtok 42 "x_y_z" 35 0 104) (Some (mkPtok 42 "string_" 35 6 105)) None (mkPtok 40 "," 35 14 106)))] (mkPtok 3 "}" 36 4 107))); (DOption (mkOptionDef (mkSpan (mkPtok 1 "options" 36 6 108) (mkPtok 3 "}" 37 26 117)) (mkPtok 1 "options" 36 6 108) (mkPtok 2 "{" 36 14 109) [(mkOptionDecl (mkSpan (mkPtok 42 "A" 36 15 110) (mkPtok 10 "true" 37 5 112)) (mkPtok 42 "A" 36 15 110) (mkPtok 4 "=" 37 4 111) (VTrue (mkSpan (mkPtok 10 "true" 37 5 112) (mkPtok 10 "true" 37 5 112)) (mkPtok 10 "true" 37 5 112)) None); (mkOptionDecl (mkSpan (mkPtok 42 "float" 37 10 113) (mkPtok 41 ";" 37 24 116)) (mkPtok 42 "float" 37 10 113) (mkPtok 4 "=" 37 17 114) (VString (mkSpan (mkPtok 31 (string_of_bytes [34; 230; 182; 136; 230; 129; 175; 34]%N) 37 19 115) (mkPtok 31 (string_of_bytes [34; 230; 182; 136; 230; 129; 175; 34]%N) 37 19 115)) (mkPtok 31 (string_of_bytes [34; 230; 182; 136; 230; 129; 175; 34]%N) 37 19 115)) (Some (mkPtok 41 ";" 37 24 116)))] (mkPtok 3 "}" 37 26 117))); (DMeta (mkMetaDef (mkSpan (mkPtok 37 "MetaData" 38 0 118) (mkPtok 3 "}" 45 22 140)) (mkPtok 37 "MetaData" 38 0 118) (mkPtok 42 "Header" 38 9 119) (mkPtok 2 "{" 38 16 120) [(MIDecl (mkMetaDecl (mkSpan (mkPtok 14 "zchar[" 38 18 121) (mkPtok 40 "," 41 0 127)) (TyFixed (mkSpan (mkPtok 14 "zchar[" 38 18 121) (mkPtok 13 "]" 40 0 125)) (mkFixedString (mkSpan (mkPtok 14 "zchar[" 38 18 121) (mkPtok 13 "]" 40 0 125)) (mkPtok 14 "zchar[" 38 18 121) (mkPtok 30 "7" 39 0 123) (mkPtok 13 "]" 40 0 125))) (mkPtok 42 "u128" 40 1 126) None (mkPtok 40 "," 41 0 127))); (MIDecl (mkMetaDecl (mkSpan (mkPtok 16 "char[]" 41 2 128) (mkPtok 40 "," 44 2 132)) (TyDynamic (mkSpan (mkPtok 16 "char[]" 41 2 128) (mkPtok 16 "char[]" 41 2 128)) (mkDynamicString (mkSpan (mkPtok 16 "char[]" 41 2 128) (mkPtok 16 "char[]" 41 2 128)) (mkPtok 16 "char[]" 41 2 128))) (mkPtok 42 "u" 44 0 131) None (mkPtok 40 "," 44 2 132))); (MIRef (mkRefMetaDecl (mkSpan (mkPtok 42 "string_" 44 4 133) (mkPtok 40 "," 44 21 135)) (mkPtok 42 "string_" 44 4 133) (mkPtok 42 "metadata" 44 12 134) None (mkPtok 40 "," 44 21 135))); (MIDecl (mkMetaDecl (mkSpan (mkPtok 22 "uint32" 45 0 136) (mkPtok 40 "," 45 20 139)) (TyBasic (mkSpan (mkPtok 22 "uint32" 45 0 136) (mkPtok 22 "uint32" 45 0 136)) (mkBasicType (mkSpan (mkPtok 22 "uint32" 45 0 136) (mkPtok 22 "uint32" 45 0 136)) (mkPtok 22 "uint32" 45 0 136))) (mkPtok 42 "f32a" 45 7 137) (Some (mkPtok 43 "`u8 x,`" 45 12 138)) (mkPtok 40 "," 45 20 139)))] (mkPtok 3 "}" 45 22 140))); (DOption (mkOptionDef (mkSpan (mkPtok 1 "options" 45 24 141) (mkPtok 3 "}" 50 3 155)) (mkPtok 1 "options" 45 24 141) (mkPtok 2 "{" 45 31 142) [(mkOptionDecl (mkSpan (mkPtok 42 "roots" 46 0 144) (mkPtok 41 ";" 48 8 147)) (mkPtok 42 "roots" 46 0 144) (mkPtok 4 "=" 47 4 145) (VTrue (mkSpan (mkPtok 10 "true" 48 4 146) (mkPtok 10 "true" 48 4 146)) (mkPtok 10 "true" 48 4 146)) (Some (mkPtok 41 ";" 48 8 147))); (mkOptionDecl (mkSpan (mkPtok 42 "int" 49 0 148) (mkPtok 41 ";" 49 11 151)) (mkPtok 42 "int" 49 0 148) (mkPtok 4 "=" 49 4 149) (VFalse (mkSpan (mkPtok 11 "false" 49 5 150) (mkPtok 11 "false" 49 5 150)) (mkPtok 11 "false" 49 5 150)) (Some (mkPtok 41 ";" 49 11 151))); (mkOptionDecl (mkSpan (mkPtok 42 "string_" 49 13 152) (mkPtok 31 """""" 50 0 154)) (mkPtok 42 "string_" 49 13 152) (mkPtok 4 "=" 49 20 153) (VString (mkSpan (mkPtok 31 """""" 50 0 154) (mkPtok 31 """""" 50 0 154)) (mkPtok 31 """""" 50 0 154)) None)] (mkPtok 3 "}" 50 3 155)))])).
-Eval vm_compute in ("<<<M52>>>" ++ check (runes_of_ascii "//x
-packet Header
-    {
-    body
-// " ++ [27880; 37322]%N ++ runes_of_ascii "
-// " ++ [27880; 37322]%N ++ runes_of_ascii "
-@calculatedFrom(
-    ""CRC32"" )
-`it's` ,repeat
-int64//x
-msg_type // " ++ [128512]%N ++ runes_of_ascii " emoji
-,
-//	t
-//
-@tag( 0 ) zchar[ 0 //
-]
-    int
-//	t
-// @lengthOf(
-, }
-    // " ++ [128512]%N ++ runes_of_ascii " emoji
-    options { Packet=
-true
-    MetaDataX =
-""" ++ [28040; 24687]%N ++ runes_of_ascii """ A
-    = string} root packet	Logon {
-    @leftPad // " ++ [27880; 37322]%N ++ runes_of_ascii "
-('0' //x
-)Header//
-leftPad `doc` ,
-    f32a
-    {	rootA @lengthOf( calculatedFrom )	, int8
-Packet `line1
-line2` , } , repeat calculatedFrom
-    { // `tick` ""quote"" 'q'
-match
-packetx as len { 1:matchKey ,
-0123456789 :repeatCount ,
-""\" ++ [233]%N ++ runes_of_ascii """ :
-float , 255:
-    MetaDataX
-, },} ,
-//x
-// " ++ [27880; 37322]%N ++ runes_of_ascii "
-leftPad {  repeat roots{ //	t
-roots
-@calculatedFrom(/// triple
-""abc"" ),int32
-BodyLength @calculatedFrom( ""packet"" )
-,
-}	, match repeatCount as
-matchKey { ""abc"" : u128 , """ ++ [128512]%N ++ runes_of_ascii """ : a1
-, ""a\\""
-:rootA ,	[  3,3 ]// c
-:
-x_y_z	007 :Foo
-    } ,
-}
-, // c
-repeat rootA	matchKey	`it's` //	t
-,	a1
-    @calculatedFrom(""x y"" )  `line1
-line2` ,int	,
-    @tag(
-// trailing space 
-//x
-65535) match metadata as	As
-{ ""x y"": Foo	,//x
-[ // `tick` ""quote"" 'q'
-""x y"" ]:
-    tag
-//
-// a // b
-, 3
-    : pack } ,repeat int8 charz ,char[] body , }
-options {
-    MetaDataX = char[ 0 ] ; } // a // b")).
-Eval vm_compute in ("<<<M84>>>" ++ check (runes_of_ascii "packet
-zchar {@rightPad (// a // b
-) uint8 a1 `line1
-line2` , @calculatedFrom( ""x y"" ) match pack as	matchKey
-{
-    /// triple
-    """ ++ [28040; 24687]%N ++ runes_of_ascii """  : //x
-u128 ,
-    3 : i64_
-    ""a\""b""
-    : As , } ,
-// " ++ [27880; 37322]%N ++ runes_of_ascii "
-// @lengthOf(
-u8 Packet	@calculatedFrom( ""// no comment"" ) //x
-,
-    }
-//
-")).
-Eval vm_compute in ("<<<M116>>>" ++ check (runes_of_ascii "MetaData crc { uint8x float
-,}
-// @lengthOf(
-")).
-Eval vm_compute in ("<<<M148>>>" ++ check (runes_of_ascii "options // `tick` ""quote"" 'q'
-{ repeatCount = 3/// triple
-}")).
-Eval vm_compute in ("<<<M180>>>" ++ check (runes_of_ascii "MetaData T  {
-char[] metadata ,
-    // `tick` ""quote"" 'q'
-    i8
-Header
-    //	t
-    ,
-u128 chars `a\` , char[
-    42
-] calculatedFrom
-, } // packet A { u8 x, }
-packet stringy {
-    @rightPad( // c
-)
-    //	t
-    string trueish
-`two words`, } MetaData metadata{ zchar[//
-007]x_y_z
-, zchar[ 10 ] u	`// not a comment`
-    , string u8x, char[]repeatCount// " ++ [128512]%N ++ runes_of_ascii " emoji
-, zchar Pad ,u32 f32a
-    `doc`
-, } // `tick` ""quote"" 'q'")).
-Eval vm_compute in ("<<<M212>>>" ++ check (@nil rune)).
-Eval vm_compute in ("<<<M244>>>" ++ check (runes_of_ascii "// " ++ [128512]%N ++ runes_of_ascii " emoji
-options {repeatCount = u32 ;tag = ' ' ; } // a // b")).
-Eval vm_compute in ("<<<T244>>>" ++ terms [mkTok 44 (string_of_bytes [47; 47; 32; 240; 159; 152; 128; 32; 101; 109; 111; 106; 105]%N) 1 0 true; mkTok 1 "options" 2 0 false; mkTok 2 "{" 2 8 false; mkTok 42 "repeatCount" 2 9 false; mkTok 4 "=" 2 21 false; mkTok 22 "u32" 2 23 false; mkTok 41 ";" 2 27 false; mkTok 42 "tag" 2 28 false; mkTok 4 "=" 2 32 false; mkTok 33 "' '" 2 34 false; mkTok 41 ";" 2 38 false; mkTok 3 "}" 2 40 false; mkTok 44 "// a // b" 2 42 true; mkTok 0 "<EOF>" 2 51 false] (mkPacket (mkPtok 1 "options" 2 0 1) (Some (mkPtok 3 "}" 2 40 11)) [(DOption (mkOptionDef (mkSpan (mkPtok 1 "options" 2 0 1) (mkPtok 3 "}" 2 40 11)) (mkPtok 1 "options" 2 0 1) (mkPtok 2 "{" 2 8 2) [(mkOptionDecl (mkSpan (mkPtok 42 "repeatCount" 2 9 3) (mkPtok 41 ";" 2 27 6)) (mkPtok 42 "repeatCount" 2 9 3) (mkPtok 4 "=" 2 21 4) (VType (mkSpan (mkPtok 22 "u32" 2 23 5) (mkPtok 22 "u32" 2 23 5)) (TyBasic (mkSpan (mkPtok 22 "u32" 2 23 5) (mkPtok 22 "u32" 2 23 5)) (mkBasicType (mkSpan (mkPtok 22 "u32" 2 23 5) (mkPtok 22 "u32" 2 23 5)) (mkPtok 22 "u32" 2 23 5)))) (Some (mkPtok 41 ";" 2 27 6))); (mkOptionDecl (mkSpan (mkPtok 42 "tag" 2 28 7) (mkPtok 41 ";" 2 38 10)) (mkPtok 42 "tag" 2 28 7) (mkPtok 4 "=" 2 32 8) (VPaddingChar (mkSpan (mkPtok 33 "' '" 2 34 9) (mkPtok 33 "' '" 2 34 9)) (mkPtok 33 "' '" 2 34 9)) (Some (mkPtok 41 ";" 2 38 10)))] (mkPtok 3 "}" 2 40 11)))])).
-Eval vm_compute in ("<<<M276>>>" ++ check (runes_of_ascii "
-")).
-Eval vm_compute in ("<<<M308>>>" ++ check (runes_of_ascii "MetaData roots { zchar[ 7 ] body , } packet trueish { repeat zchar[ 0123456789
-] i8i8 `line1
-line2`
-//x
-/// triple
-, } packet u8x { x_y_z chars
-, @calculatedFrom( """ ++ [28040; 24687]%N ++ runes_of_ascii """) @calculatedFrom(
-    """ ++ [28040; 24687]%N ++ runes_of_ascii """ )
-    @tag( 007) int64
-Foo// trailing space 
-,int8 _x`it's`
-, match x as Foo {
-[// c
-65535,	""" ++ [233]%N ++ runes_of_ascii "t" ++ [233]%N ++ runes_of_ascii """	,""abc"" ,
-""\" ++ [233]%N ++ runes_of_ascii """// @lengthOf(
-,	10 ]: // packet A { u8 x, }
-Pad
-, } ,
-body
-{ match msg_type as uint8x {
-""a\""b"" :	falsey 0 :  Packet""it's""
-:lengthOf //	t
-""" ++ [28040; 24687]%N ++ runes_of_ascii """:
-charz ,} ,
-    // a // b
-    }	,	@tag( 42 )@calculatedFrom(
-""\" ++ [233]%N ++ runes_of_ascii """
-    )// c
-@lengthOf(
-u )
-    repeat char
-calculatedFrom	, @tag(
-// @lengthOf(
-// " ++ [128512]%N ++ runes_of_ascii " emoji
-1  )
-@rightPad ( '\x00'
-) @lengthOf( f32a )
-int16 pack
-`" ++ [233]%N ++ runes_of_ascii "` , @lengthOf(
-    // c
-    A //x
-) repeat
-char[]
-    options1 , } packet _x { @lengthOf(
-    options1)  string
-    u8x @lengthOf(
-_x// a // b
-), repeat
-// " ++ [128512]%N ++ runes_of_ascii " emoji
-// packet A { u8 x, }
-Pad
-{ As	{ matchKey chars ,
-} ,// trailing space 
-} ,repeat string crc
-    //
-    `line1
-line2` ,
-    //
-    } packet crc{@calculatedFrom( ""{,}"" )  a1 u128 , } //	t")).
-Eval vm_compute in ("<<<M340>>>" ++ check (runes_of_ascii "
-root// packet A { u8 x, }
-packet As
-// c
-// packet A { u8 x, }
-{}	packet charz {metadata @calculatedFrom(
+Eval vm_compute in ("<<<M20>>>" ++ check (runes_of_ascii "packet // " ++ [27880; 37322]%N ++ runes_of_ascii "
+MetaDataX /// triple
+{char[ 1 ]T  ,
+char[] Foo @calculatedFrom(
 ""{,}"" )
-,repeat
-zchar[	007
-] T
-`tab	here`, repeat tag
-{
-int8 crc `two words` , repeat o// @lengthOf(
-{ repeat
-// " ++ [128512]%N ++ runes_of_ascii " emoji
-// trailing space 
-f32a,
-} , repeat i16 Z9_ `say ""hi""` , zchar[ // @lengthOf(
-3] body @lengthOf( Packet )
-,} , @lengthOf(
-    o ) match uint8x as As
-    {
-255	:
-T ,	},
-f32a
-    @lengthOf( leftPad )
-    // `tick` ""quote"" 'q'
-    ,BodyLength _x `u8 x,` ,
-} packet BodyLength
-{ }
-packet
-leftPad
-{ @leftPad(
-// " ++ [128512]%N ++ runes_of_ascii " emoji
-// packet A { u8 x, }
-' ') repeat zchar[ 10
-]	_x ,}
-    options{ int =65535 ;
-    }
-")).
-Eval vm_compute in ("<<<M372>>>" ++ check (runes_of_ascii "MetaData u128 { char[]falsey ,u8  roots	, i8
-u `doc`, packetx int ,
-}// c
-packet asx
-{ }
-options	{ matchKey= ""// no comment"" Logon
-= char[]
-    u128=
-false options1 =' '
-len
-    = '\x00'  }")).
-Eval vm_compute in ("<<<M404>>>" ++ check (runes_of_ascii "root
-    packet
-    stringy{	u8x @lengthOf( A)
-    , match f32a as // trailing space 
-options1
-// " ++ [27880; 37322]%N ++ runes_of_ascii "
-//	t
-{[
-""a\""b"" ,	0123456789 ] : trueish[
-    ""a\\""
-, 3
-, 65535
-    , 255 ,
-    """ ++ [233]%N ++ runes_of_ascii "t" ++ [233]%N ++ runes_of_ascii """, 65535 , ""\" ++ [233]%N ++ runes_of_ascii """ ] // `tick` ""quote"" 'q'
-:  body,},
-@calculatedFrom( """ ++ [128512]%N ++ runes_of_ascii """ ) repeat uint16 int //
-,repeat
-/// triple
-/// triple
-tag	, @leftPad () match int as u8x //
-{[ 65535 ,	""" ++ [233]%N ++ runes_of_ascii "t" ++ [233]%N ++ runes_of_ascii """
-    ] :
-    metadata
-,
-    }//x
-, @rightPad  () repeat zchar[ 7
-//	t
-// packet A { u8 x, }
-] Logon
-//
-//	t
-`crlf
-line`
-, As
-// " ++ [128512]%N ++ runes_of_ascii " emoji
-// packet A { u8 x, }
-{
-int64 roots , } , // packet A { u8 x, }
-@tag(255
-) int64 charz @calculatedFrom(
-""a	b"" ) , BodyLength lengthOf  ,float64
-As,  }packet	Foo { char[ 4294967296 ]float `u8 x,`
-    , } packet _x { }
-")).
-Eval vm_compute in ("<<<M436>>>" ++ check (runes_of_ascii "packet zchar { @calculatedFrom( ""a\\""
-// @lengthOf(
-// " ++ [27880; 37322]%N ++ runes_of_ascii "
-)f32a`{ , }` , match // c
-calculatedFrom as pack {""" ++ [233]%N ++ runes_of_ascii "t" ++ [233]%N ++ runes_of_ascii """
-    // a // b
-    :As , 0123456789
-:
-i8i8 ,4294967296	:
-A , } ,
-//x
-// trailing space 
-i32
-    packetx `say ""hi""`, repeatCount
-// `tick` ""quote"" 'q'
-// " ++ [128512]%N ++ runes_of_ascii " emoji
-{
-//
-/// triple
-repeat falsey {rootA // c
-{ T Logon	`a\`,
-}
-,char[
-    007]
-// trailing space 
-// " ++ [27880; 37322]%N ++ runes_of_ascii "
-A // trailing space 
-, } , // trailing space 
-} ,
-repeat
-// " ++ [128512]%N ++ runes_of_ascii " emoji
-// " ++ [27880; 37322]%N ++ runes_of_ascii "
-Packet
-    {  int64
-    matchKey
-    ,
-}
-, // c
-string _x `crlf
-line` ,float
-    { repeat
-u8x {metadata@calculatedFrom( //
-""a\\"" )`it's`
-    ,
-}
-    , },
-@lengthOf( o
-)
-    @tag(
-00  ) @tag( 0123456789
-    )
-    // a // b
-    falsey {repeat asx `crlf
-line`, repeat // a // b
-o , }  ,@tag( 00)
-    match
-// `tick` ""quote"" 'q'
-// `tick` ""quote"" 'q'
-float
-    as Foo
-    { """ ++ [128512]%N ++ runes_of_ascii """ : tag , } , @tag(
-255 )	repeat i8i8 ,}// `tick` ""quote"" 'q'
-packet As { i8 a1@lengthOf( options1/// triple
-)	,}")).
-Eval vm_compute in ("<<<M468>>>" ++ check (runes_of_ascii "// `tick` ""quote"" 'q'
-packet
-    trueish {
-    @lengthOf(
-MetaDataX ) uint8x	@calculatedFrom(""a\""b""  ) ,}")).
-Eval vm_compute in ("<<<T468>>>" ++ terms [mkTok 44 "// `tick` ""quote"" 'q'" 1 0 true; mkTok 35 "packet" 2 0 false; mkTok 42 "trueish" 3 4 false; mkTok 2 "{" 3 12 false; mkTok 7 "@lengthOf(" 4 4 false; mkTok 42 "MetaDataX" 5 0 false; mkTok 6 ")" 5 10 false; mkTok 42 "uint8x" 5 12 false; mkTok 5 "@calculatedFrom(" 5 19 false; mkTok 31 """a\""b""" 5 35 false; mkTok 6 ")" 5 43 false; mkTok 40 "," 5 45 false; mkTok 3 "}" 5 46 false; mkTok 0 "<EOF>" 5 47 false] (mkPacket (mkPtok 35 "packet" 2 0 1) (Some (mkPtok 3 "}" 5 46 12)) [(DPacket (mkPacketDef (mkSpan (mkPtok 35 "packet" 2 0 1) (mkPtok 3 "}" 5 46 12)) None (mkPtok 35 "packet" 2 0 1) (mkPtok 42 "trueish" 3 4 2) (mkPtok 2 "{" 3 12 3) [(mkFieldWithAttr (mkSpan (mkPtok 7 "@lengthOf(" 4 4 4) (mkPtok 40 "," 5 45 11)) [(FALengthOf (mkSpan (mkPtok 7 "@lengthOf(" 4 4 4) (mkPtok 6 ")" 5 10 6)) (mkLengthOf (mkSpan (mkPtok 7 "@lengthOf(" 4 4 4) (mkPtok 6 ")" 5 10 6)) (mkPtok 7 "@lengthOf(" 4 4 4) (mkPtok 42 "MetaDataX" 5 0 5) (mkPtok 6 ")" 5 10 6)))] (CheckSumField (mkSpan (mkPtok 42 "uint8x" 5 12 7) (mkPtok 40 "," 5 45 11)) (mkChecksumFieldDecl (mkSpan (mkPtok 42 "uint8x" 5 12 7) (mkPtok 40 "," 5 45 11)) None (mkPtok 42 "uint8x" 5 12 7) (mkCalculatedFrom (mkSpan (mkPtok 5 "@calculatedFrom(" 5 19 8) (mkPtok 6 ")" 5 43 10)) (mkPtok 5 "@calculatedFrom(" 5 19 8) (mkPtok 31 """a\""b""" 5 35 9) (mkPtok 6 ")" 5 43 10)) None (mkPtok 40 "," 5 45 11))))] (mkPtok 3 "}" 5 46 12)))])).
-Eval vm_compute in ("<<<M500>>>" ++ check (runes_of_ascii "//
-
-")).
-Eval vm_compute in ("<<<M532>>>" ++ check (runes_of_ascii "  packet trueish { match
-    options1 as
-    Packet{[
-    ""a\\"" , 3	, ""\" ++ [233]%N ++ runes_of_ascii """ //
-,0123456789 ]  : Packet
-    ,""// no comment""
-    : BodyLength,
-[
-    10 ]: //	t
-stringy , """ ++ [28040; 24687]%N ++ runes_of_ascii """ :  metadata [  ""`tick`""
-    ,
-7 , ""// no comment"" ] :int ,65535 :
-//x
-// packet A { u8 x, }
-packetx ,
-    } ,}
-    packet
-    f32a
-{  @calculatedFrom( //	t
-""{,}"" )
-char[] len `doc`
-    , @leftPad
-    ( '\x00'
-    ) repeat char[] Z9_ `tab	here` ,
-match MetaDataX
-// c
-// packet A { u8 x, }
-as crc {
-    ""a	b""
-    :	Pad , 10
-:
-matchKey  [
-1 ,""{,}"" ,3 ] :
-    uint8x , ""x y"" :
-    Header , 7 // trailing space 
-: repeatCount ,[ ""a\\"" , ""a\""b""
-    // " ++ [128512]%N ++ runes_of_ascii " emoji
-    , 10] : a1 ,
-} ,
-@calculatedFrom(""a\\"" )
-    //x
-    @leftPad
-// a // b
-// trailing space 
-( ) @leftPad
-    ( '\x00'	)calculatedFrom
-`tab	here` , @rightPad (// c
-'\x00' )
-    float32
-body ,  } packet
-    Pad {Packet
-    @calculatedFrom(
-    ""a	b""
-// trailing space 
-// a // b
-), @tag(
-4294967296
-    ) @rightPad// " ++ [128512]%N ++ runes_of_ascii " emoji
-( ) @calculatedFrom(
-    // a // b
-    ""1""	) repeat tag
-    matchKey `" ++ [28040; 24687; 31867; 22411]%N ++ runes_of_ascii "` ,  @tag(
-    4294967296)
-@lengthOf(string_
-    ) falsey
-//
-// " ++ [27880; 37322]%N ++ runes_of_ascii "
-i64_
-    , @tag( 0123456789 ) As
-u `two words` , @leftPad ( '0' ) options1{ uint8 zchar // c
-, }
-    , @leftPad	( ) repeat uint32
-    // a // b
-    asx ,	metadata { // c
-char[ 0 ] len @lengthOf(T ) , }	, zchar[ 3 ]uint8x @lengthOf( trueish // `tick` ""quote"" 'q'
-) `" ++ [233]%N ++ runes_of_ascii "` , @calculatedFrom(  ""CRC32""
-)
-    roots@lengthOf( x
-    ), }")).
-Eval vm_compute in ("<<<M564>>>" ++ check (runes_of_ascii "// c
-packet BodyLength { u { char[ 007] i8i8`a\` , pack{ match charz as // packet A { u8 x, }
-Header
-    { ""\n""
-    : leftPad } , } , string u8x @calculatedFrom( """ ++ [233]%N ++ runes_of_ascii "t" ++ [233]%N ++ runes_of_ascii """	)	, } ,
-}
-")).
-Eval vm_compute in ("<<<M596>>>" ++ check (runes_of_ascii "packet crc {
-// c
-//x
-@tag( 0 )
-    float64
-    falsey @calculatedFrom( ""packet""
-)
-, match x as matchKey
-    { 42: options1 0:  crc  ,  007 : u128 ,	} ,
-@calculatedFrom(""" ++ [233]%N ++ runes_of_ascii "t" ++ [233]%N ++ runes_of_ascii """ )repeat i8i8{ zchar[4294967296] x @lengthOf( As
-) ,
-repeat int32 a1
-,i32 x`" ++ [28040; 24687; 31867; 22411]%N ++ runes_of_ascii "` , },
-    int @lengthOf( metadata ) ,	repeat
-trueish, uint16 int , x_y_z @lengthOf( roots
-// `tick` ""quote"" 'q'
-//
-)`" ++ [28040; 24687; 31867; 22411]%N ++ runes_of_ascii "` , }
-// packet A { u8 x, }
-")).
-Eval vm_compute in ("<<<M628>>>" ++ check (runes_of_ascii "options{	i8i8 = 65535
-; asx/// triple
-=
-float64 charz	= ""`tick`"" As//
-=
-    7 ;
-    i8i8 = ""\n"" }
-// `tick` ""quote"" 'q'
-// " ++ [27880; 37322]%N ++ runes_of_ascii "
-packet u{ } options	{
-// packet A { u8 x, }
-/// triple
-f32a =10 chars // trailing space 
-=
-""\" ++ [233]%N ++ runes_of_ascii """ x =uint8 ;
-metadata =42 ;  lengthOf =true ;}
-    options {
-// " ++ [27880; 37322]%N ++ runes_of_ascii "
-// " ++ [128512]%N ++ runes_of_ascii " emoji
-BodyLength = true
-    ; }")).
-Eval vm_compute in ("<<<M660>>>" ++ check (runes_of_ascii "// packet A { u8 x, }
-MetaData
-    matchKey	{	}
-")).
-Eval vm_compute in ("<<<M692>>>" ++ check (runes_of_ascii "MetaData a1 { x_y_z crc `say ""hi""` , uint16 i8i8 `// not a comment`
-, char[] u `{ , }`
-, Pad Header
-, u32
-    packetx `{ , }` , }
-")).
-Eval vm_compute in ("<<<T692>>>" ++ terms [mkTok 37 "MetaData" 1 0 false; mkTok 42 "a1" 1 9 false; mkTok 2 "{" 1 12 false; mkTok 42 "x_y_z" 1 14 false; mkTok 42 "crc" 1 20 false; mkTok 43 "`say ""hi""`" 1 24 false; mkTok 40 "," 1 35 false; mkTok 21 "uint16" 1 37 false; mkTok 42 "i8i8" 1 44 false; mkTok 43 "`// not a comment`" 1 49 false; mkTok 40 "," 2 0 false; mkTok 16 "char[]" 2 2 false; mkTok 42 "u" 2 9 false; mkTok 43 "`{ , }`" 2 11 false; mkTok 40 "," 3 0 false; mkTok 42 "Pad" 3 2 false; mkTok 42 "Header" 3 6 false; mkTok 40 "," 4 0 false; mkTok 22 "u32" 4 2 false; mkTok 42 "packetx" 5 4 false; mkTok 43 "`{ , }`" 5 12 false; mkTok 40 "," 5 20 false; mkTok 3 "}" 5 22 false; mkTok 0 "<EOF>" 6 0 false] (mkPacket (mkPtok 37 "MetaData" 1 0 0) (Some (mkPtok 3 "}" 5 22 22)) [(DMeta (mkMetaDef (mkSpan (mkPtok 37 "MetaData" 1 0 0) (mkPtok 3 "}" 5 22 22)) (mkPtok 37 "MetaData" 1 0 0) (mkPtok 42 "a1" 1 9 1) (mkPtok 2 "{" 1 12 2) [(MIRef (mkRefMetaDecl (mkSpan (mkPtok 42 "x_y_z" 1 14 3) (mkPtok 40 "," 1 35 6)) (mkPtok 42 "x_y_z" 1 14 3) (mkPtok 42 "crc" 1 20 4) (Some (mkPtok 43 "`say ""hi""`" 1 24 5)) (mkPtok 40 "," 1 35 6))); (MIDecl (mkMetaDecl (mkSpan (mkPtok 21 "uint16" 1 37 7) (mkPtok 40 "," 2 0 10)) (TyBasic (mkSpan (mkPtok 21 "uint16" 1 37 7) (mkPtok 21 "uint16" 1 37 7)) (mkBasicType (mkSpan (mkPtok 21 "uint16" 1 37 7) (mkPtok 21 "uint16" 1 37 7)) (mkPtok 21 "uint16" 1 37 7))) (mkPtok 42 "i8i8" 1 44 8) (Some (mkPtok 43 "`// not a comment`" 1 49 9)) (mkPtok 40 "," 2 0 10))); (MIDecl (mkMetaDecl (mkSpan (mkPtok 16 "char[]" 2 2 11) (mkPtok 40 "," 3 0 14)) (TyDynamic (mkSpan (mkPtok 16 "char[]" 2 2 11) (mkPtok 16 "char[]" 2 2 11)) (mkDynamicString (mkSpan (mkPtok 16 "char[]" 2 2 11) (mkPtok 16 "char[]" 2 2 11)) (mkPtok 16 "char[]" 2 2 11))) (mkPtok 42 "u" 2 9 12) (Some (mkPtok 43 "`{ , }`" 2 11 13)) (mkPtok 40 "," 3 0 14))); (MIRef (mkRefMetaDecl (mkSpan (mkPtok 42 "Pad" 3 2 15) (mkPtok 40 "," 4 0 17)) (mkPtok 42 "Pad" 3 2 15) (mkPtok 42 "Header" 3 6 16) None (mkPtok 40 "," 4 0 17))); (MIDecl (mkMetaDecl (mkSpan (mkPtok 22 "u32" 4 2 18) (mkPtok 40 "," 5 20 21)) (TyBasic (mkSpan (mkPtok 22 "u32" 4 2 18) (mkPtok 22 "u32" 4 2 18)) (mkBasicType (mkSpan (mkPtok 22 "u32" 4 2 18) (mkPtok 22 "u32" 4 2 18)) (mkPtok 22 "u32" 4 2 18))) (mkPtok 42 "packetx" 5 4 19) (Some (mkPtok 43 "`{ , }`" 5 12 20)) (mkPtok 40 "," 5 20 21)))] (mkPtok 3 "}" 5 22 22)))])).
-Eval vm_compute in ("<<<M724>>>" ++ check (runes_of_ascii "packet
-MetaDataX
-{
-    matchKey , }packet x
-    { i32 msg_type
-,leftPad
-{ string Logon // " ++ [27880; 37322]%N ++ runes_of_ascii "
-@lengthOf(body )
-    ,} ,/// triple
-repeat
-    options1
-{
-    i8i8 msg_type `a\` , } , @tag( 0
-)
-    @leftPad() // `tick` ""quote"" 'q'
-int64 f32a
-@lengthOf( asx) `tab	here`,char[]  pack
-`" ++ [28040; 24687; 31867; 22411]%N ++ runes_of_ascii "` , //x
-@lengthOf(	stringy ) repeat leftPad  , @leftPad // packet A { u8 x, }
-( ' '//	t
-) @leftPad (  )
-    match Logon	as roots{//x
-""`tick`""// a // b
-:
-string_
-,	}	, @tag(
-    0123456789// `tick` ""quote"" 'q'
-)
-@calculatedFrom(
-    ""1""
-) @leftPad(
-) u32	x_y_z @calculatedFrom(
-""\" ++ [233]%N ++ runes_of_ascii """ )
-    ,}
-")).
-Eval vm_compute in ("<<<M756>>>" ++ check (runes_of_ascii "MetaData u { u128 tag `
-`
-, zchar[ 10 ] pack `say ""hi""`, string metadata`doc` , } packet
-    chars
-    {	match
-    crc as trueish {
+, a1
     // " ++ [27880; 37322]%N ++ runes_of_ascii "
-    10: roots [ """ ++ [28040; 24687]%N ++ runes_of_ascii """ ,
-    """" ,4294967296 , ""\n"" ,
-007 ,
-    ""a\""b"" , """"
-, // `tick` ""quote"" 'q'
-42  ]  : string_ ""{,}"" :	x_y_z,} ,
-i8i8
-int, asx
-    ,}
-//	t
-")).
-Eval vm_compute in ("<<<M788>>>" ++ check (runes_of_ascii "MetaData Foo { char[ 4294967296  ] BodyLength
-    //
-    `tab	here`
-, }
-")).
-Eval vm_compute in ("<<<M820>>>" ++ check (runes_of_ascii "
-packet i8i8 { match tag
-as  i8i8
-    { """ ++ [28040; 24687]%N ++ runes_of_ascii """ : pack ,
-3
-: rootA , [	1, //	t
-3
-]:falsey, }  ,
-// " ++ [128512]%N ++ runes_of_ascii " emoji
-// trailing space 
-zchar[
-10 ]string_ , // @lengthOf(
-}packet falsey{string chars ,
-uint8x
-,@lengthOf( packetx ) char[]
-Packet, }MetaData a1 {
-chars roots
-    //
-    `crlf
-line` , /// triple
-asx zchar ,}
-")).
-Eval vm_compute in ("<<<M852>>>" ++ check (runes_of_ascii "//
-options {
-    Z9_  =	65535; } 	 ")).
-Eval vm_compute in ("<<<M884>>>" ++ check (runes_of_ascii "packet stringy
+    ,@lengthOf( roots) falsey int `u8 x,` , char[
+    0123456789 ] a1 `
+`,  string
+Z9_ @calculatedFrom( ""`tick`"" ) , zchar[
+00 ] Logon
+    @lengthOf(u128 // " ++ [128512]%N ++ runes_of_ascii " emoji
+)  `tab	here`
+    ,@calculatedFrom( ""a	b""
+) Z9_ { repeat stringy
+    { int16  string_ ,
+    string //x
+tag @lengthOf(// `tick` ""quote"" 'q'
+a1)// 50% %s
+, } ,
+    }
+, repeat charz
+    {lengthOf f32a , } ,char[ 65535] crc`" ++ [28040; 24687; 31867; 22411]%N ++ runes_of_ascii "` ,} packet len
 {
-repeat
-    roots  {
-    u64 pack
-`doc` , char[ 7 ] Z9_@calculatedFrom(""abc"" )
-`` , zchar lengthOf  `
-` ,
-}
-, }")).
-Eval vm_compute in ("<<<M916>>>" ++ check (runes_of_ascii "root packet crc	{ @calculatedFrom(""1""	) f32 x
-, @calculatedFrom( ""// no comment""
-)//x
-string	chars ,	@calculatedFrom(  ""a\""b""
-) @rightPad ( )
-    @tag(
-    7 )match A as matchKey {[ 42 ]:msg_type""x y"" : lengthOf
-    ""a\\""
-: packetx /// triple
-,[""`tick`"",""x y""
-, ""a\""b"" ,// packet A { u8 x, }
-""x y""
-, 00 ,
-""it's""
-    , 7
-, """"
-    ]: Logon }// a // b
-,	@lengthOf(  falsey )repeat falsey `u8 x,` , u8x
-{ int16
-lengthOf
-    `u8 x,` , f32a// " ++ [128512]%N ++ runes_of_ascii " emoji
-packetx,
-} , lengthOf @lengthOf(
-calculatedFrom ) , @rightPad
-('0')	f32	f32a ,
-//
-// packet A { u8 x, }
-@calculatedFrom( """ ++ [128512]%N ++ runes_of_ascii """)tag ,
-// " ++ [27880; 37322]%N ++ runes_of_ascii "
-//x
-string zchar `// not a comment` ,} MetaData matchKey {
-    }	packet uint8x {
-// a // b
-//x
-repeat lengthOf
-// a // b
-// @lengthOf(
-{u16 u128 //
-,Pad  , } , @tag( 4294967296	)
-@calculatedFrom(	""x y"" ) @tag(	0) char[4294967296 ] options1 @calculatedFrom( ""CRC32"" )	,@rightPad ('\x00') repeat
-    string
-asx `a\` // " ++ [128512]%N ++ runes_of_ascii " emoji
-, @calculatedFrom(
-""" ++ [128512]%N ++ runes_of_ascii """ )	char[255
-] len
-@calculatedFrom(
-""" ++ [233]%N ++ runes_of_ascii "t" ++ [233]%N ++ runes_of_ascii """ ) ,
-@calculatedFrom( //x
-""{,}"" )
-repeat zchar
-    calculatedFrom, @calculatedFrom( """ ++ [233]%N ++ runes_of_ascii "t" ++ [233]%N ++ runes_of_ascii """
-    )string  o @lengthOf( u) ,uint64 falsey
-    // " ++ [128512]%N ++ runes_of_ascii " emoji
-    @calculatedFrom( ""\" ++ [233]%N ++ runes_of_ascii """ ) , zchar[ 65535 ] stringy @calculatedFrom( ""1""
-), As , }packet BodyLength{  repeat uint32 body , zchar[ 65535 ]
-    //	t
-    Header ,As i8i8 `tab	here`,@calculatedFrom( """ ++ [128512]%N ++ runes_of_ascii """
-    ) @rightPad( // trailing space 
-'0'
-) @tag(65535 )
-    Pad { string
-u128
-, },@tag(  255 )
-    @leftPad() @lengthOf(f32a) repeat o	,repeat i8i8{repeat f32a /// triple
-float`line1
-line2`, repeat char[ 0123456789 ]pack	`tab	here` , // `tick` ""quote"" 'q'
-char[] x ,} ,
-    @calculatedFrom(	"""" )
-@lengthOf(lengthOf
-    ) repeat char[ 65535 ] Foo , pack lengthOf , repeat Pad , }
-packet // " ++ [128512]%N ++ runes_of_ascii " emoji
-u8x {
-    //
-    @tag( // `tick` ""quote"" 'q'
-255 ) repeat
-zchar[ // trailing space 
-4294967296
-]
-pack ,// " ++ [128512]%N ++ runes_of_ascii " emoji
-char[ 0123456789 ] charz// trailing space 
-@calculatedFrom( //x
-""a\""b"" )// packet A { u8 x, }
+    rootA // c
+{ repeat string string_ ,
+string pack
 ,
-    //
-    @lengthOf( Header
-)
-// c
+char[]
+roots,
+}
+, } //")).
+Eval vm_compute in ("<<<T20>>>" ++ terms [mkTok 35 "packet" 1 0 false; mkTok 44 (string_of_bytes [47; 47; 32; 230; 179; 168; 233; 135; 138]%N) 1 7 true; mkTok 42 "MetaDataX" 2 0 false; mkTok 44 "/// triple" 2 10 true; mkTok 2 "{" 3 0 false; mkTok 12 "char[" 3 1 false; mkTok 30 "1" 3 7 false; mkTok 13 "]" 3 9 false; mkTok 42 "T" 3 10 false; mkTok 40 "," 3 13 false; mkTok 16 "char[]" 4 0 false; mkTok 42 "Foo" 4 7 false; mkTok 5 "@calculatedFrom(" 4 11 false; mkTok 31 """{,}""" 5 0 false; mkTok 6 ")" 5 6 false; mkTok 40 "," 6 0 false; mkTok 42 "a1" 6 2 false; mkTok 44 (string_of_bytes [47; 47; 32; 230; 179; 168; 233; 135; 138]%N) 7 4 true; mkTok 40 "," 8 4 false; mkTok 7 "@lengthOf(" 8 5 false; mkTok 42 "roots" 8 16 false; mkTok 6 ")" 8 21 false; mkTok 42 "falsey" 8 23 false; mkTok 42 "int" 8 30 false; mkTok 43 "`u8 x,`" 8 34 false; mkTok 40 "," 8 42 false; mkTok 12 "char[" 8 44 false; mkTok 30 "0123456789" 9 4 false; mkTok 13 "]" 9 15 false; mkTok 42 "a1" 9 17 false; mkTok 43 (string_of_bytes [96; 10; 96]%N) 9 20 false; mkTok 40 "," 10 1 false; mkTok 15 "string" 10 4 false; mkTok 42 "Z9_" 11 0 false; mkTok 5 "@calculatedFrom(" 11 4 false; mkTok 31 """`tick`""" 11 21 false; mkTok 6 ")" 11 30 false; mkTok 40 "," 11 32 false; mkTok 14 "zchar[" 11 34 false; mkTok 30 "00" 12 0 false; mkTok 13 "]" 12 3 false; mkTok 42 "Logon" 12 5 false; mkTok 7 "@lengthOf(" 13 4 false; mkTok 42 "u128" 13 14 false; mkTok 44 (string_of_bytes [47; 47; 32; 240; 159; 152; 128; 32; 101; 109; 111; 106; 105]%N) 13 19 true; mkTok 6 ")" 14 0 false; mkTok 43 (string_of_bytes [96; 116; 97; 98; 9; 104; 101; 114; 101; 96]%N) 14 3 false; mkTok 40 "," 15 4 false; mkTok 5 "@calculatedFrom(" 15 5 false; mkTok 31 (string_of_bytes [34; 97; 9; 98; 34]%N) 15 22 false; mkTok 6 ")" 16 0 false; mkTok 42 "Z9_" 16 2 false; mkTok 2 "{" 16 6 false; mkTok 36 "repeat" 16 8 false; mkTok 42 "stringy" 16 15 false; mkTok 2 "{" 17 4 false; mkTok 25 "int16" 17 6 false; mkTok 42 "string_" 17 13 false; mkTok 40 "," 17 21 false; mkTok 15 "string" 18 4 false; mkTok 44 "//x" 18 11 true; mkTok 42 "tag" 19 0 false; mkTok 7 "@lengthOf(" 19 4 false; mkTok 44 "// `tick` ""quote"" 'q'" 19 14 true; mkTok 42 "a1" 20 0 false; mkTok 6 ")" 20 2 false; mkTok 44 "// 50% %s" 20 3 true; mkTok 40 "," 21 0 false; mkTok 3 "}" 21 2 false; mkTok 40 "," 21 4 false; mkTok 3 "}" 22 4 false; mkTok 40 "," 23 0 false; mkTok 36 "repeat" 23 2 false; mkTok 42 "charz" 23 9 false; mkTok 2 "{" 24 4 false; mkTok 42 "lengthOf" 24 5 false; mkTok 42 "f32a" 24 14 false; mkTok 40 "," 24 19 false; mkTok 3 "}" 24 21 false; mkTok 40 "," 24 23 false; mkTok 12 "char[" 24 24 false; mkTok 30 "65535" 24 30 false; mkTok 13 "]" 24 35 false; mkTok 42 "crc" 24 37 false; mkTok 43 (string_of_bytes [96; 230; 182; 136; 230; 129; 175; 231; 177; 187; 229; 158; 139; 96]%N) 24 40 false; mkTok 40 "," 24 47 false; mkTok 3 "}" 24 48 false; mkTok 35 "packet" 24 50 false; mkTok 42 "len" 24 57 false; mkTok 2 "{" 25 0 false; mkTok 42 "rootA" 26 4 false; mkTok 44 "// c" 26 10 true; mkTok 2 "{" 27 0 false; mkTok 36 "repeat" 27 2 false; mkTok 15 "string" 27 9 false; mkTok 42 "string_" 27 16 false; mkTok 40 "," 27 24 false; mkTok 15 "string" 28 0 false; mkTok 42 "pack" 28 7 false; mkTok 40 "," 29 0 false; mkTok 16 "char[]" 30 0 false; mkTok 42 "roots" 31 0 false; mkTok 40 "," 31 5 false; mkTok 3 "}" 32 0 false; mkTok 40 "," 33 0 false; mkTok 3 "}" 33 2 false; mkTok 44 "//" 33 4 true; mkTok 0 "<EOF>" 33 6 false] (mkPacket (mkPtok 35 "packet" 1 0 0) (Some (mkPtok 3 "}" 33 2 105)) [(DPacket (mkPacketDef (mkSpan (mkPtok 35 "packet" 1 0 0) (mkPtok 3 "}" 24 48 86)) None (mkPtok 35 "packet" 1 0 0) (mkPtok 42 "MetaDataX" 2 0 2) (mkPtok 2 "{" 3 0 4) [(mkFieldWithAttr (mkSpan (mkPtok 12 "char[" 3 1 5) (mkPtok 40 "," 3 13 9)) [] (MetaField (mkSpan (mkPtok 12 "char[" 3 1 5) (mkPtok 40 "," 3 13 9)) None (mkMetaDecl (mkSpan (mkPtok 12 "char[" 3 1 5) (mkPtok 40 "," 3 13 9)) (TyFixed (mkSpan (mkPtok 12 "char[" 3 1 5) (mkPtok 13 "]" 3 9 7)) (mkFixedString (mkSpan (mkPtok 12 "char[" 3 1 5) (mkPtok 13 "]" 3 9 7)) (mkPtok 12 "char[" 3 1 5) (mkPtok 30 "1" 3 7 6) (mkPtok 13 "]" 3 9 7))) (mkPtok 42 "T" 3 10 8) None (mkPtok 40 "," 3 13 9)))); (mkFieldWithAttr (mkSpan (mkPtok 16 "char[]" 4 0 10) (mkPtok 40 "," 6 0 15)) [] (CheckSumField (mkSpan (mkPtok 16 "char[]" 4 0 10) (mkPtok 40 "," 6 0 15)) (mkChecksumFieldDecl (mkSpan (mkPtok 16 "char[]" 4 0 10) (mkPtok 40 "," 6 0 15)) (Some (TyDynamic (mkSpan (mkPtok 16 "char[]" 4 0 10) (mkPtok 16 "char[]" 4 0 10)) (mkDynamicString (mkSpan (mkPtok 16 "char[]" 4 0 10) (mkPtok 16 "char[]" 4 0 10)) (mkPtok 16 "char[]" 4 0 10)))) (mkPtok 42 "Foo" 4 7 11) (mkCalculatedFrom (mkSpan (mkPtok 5 "@calculatedFrom(" 4 11 12) (mkPtok 6 ")" 5 6 14)) (mkPtok 5 "@calculatedFrom(" 4 11 12) (mkPtok 31 """{,}""" 5 0 13) (mkPtok 6 ")" 5 6 14)) None (mkPtok 40 "," 6 0 15)))); (mkFieldWithAttr (mkSpan (mkPtok 42 "a1" 6 2 16) (mkPtok 40 "," 8 4 18)) [] (ObjectField (mkSpan (mkPtok 42 "a1" 6 2 16) (mkPtok 40 "," 8 4 18)) None (mkPtok 42 "a1" 6 2 16) None None (mkPtok 40 "," 8 4 18))); (mkFieldWithAttr (mkSpan (mkPtok 7 "@lengthOf(" 8 5 19) (mkPtok 40 "," 8 42 25)) [(FALengthOf (mkSpan (mkPtok 7 "@lengthOf(" 8 5 19) (mkPtok 6 ")" 8 21 21)) (mkLengthOf (mkSpan (mkPtok 7 "@lengthOf(" 8 5 19) (mkPtok 6 ")" 8 21 21)) (mkPtok 7 "@lengthOf(" 8 5 19) (mkPtok 42 "roots" 8 16 20) (mkPtok 6 ")" 8 21 21)))] (ObjectField (mkSpan (mkPtok 42 "falsey" 8 23 22) (mkPtok 40 "," 8 42 25)) None (mkPtok 42 "falsey" 8 23 22) (Some (mkPtok 42 "int" 8 30 23)) (Some (mkPtok 43 "`u8 x,`" 8 34 24)) (mkPtok 40 "," 8 42 25))); (mkFieldWithAttr (mkSpan (mkPtok 12 "char[" 8 44 26) (mkPtok 40 "," 10 1 31)) [] (MetaField (mkSpan (mkPtok 12 "char[" 8 44 26) (mkPtok 40 "," 10 1 31)) None (mkMetaDecl (mkSpan (mkPtok 12 "char[" 8 44 26) (mkPtok 40 "," 10 1 31)) (TyFixed (mkSpan (mkPtok 12 "char[" 8 44 26) (mkPtok 13 "]" 9 15 28)) (mkFixedString (mkSpan (mkPtok 12 "char[" 8 44 26) (mkPtok 13 "]" 9 15 28)) (mkPtok 12 "char[" 8 44 26) (mkPtok 30 "0123456789" 9 4 27) (mkPtok 13 "]" 9 15 28))) (mkPtok 42 "a1" 9 17 29) (Some (mkPtok 43 (string_of_bytes [96; 10; 96]%N) 9 20 30)) (mkPtok 40 "," 10 1 31)))); (mkFieldWithAttr (mkSpan (mkPtok 15 "string" 10 4 32) (mkPtok 40 "," 11 32 37)) [] (CheckSumField (mkSpan (mkPtok 15 "string" 10 4 32) (mkPtok 40 "," 11 32 37)) (mkChecksumFieldDecl (mkSpan (mkPtok 15 "string" 10 4 32) (mkPtok 40 "," 11 32 37)) (Some (TyDynamic (mkSpan (mkPtok 15 "string" 10 4 32) (mkPtok 15 "string" 10 4 32)) (mkDynamicString (mkSpan (mkPtok 15 "string" 10 4 32) (mkPtok 15 "string" 10 4 32)) (mkPtok 15 "string" 10 4 32)))) (mkPtok 42 "Z9_" 11 0 33) (mkCalculatedFrom (mkSpan (mkPtok 5 "@calculatedFrom(" 11 4 34) (mkPtok 6 ")" 11 30 36)) (mkPtok 5 "@calculatedFrom(" 11 4 34) (mkPtok 31 """`tick`""" 11 21 35) (mkPtok 6 ")" 11 30 36)) None (mkPtok 40 "," 11 32 37)))); (mkFieldWithAttr (mkSpan (mkPtok 14 "zchar[" 11 34 38) (mkPtok 40 "," 15 4 47)) [] (LengthField (mkSpan (mkPtok 14 "zchar[" 11 34 38) (mkPtok 40 "," 15 4 47)) (mkLengthFieldDecl (mkSpan (mkPtok 14 "zchar[" 11 34 38) (mkPtok 40 "," 15 4 47)) (Some (TyFixed (mkSpan (mkPtok 14 "zchar[" 11 34 38) (mkPtok 13 "]" 12 3 40)) (mkFixedString (mkSpan (mkPtok 14 "zchar[" 11 34 38) (mkPtok 13 "]" 12 3 40)) (mkPtok 14 "zchar[" 11 34 38) (mkPtok 30 "00" 12 0 39) (mkPtok 13 "]" 12 3 40)))) (mkPtok 42 "Logon" 12 5 41) (mkLengthOf (mkSpan (mkPtok 7 "@lengthOf(" 13 4 42) (mkPtok 6 ")" 14 0 45)) (mkPtok 7 "@lengthOf(" 13 4 42) (mkPtok 42 "u128" 13 14 43) (mkPtok 6 ")" 14 0 45)) (Some (mkPtok 43 (string_of_bytes [96; 116; 97; 98; 9; 104; 101; 114; 101; 96]%N) 14 3 46)) (mkPtok 40 "," 15 4 47)))); (mkFieldWithAttr (mkSpan (mkPtok 5 "@calculatedFrom(" 15 5 48) (mkPtok 40 "," 23 0 71)) [(FACalculatedFrom (mkSpan (mkPtok 5 "@calculatedFrom(" 15 5 48) (mkPtok 6 ")" 16 0 50)) (mkCalculatedFrom (mkSpan (mkPtok 5 "@calculatedFrom(" 15 5 48) (mkPtok 6 ")" 16 0 50)) (mkPtok 5 "@calculatedFrom(" 15 5 48) (mkPtok 31 (string_of_bytes [34; 97; 9; 98; 34]%N) 15 22 49) (mkPtok 6 ")" 16 0 50)))] (InerObjectField (mkSpan (mkPtok 42 "Z9_" 16 2 51) (mkPtok 40 "," 23 0 71)) None (InerObjectDecl (mkSpan (mkPtok 42 "Z9_" 16 2 51) (mkPtok 3 "}" 22 4 70)) (mkPtok 42 "Z9_" 16 2 51) (mkPtok 2 "{" 16 6 52) [(InerObjectField (mkSpan (mkPtok 36 "repeat" 16 8 53) (mkPtok 40 "," 21 4 69)) (Some (mkPtok 36 "repeat" 16 8 53)) (InerObjectDecl (mkSpan (mkPtok 42 "stringy" 16 15 54) (mkPtok 3 "}" 21 2 68)) (mkPtok 42 "stringy" 16 15 54) (mkPtok 2 "{" 17 4 55) [(MetaField (mkSpan (mkPtok 25 "int16" 17 6 56) (mkPtok 40 "," 17 21 58)) None (mkMetaDecl (mkSpan (mkPtok 25 "int16" 17 6 56) (mkPtok 40 "," 17 21 58)) (TyBasic (mkSpan (mkPtok 25 "int16" 17 6 56) (mkPtok 25 "int16" 17 6 56)) (mkBasicType (mkSpan (mkPtok 25 "int16" 17 6 56) (mkPtok 25 "int16" 17 6 56)) (mkPtok 25 "int16" 17 6 56))) (mkPtok 42 "string_" 17 13 57) None (mkPtok 40 "," 17 21 58))); (LengthField (mkSpan (mkPtok 15 "string" 18 4 59) (mkPtok 40 "," 21 0 67)) (mkLengthFieldDecl (mkSpan (mkPtok 15 "string" 18 4 59) (mkPtok 40 "," 21 0 67)) (Some (TyDynamic (mkSpan (mkPtok 15 "string" 18 4 59) (mkPtok 15 "string" 18 4 59)) (mkDynamicString (mkSpan (mkPtok 15 "string" 18 4 59) (mkPtok 15 "string" 18 4 59)) (mkPtok 15 "string" 18 4 59)))) (mkPtok 42 "tag" 19 0 61) (mkLengthOf (mkSpan (mkPtok 7 "@lengthOf(" 19 4 62) (mkPtok 6 ")" 20 2 65)) (mkPtok 7 "@lengthOf(" 19 4 62) (mkPtok 42 "a1" 20 0 64) (mkPtok 6 ")" 20 2 65)) None (mkPtok 40 "," 21 0 67)))] (mkPtok 3 "}" 21 2 68)) (mkPtok 40 "," 21 4 69))] (mkPtok 3 "}" 22 4 70)) (mkPtok 40 "," 23 0 71))); (mkFieldWithAttr (mkSpan (mkPtok 36 "repeat" 23 2 72) (mkPtok 40 "," 24 23 79)) [] (InerObjectField (mkSpan (mkPtok 36 "repeat" 23 2 72) (mkPtok 40 "," 24 23 79)) (Some (mkPtok 36 "repeat" 23 2 72)) (InerObjectDecl (mkSpan (mkPtok 42 "charz" 23 9 73) (mkPtok 3 "}" 24 21 78)) (mkPtok 42 "charz" 23 9 73) (mkPtok 2 "{" 24 4 74) [(ObjectField (mkSpan (mkPtok 42 "lengthOf" 24 5 75) (mkPtok 40 "," 24 19 77)) None (mkPtok 42 "lengthOf" 24 5 75) (Some (mkPtok 42 "f32a" 24 14 76)) None (mkPtok 40 "," 24 19 77))] (mkPtok 3 "}" 24 21 78)) (mkPtok 40 "," 24 23 79))); (mkFieldWithAttr (mkSpan (mkPtok 12 "char[" 24 24 80) (mkPtok 40 "," 24 47 85)) [] (MetaField (mkSpan (mkPtok 12 "char[" 24 24 80) (mkPtok 40 "," 24 47 85)) None (mkMetaDecl (mkSpan (mkPtok 12 "char[" 24 24 80) (mkPtok 40 "," 24 47 85)) (TyFixed (mkSpan (mkPtok 12 "char[" 24 24 80) (mkPtok 13 "]" 24 35 82)) (mkFixedString (mkSpan (mkPtok 12 "char[" 24 24 80) (mkPtok 13 "]" 24 35 82)) (mkPtok 12 "char[" 24 24 80) (mkPtok 30 "65535" 24 30 81) (mkPtok 13 "]" 24 35 82))) (mkPtok 42 "crc" 24 37 83) (Some (mkPtok 43 (string_of_bytes [96; 230; 182; 136; 230; 129; 175; 231; 177; 187; 229; 158; 139; 96]%N) 24 40 84)) (mkPtok 40 "," 24 47 85))))] (mkPtok 3 "}" 24 48 86))); (DPacket (mkPacketDef (mkSpan (mkPtok 35 "packet" 24 50 87) (mkPtok 3 "}" 33 2 105)) None (mkPtok 35 "packet" 24 50 87) (mkPtok 42 "len" 24 57 88) (mkPtok 2 "{" 25 0 89) [(mkFieldWithAttr (mkSpan (mkPtok 42 "rootA" 26 4 90) (mkPtok 40 "," 33 0 104)) [] (InerObjectField (mkSpan (mkPtok 42 "rootA" 26 4 90) (mkPtok 40 "," 33 0 104)) None (InerObjectDecl (mkSpan (mkPtok 42 "rootA" 26 4 90) (mkPtok 3 "}" 32 0 103)) (mkPtok 42 "rootA" 26 4 90) (mkPtok 2 "{" 27 0 92) [(MetaField (mkSpan (mkPtok 36 "repeat" 27 2 93) (mkPtok 40 "," 27 24 96)) (Some (mkPtok 36 "repeat" 27 2 93)) (mkMetaDecl (mkSpan (mkPtok 15 "string" 27 9 94) (mkPtok 40 "," 27 24 96)) (TyDynamic (mkSpan (mkPtok 15 "string" 27 9 94) (mkPtok 15 "string" 27 9 94)) (mkDynamicString (mkSpan (mkPtok 15 "string" 27 9 94) (mkPtok 15 "string" 27 9 94)) (mkPtok 15 "string" 27 9 94))) (mkPtok 42 "string_" 27 16 95) None (mkPtok 40 "," 27 24 96))); (MetaField (mkSpan (mkPtok 15 "string" 28 0 97) (mkPtok 40 "," 29 0 99)) None (mkMetaDecl (mkSpan (mkPtok 15 "string" 28 0 97) (mkPtok 40 "," 29 0 99)) (TyDynamic (mkSpan (mkPtok 15 "string" 28 0 97) (mkPtok 15 "string" 28 0 97)) (mkDynamicString (mkSpan (mkPtok 15 "string" 28 0 97) (mkPtok 15 "string" 28 0 97)) (mkPtok 15 "string" 28 0 97))) (mkPtok 42 "pack" 28 7 98) None (mkPtok 40 "," 29 0 99))); (MetaField (mkSpan (mkPtok 16 "char[]" 30 0 100) (mkPtok 40 "," 31 5 102)) None (mkMetaDecl (mkSpan (mkPtok 16 "char[]" 30 0 100) (mkPtok 40 "," 31 5 102)) (TyDynamic (mkSpan (mkPtok 16 "char[]" 30 0 100) (mkPtok 16 "char[]" 30 0 100)) (mkDynamicString (mkSpan (mkPtok 16 "char[]" 30 0 100) (mkPtok 16 "char[]" 30 0 100)) (mkPtok 16 "char[]" 30 0 100))) (mkPtok 42 "roots" 31 0 101) None (mkPtok 40 "," 31 5 102)))] (mkPtok 3 "}" 32 0 103)) (mkPtok 40 "," 33 0 104)))] (mkPtok 3 "}" 33 2 105)))])).
+Eval vm_compute in ("<<<M52>>>" ++ check (runes_of_ascii "options  { o =// `tick` ""quote"" 'q'
+true
+// trailing space 
 //x
-f32a
-    {  u128 @calculatedFrom(
-    """"
-    // " ++ [128512]%N ++ runes_of_ascii " emoji
-    )
-    `line1
-line2` , T @calculatedFrom( ""a\""b""
+;Z9_  =false ; Z9_ =""" ++ [128512]%N ++ runes_of_ascii """;
+    // " ++ [27880; 37322]%N ++ runes_of_ascii "
+    } root packet f32a{  int8 metadata
+,
+@leftPad (
+//x
+// @lengthOf(
 )
-, int32	lengthOf @lengthOf(
-    msg_type  ) ,
-Foo@calculatedFrom(
-    ""a\""b""
-) ,
-} , }")).
-Eval vm_compute in ("<<<T916>>>" ++ terms [mkTok 34 "root" 1 0 false; mkTok 35 "packet" 1 5 false; mkTok 42 "crc" 1 12 false; mkTok 2 "{" 1 16 false; mkTok 5 "@calculatedFrom(" 1 18 false; mkTok 31 """1""" 1 34 false; mkTok 6 ")" 1 38 false; mkTok 28 "f32" 1 40 false; mkTok 42 "x" 1 44 false; mkTok 40 "," 2 0 false; mkTok 5 "@calculatedFrom(" 2 2 false; mkTok 31 """// no comment""" 2 19 false; mkTok 6 ")" 3 0 false; mkTok 44 "//x" 3 1 true; mkTok 15 "string" 4 0 false; mkTok 42 "chars" 4 7 false; mkTok 40 "," 4 13 false; mkTok 5 "@calculatedFrom(" 4 15 false; mkTok 31 """a\""b""" 4 33 false; mkTok 6 ")" 5 0 false; mkTok 32 "@rightPad" 5 2 false; mkTok 8 "(" 5 12 false; mkTok 6 ")" 5 14 false; mkTok 9 "@tag(" 6 4 false; mkTok 30 "7" 7 4 false; mkTok 6 ")" 7 6 false; mkTok 38 "match" 7 7 false; mkTok 42 "A" 7 13 false; mkTok 17 "as" 7 15 false; mkTok 42 "matchKey" 7 18 false; mkTok 2 "{" 7 27 false; mkTok 18 "[" 7 28 false; mkTok 30 "42" 7 30 false; mkTok 13 "]" 7 33 false; mkTok 39 ":" 7 34 false; mkTok 42 "msg_type" 7 35 false; mkTok 31 """x y""" 7 43 false; mkTok 39 ":" 7 49 false; mkTok 42 "lengthOf" 7 51 false; mkTok 31 """a\\""" 8 4 false; mkTok 39 ":" 9 0 false; mkTok 42 "packetx" 9 2 false; mkTok 44 "/// triple" 9 10 true; mkTok 40 "," 10 0 false; mkTok 18 "[" 10 1 false; mkTok 31 """`tick`""" 10 2 false; mkTok 40 "," 10 10 false; mkTok 31 """x y""" 10 11 false; mkTok 40 "," 11 0 false; mkTok 31 """a\""b""" 11 2 false; mkTok 40 "," 11 9 false; mkTok 44 "// packet A { u8 x, }" 11 10 true; mkTok 31 """x y""" 12 0 false; mkTok 40 "," 13 0 false; mkTok 30 "00" 13 2 false; mkTok 40 "," 13 5 false; mkTok 31 """it's""" 14 0 false; mkTok 40 "," 15 4 false; mkTok 30 "7" 15 6 false; mkTok 40 "," 16 0 false; mkTok 31 """""" 16 2 false; mkTok 13 "]" 17 4 false; mkTok 39 ":" 17 5 false; mkTok 42 "Logon" 17 7 false; mkTok 3 "}" 17 13 false; mkTok 44 "// a // b" 17 14 true; mkTok 40 "," 18 0 false; mkTok 7 "@lengthOf(" 18 2 false; mkTok 42 "falsey" 18 14 false; mkTok 6 ")" 18 21 false; mkTok 36 "repeat" 18 22 false; mkTok 42 "falsey" 18 29 false; mkTok 43 "`u8 x,`" 18 36 false; mkTok 40 "," 18 44 false; mkTok 42 "u8x" 18 46 false; mkTok 2 "{" 19 0 false; mkTok 25 "int16" 19 2 false; mkTok 42 "lengthOf" 20 0 false; mkTok 43 "`u8 x,`" 21 4 false; mkTok 40 "," 21 12 false; mkTok 42 "f32a" 21 14 false; mkTok 44 (string_of_bytes [47; 47; 32; 240; 159; 152; 128; 32; 101; 109; 111; 106; 105]%N) 21 18 true; mkTok 42 "packetx" 22 0 false; mkTok 40 "," 22 7 false; mkTok 3 "}" 23 0 false; mkTok 40 "," 23 2 false; mkTok 42 "lengthOf" 23 4 false; mkTok 7 "@lengthOf(" 23 13 false; mkTok 42 "calculatedFrom" 24 0 false; mkTok 6 ")" 24 15 false; mkTok 40 "," 24 17 false; mkTok 32 "@rightPad" 24 19 false; mkTok 8 "(" 25 0 false; mkTok 33 "'0'" 25 1 false; mkTok 6 ")" 25 4 false; mkTok 28 "f32" 25 6 false; mkTok 42 "f32a" 25 10 false; mkTok 40 "," 25 15 false; mkTok 44 "//" 26 0 true; mkTok 44 "// packet A { u8 x, }" 27 0 true; mkTok 5 "@calculatedFrom(" 28 0 false; mkTok 31 (string_of_bytes [34; 240; 159; 152; 128; 34]%N) 28 17 false; mkTok 6 ")" 28 20 false; mkTok 42 "tag" 28 21 false; mkTok 40 "," 28 25 false; mkTok 44 (string_of_bytes [47; 47; 32; 230; 179; 168; 233; 135; 138]%N) 29 0 true; mkTok 44 "//x" 30 0 true; mkTok 15 "string" 31 0 false; mkTok 42 "zchar" 31 7 false; mkTok 43 "`// not a comment`" 31 13 false; mkTok 40 "," 31 32 false; mkTok 3 "}" 31 33 false; mkTok 37 "MetaData" 31 35 false; mkTok 42 "matchKey" 31 44 false; mkTok 2 "{" 31 53 false; mkTok 3 "}" 32 4 false; mkTok 35 "packet" 32 6 false; mkTok 42 "uint8x" 32 13 false; mkTok 2 "{" 32 20 false; mkTok 44 "// a // b" 33 0 true; mkTok 44 "//x" 34 0 true; mkTok 36 "repeat" 35 0 false; mkTok 42 "lengthOf" 35 7 false; mkTok 44 "// a // b" 36 0 true; mkTok 44 "// @lengthOf(" 37 0 true; mkTok 2 "{" 38 0 false; mkTok 21 "u16" 38 1 false; mkTok 42 "u128" 38 5 false; mkTok 44 "//" 38 10 true; mkTok 40 "," 39 0 false; mkTok 42 "Pad" 39 1 false; mkTok 40 "," 39 6 false; mkTok 3 "}" 39 8 false; mkTok 40 "," 39 10 false; mkTok 9 "@tag(" 39 12 false; mkTok 30 "4294967296" 39 18 false; mkTok 6 ")" 39 29 false; mkTok 5 "@calculatedFrom(" 40 0 false; mkTok 31 """x y""" 40 17 false; mkTok 6 ")" 40 23 false; mkTok 9 "@tag(" 40 25 false; mkTok 30 "0" 40 31 false; mkTok 6 ")" 40 32 false; mkTok 12 "char[" 40 34 false; mkTok 30 "4294967296" 40 39 false; mkTok 13 "]" 40 50 false; mkTok 42 "options1" 40 52 false; mkTok 5 "@calculatedFrom(" 40 61 false; mkTok 31 """CRC32""" 40 78 false; mkTok 6 ")" 40 86 false; mkTok 40 "," 40 88 false; mkTok 32 "@rightPad" 40 89 false; mkTok 8 "(" 40 99 false; mkTok 33 "'\x00'" 40 100 false; mkTok 6 ")" 40 106 false; mkTok 36 "repeat" 40 108 false; mkTok 15 "string" 41 4 false; mkTok 42 "asx" 42 0 false; mkTok 43 "`a\`" 42 4 false; mkTok 44 (string_of_bytes [47; 47; 32; 240; 159; 152; 128; 32; 101; 109; 111; 106; 105]%N) 42 9 true; mkTok 40 "," 43 0 false; mkTok 5 "@calculatedFrom(" 43 2 false; mkTok 31 (string_of_bytes [34; 240; 159; 152; 128; 34]%N) 44 0 false; mkTok 6 ")" 44 4 false; mkTok 12 "char[" 44 6 false; mkTok 30 "255" 44 11 false; mkTok 13 "]" 45 0 false; mkTok 42 "len" 45 2 false; mkTok 5 "@calculatedFrom(" 46 0 false; mkTok 31 (string_of_bytes [34; 195; 169; 116; 195; 169; 34]%N) 47 0 false; mkTok 6 ")" 47 6 false; mkTok 40 "," 47 8 false; mkTok 5 "@calculatedFrom(" 48 0 false; mkTok 44 "//x" 48 17 true; mkTok 31 """{,}""" 49 0 false; mkTok 6 ")" 49 6 false; mkTok 36 "repeat" 50 0 false; mkTok 42 "zchar" 50 7 false; mkTok 42 "calculatedFrom" 51 4 false; mkTok 40 "," 51 18 false; mkTok 5 "@calculatedFrom(" 51 20 false; mkTok 31 (string_of_bytes [34; 195; 169; 116; 195; 169; 34]%N) 51 37 false; mkTok 6 ")" 52 4 false; mkTok 15 "string" 52 5 false; mkTok 42 "o" 52 13 false; mkTok 7 "@lengthOf(" 52 15 false; mkTok 42 "u" 52 26 false; mkTok 6 ")" 52 27 false; mkTok 40 "," 52 29 false; mkTok 23 "uint64" 52 30 false; mkTok 42 "falsey" 52 37 false; mkTok 44 (string_of_bytes [47; 47; 32; 240; 159; 152; 128; 32; 101; 109; 111; 106; 105]%N) 53 4 true; mkTok 5 "@calculatedFrom(" 54 4 false; mkTok 31 (string_of_bytes [34; 92; 195; 169; 34]%N) 54 21 false; mkTok 6 ")" 54 26 false; mkTok 40 "," 54 28 false; mkTok 14 "zchar[" 54 30 false; mkTok 30 "65535" 54 37 false; mkTok 13 "]" 54 43 false; mkTok 42 "stringy" 54 45 false; mkTok 5 "@calculatedFrom(" 54 53 false; mkTok 31 """1""" 54 70 false; mkTok 6 ")" 55 0 false; mkTok 40 "," 55 1 false; mkTok 42 "As" 55 3 false; mkTok 40 "," 55 6 false; mkTok 3 "}" 55 8 false; mkTok 35 "packet" 55 9 false; mkTok 42 "BodyLength" 55 16 false; mkTok 2 "{" 55 26 false; mkTok 36 "repeat" 55 29 false; mkTok 22 "uint32" 55 36 false; mkTok 42 "body" 55 43 false; mkTok 40 "," 55 48 false; mkTok 14 "zchar[" 55 50 false; mkTok 30 "65535" 55 57 false; mkTok 13 "]" 55 63 false; mkTok 44 (string_of_bytes [47; 47; 9; 116]%N) 56 4 true; mkTok 42 "Header" 57 4 false; mkTok 40 "," 57 11 false; mkTok 42 "As" 57 12 false; mkTok 42 "i8i8" 57 15 false; mkTok 43 (string_of_bytes [96; 116; 97; 98; 9; 104; 101; 114; 101; 96]%N) 57 20 false; mkTok 40 "," 57 30 false; mkTok 5 "@calculatedFrom(" 57 31 false; mkTok 31 (string_of_bytes [34; 240; 159; 152; 128; 34]%N) 57 48 false; mkTok 6 ")" 58 4 false; mkTok 32 "@rightPad" 58 6 false; mkTok 8 "(" 58 15 false; mkTok 44 "// trailing space " 58 17 true; mkTok 33 "'0'" 59 0 false; mkTok 6 ")" 60 0 false; mkTok 9 "@tag(" 60 2 false; mkTok 30 "65535" 60 7 false; mkTok 6 ")" 60 13 false; mkTok 42 "Pad" 61 4 false; mkTok 2 "{" 61 8 false; mkTok 15 "string" 61 10 false; mkTok 42 "u128" 62 0 false; mkTok 40 "," 63 0 false; mkTok 3 "}" 63 2 false; mkTok 40 "," 63 3 false; mkTok 9 "@tag(" 63 4 false; mkTok 30 "255" 63 11 false; mkTok 6 ")" 63 15 false; mkTok 32 "@leftPad" 64 4 false; mkTok 8 "(" 64 12 false; mkTok 6 ")" 64 13 false; mkTok 7 "@lengthOf(" 64 15 false; mkTok 42 "f32a" 64 25 false; mkTok 6 ")" 64 29 false; mkTok 36 "repeat" 64 31 false; mkTok 42 "o" 64 38 false; mkTok 40 "," 64 40 false; mkTok 36 "repeat" 64 41 false; mkTok 42 "i8i8" 64 48 false; mkTok 2 "{" 64 52 false; mkTok 36 "repeat" 64 53 false; mkTok 42 "f32a" 64 60 false; mkTok 44 "/// triple" 64 65 true; mkTok 42 "float" 65 0 false; mkTok 43 (string_of_bytes [96; 108; 105; 110; 101; 49; 10; 108; 105; 110; 101; 50; 96]%N) 65 5 false; mkTok 40 "," 66 6 false; mkTok 36 "repeat" 66 8 false; mkTok 12 "char[" 66 15 false; mkTok 30 "0123456789" 66 21 false; mkTok 13 "]" 66 32 false; mkTok 42 "pack" 66 33 false; mkTok 43 (string_of_bytes [96; 116; 97; 98; 9; 104; 101; 114; 101; 96]%N) 66 38 false; mkTok 40 "," 66 49 false; mkTok 44 "// `tick` ""quote"" 'q'" 66 51 true; mkTok 16 "char[]" 67 0 false; mkTok 42 "x" 67 7 false; mkTok 40 "," 67 9 false; mkTok 3 "}" 67 10 false; mkTok 40 "," 67 12 false; mkTok 5 "@calculatedFrom(" 68 4 false; mkTok 31 """""" 68 21 false; mkTok 6 ")" 68 24 false; mkTok 7 "@lengthOf(" 69 0 false; mkTok 42 "lengthOf" 69 10 false; mkTok 6 ")" 70 4 false; mkTok 36 "repeat" 70 6 false; mkTok 12 "char[" 70 13 false; mkTok 30 "65535" 70 19 false; mkTok 13 "]" 70 25 false; mkTok 42 "Foo" 70 27 false; mkTok 40 "," 70 31 false; mkTok 42 "pack" 70 33 false; mkTok 42 "lengthOf" 70 38 false; mkTok 40 "," 70 47 false; mkTok 36 "repeat" 70 49 false; mkTok 42 "Pad" 70 56 false; mkTok 40 "," 70 60 false; mkTok 3 "}" 70 62 false; mkTok 35 "packet" 71 0 false; mkTok 44 (string_of_bytes [47; 47; 32; 240; 159; 152; 128; 32; 101; 109; 111; 106; 105]%N) 71 7 true; mkTok 42 "u8x" 72 0 false; mkTok 2 "{" 72 4 false; mkTok 44 "//" 73 4 true; mkTok 9 "@tag(" 74 4 false; mkTok 44 "// `tick` ""quote"" 'q'" 74 10 true; mkTok 30 "255" 75 0 false; mkTok 6 ")" 75 4 false; mkTok 36 "repeat" 75 6 false; mkTok 14 "zchar[" 76 0 false; mkTok 44 "// trailing space " 76 7 true; mkTok 30 "4294967296" 77 0 false; mkTok 13 "]" 78 0 false; mkTok 42 "pack" 79 0 false; mkTok 40 "," 79 5 false; mkTok 44 (string_of_bytes [47; 47; 32; 240; 159; 152; 128; 32; 101; 109; 111; 106; 105]%N) 79 6 true; mkTok 12 "char[" 80 0 false; mkTok 30 "0123456789" 80 6 false; mkTok 13 "]" 80 17 false; mkTok 42 "charz" 80 19 false; mkTok 44 "// trailing space " 80 24 true; mkTok 5 "@calculatedFrom(" 81 0 false; mkTok 44 "//x" 81 17 true; mkTok 31 """a\""b""" 82 0 false; mkTok 6 ")" 82 7 false; mkTok 44 "// packet A { u8 x, }" 82 8 true; mkTok 40 "," 83 0 false; mkTok 44 "//" 84 4 true; mkTok 7 "@lengthOf(" 85 4 false; mkTok 42 "Header" 85 15 false; mkTok 6 ")" 86 0 false; mkTok 44 "// c" 87 0 true; mkTok 44 "//x" 88 0 true; mkTok 42 "f32a" 89 0 false; mkTok 2 "{" 90 4 false; mkTok 42 "u128" 90 7 false; mkTok 5 "@calculatedFrom(" 90 12 false; mkTok 31 """""" 91 4 false; mkTok 44 (string_of_bytes [47; 47; 32; 240; 159; 152; 128; 32; 101; 109; 111; 106; 105]%N) 92 4 true; mkTok 6 ")" 93 4 false; mkTok 43 (string_of_bytes [96; 108; 105; 110; 101; 49; 10; 108; 105; 110; 101; 50; 96]%N) 94 4 false; mkTok 40 "," 95 7 false; mkTok 42 "T" 95 9 false; mkTok 5 "@calculatedFrom(" 95 11 false; mkTok 31 """a\""b""" 95 28 false; mkTok 6 ")" 96 0 false; mkTok 40 "," 97 0 false; mkTok 26 "int32" 97 2 false; mkTok 42 "lengthOf" 97 8 false; mkTok 7 "@lengthOf(" 97 17 false; mkTok 42 "msg_type" 98 4 false; mkTok 6 ")" 98 14 false; mkTok 40 "," 98 16 false; mkTok 42 "Foo" 99 0 false; mkTok 5 "@calculatedFrom(" 99 3 false; mkTok 31 """a\""b""" 100 4 false; mkTok 6 ")" 101 0 false; mkTok 40 "," 101 2 false; mkTok 3 "}" 102 0 false; mkTok 40 "," 102 2 false; mkTok 3 "}" 102 4 false; mkTok 0 "<EOF>" 102 5 false] (mkPacket (mkPtok 34 "root" 1 0 0) (Some (mkPtok 3 "}" 102 4 356)) [(DPacket (mkPacketDef (mkSpan (mkPtok 34 "root" 1 0 0) (mkPtok 3 "}" 31 33 111)) (Some (mkPtok 34 "root" 1 0 0)) (mkPtok 35 "packet" 1 5 1) (mkPtok 42 "crc" 1 12 2) (mkPtok 2 "{" 1 16 3) [(mkFieldWithAttr (mkSpan (mkPtok 5 "@calculatedFrom(" 1 18 4) (mkPtok 40 "," 2 0 9)) [(FACalculatedFrom (mkSpan (mkPtok 5 "@calculatedFrom(" 1 18 4) (mkPtok 6 ")" 1 38 6)) (mkCalculatedFrom (mkSpan (mkPtok 5 "@calculatedFrom(" 1 18 4) (mkPtok 6 ")" 1 38 6)) (mkPtok 5 "@calculatedFrom(" 1 18 4) (mkPtok 31 """1""" 1 34 5) (mkPtok 6 ")" 1 38 6)))] (MetaField (mkSpan (mkPtok 28 "f32" 1 40 7) (mkPtok 40 "," 2 0 9)) None (mkMetaDecl (mkSpan (mkPtok 28 "f32" 1 40 7) (mkPtok 40 "," 2 0 9)) (TyBasic (mkSpan (mkPtok 28 "f32" 1 40 7) (mkPtok 28 "f32" 1 40 7)) (mkBasicType (mkSpan (mkPtok 28 "f32" 1 40 7) (mkPtok 28 "f32" 1 40 7)) (mkPtok 28 "f32" 1 40 7))) (mkPtok 42 "x" 1 44 8) None (mkPtok 40 "," 2 0 9)))); (mkFieldWithAttr (mkSpan (mkPtok 5 "@calculatedFrom(" 2 2 10) (mkPtok 40 "," 4 13 16)) [(FACalculatedFrom (mkSpan (mkPtok 5 "@calculatedFrom(" 2 2 10) (mkPtok 6 ")" 3 0 12)) (mkCalculatedFrom (mkSpan (mkPtok 5 "@calculatedFrom(" 2 2 10) (mkPtok 6 ")" 3 0 12)) (mkPtok 5 "@calculatedFrom(" 2 2 10) (mkPtok 31 """// no comment""" 2 19 11) (mkPtok 6 ")" 3 0 12)))] (MetaField (mkSpan (mkPtok 15 "string" 4 0 14) (mkPtok 40 "," 4 13 16)) None (mkMetaDecl (mkSpan (mkPtok 15 "string" 4 0 14) (mkPtok 40 "," 4 13 16)) (TyDynamic (mkSpan (mkPtok 15 "string" 4 0 14) (mkPtok 15 "string" 4 0 14)) (mkDynamicString (mkSpan (mkPtok 15 "string" 4 0 14) (mkPtok 15 "string" 4 0 14)) (mkPtok 15 "string" 4 0 14))) (mkPtok 42 "chars" 4 7 15) None (mkPtok 40 "," 4 13 16)))); (mkFieldWithAttr (mkSpan (mkPtok 5 "@calculatedFrom(" 4 15 17) (mkPtok 40 "," 18 0 66)) [(FACalculatedFrom (mkSpan (mkPtok 5 "@calculatedFrom(" 4 15 17) (mkPtok 6 ")" 5 0 19)) (mkCalculatedFrom (mkSpan (mkPtok 5 "@calculatedFrom(" 4 15 17) (mkPtok 6 ")" 5 0 19)) (mkPtok 5 "@calculatedFrom(" 4 15 17) (mkPtok 31 """a\""b""" 4 33 18) (mkPtok 6 ")" 5 0 19))); (FAPadding (mkSpan (mkPtok 32 "@rightPad" 5 2 20) (mkPtok 6 ")" 5 14 22)) (mkPaddingAttr (mkSpan (mkPtok 32 "@rightPad" 5 2 20) (mkPtok 6 ")" 5 14 22)) (mkPtok 32 "@rightPad" 5 2 20) (mkPtok 8 "(" 5 12 21) None (mkPtok 6 ")" 5 14 22))); (FATag (mkSpan (mkPtok 9 "@tag(" 6 4 23) (mkPtok 6 ")" 7 6 25)) (mkTagAttr (mkSpan (mkPtok 9 "@tag(" 6 4 23) (mkPtok 6 ")" 7 6 25)) (mkPtok 9 "@tag(" 6 4 23) (mkPtok 30 "7" 7 4 24) (mkPtok 6 ")" 7 6 25)))] (MatchField (mkSpan (mkPtok 38 "match" 7 7 26) (mkPtok 40 "," 18 0 66)) (mkMatchFieldDecl (mkSpan (mkPtok 38 "match" 7 7 26) (mkPtok 3 "}" 17 13 64)) (mkPtok 38 "match" 7 7 26) (mkPtok 42 "A" 7 13 27) (mkPtok 17 "as" 7 15 28) (mkPtok 42 "matchKey" 7 18 29) (mkPtok 2 "{" 7 27 30) [(mkMatchPair (mkSpan (mkPtok 18 "[" 7 28 31) (mkPtok 42 "msg_type" 7 35 35)) (MKList (mkKeyList (mkSpan (mkPtok 18 "[" 7 28 31) (mkPtok 13 "]" 7 33 33)) (mkPtok 18 "[" 7 28 31) (mkPtok 30 "42" 7 30 32) [] (mkPtok 13 "]" 7 33 33))) (mkPtok 39 ":" 7 34 34) (mkPtok 42 "msg_type" 7 35 35) None); (mkMatchPair (mkSpan (mkPtok 31 """x y""" 7 43 36) (mkPtok 42 "lengthOf" 7 51 38)) (MKString (mkPtok 31 """x y""" 7 43 36)) (mkPtok 39 ":" 7 49 37) (mkPtok 42 "lengthOf" 7 51 38) None); (mkMatchPair (mkSpan (mkPtok 31 """a\\""" 8 4 39) (mkPtok 40 "," 10 0 43)) (MKString (mkPtok 31 """a\\""" 8 4 39)) (mkPtok 39 ":" 9 0 40) (mkPtok 42 "packetx" 9 2 41) (Some (mkPtok 40 "," 10 0 43))); (mkMatchPair (mkSpan (mkPtok 18 "[" 10 1 44) (mkPtok 42 "Logon" 17 7 63)) (MKList (mkKeyList (mkSpan (mkPtok 18 "[" 10 1 44) (mkPtok 13 "]" 17 4 61)) (mkPtok 18 "[" 10 1 44) (mkPtok 31 """`tick`""" 10 2 45) [((mkPtok 40 "," 10 10 46), (mkPtok 31 """x y""" 10 11 47)); ((mkPtok 40 "," 11 0 48), (mkPtok 31 """a\""b""" 11 2 49)); ((mkPtok 40 "," 11 9 50), (mkPtok 31 """x y""" 12 0 52)); ((mkPtok 40 "," 13 0 53), (mkPtok 30 "00" 13 2 54)); ((mkPtok 40 "," 13 5 55), (mkPtok 31 """it's""" 14 0 56)); ((mkPtok 40 "," 15 4 57), (mkPtok 30 "7" 15 6 58)); ((mkPtok 40 "," 16 0 59), (mkPtok 31 """""" 16 2 60))] (mkPtok 13 "]" 17 4 61))) (mkPtok 39 ":" 17 5 62) (mkPtok 42 "Logon" 17 7 63) None)] (mkPtok 3 "}" 17 13 64)) (mkPtok 40 "," 18 0 66))); (mkFieldWithAttr (mkSpan (mkPtok 7 "@lengthOf(" 18 2 67) (mkPtok 40 "," 18 44 73)) [(FALengthOf (mkSpan (mkPtok 7 "@lengthOf(" 18 2 67) (mkPtok 6 ")" 18 21 69)) (mkLengthOf (mkSpan (mkPtok 7 "@lengthOf(" 18 2 67) (mkPtok 6 ")" 18 21 69)) (mkPtok 7 "@lengthOf(" 18 2 67) (mkPtok 42 "falsey" 18 14 68) (mkPtok 6 ")" 18 21 69)))] (ObjectField (mkSpan (mkPtok 36 "repeat" 18 22 70) (mkPtok 40 "," 18 44 73)) (Some (mkPtok 36 "repeat" 18 22 70)) (mkPtok 42 "falsey" 18 29 71) None (Some (mkPtok 43 "`u8 x,`" 18 36 72)) (mkPtok 40 "," 18 44 73))); (mkFieldWithAttr (mkSpan (mkPtok 42 "u8x" 18 46 74) (mkPtok 40 "," 23 2 85)) [] (InerObjectField (mkSpan (mkPtok 42 "u8x" 18 46 74) (mkPtok 40 "," 23 2 85)) None (InerObjectDecl (mkSpan (mkPtok 42 "u8x" 18 46 74) (mkPtok 3 "}" 23 0 84)) (mkPtok 42 "u8x" 18 46 74) (mkPtok 2 "{" 19 0 75) [(MetaField (mkSpan (mkPtok 25 "int16" 19 2 76) (mkPtok 40 "," 21 12 79)) None (mkMetaDecl (mkSpan (mkPtok 25 "int16" 19 2 76) (mkPtok 40 "," 21 12 79)) (TyBasic (mkSpan (mkPtok 25 "int16" 19 2 76) (mkPtok 25 "int16" 19 2 76)) (mkBasicType (mkSpan (mkPtok 25 "int16" 19 2 76) (mkPtok 25 "int16" 19 2 76)) (mkPtok 25 "int16" 19 2 76))) (mkPtok 42 "lengthOf" 20 0 77) (Some (mkPtok 43 "`u8 x,`" 21 4 78)) (mkPtok 40 "," 21 12 79))); (ObjectField (mkSpan (mkPtok 42 "f32a" 21 14 80) (mkPtok 40 "," 22 7 83)) None (mkPtok 42 "f32a" 21 14 80) (Some (mkPtok 42 "packetx" 22 0 82)) None (mkPtok 40 "," 22 7 83))] (mkPtok 3 "}" 23 0 84)) (mkPtok 40 "," 23 2 85))); (mkFieldWithAttr (mkSpan (mkPtok 42 "lengthOf" 23 4 86) (mkPtok 40 "," 24 17 90)) [] (LengthField (mkSpan (mkPtok 42 "lengthOf" 23 4 86) (mkPtok 40 "," 24 17 90)) (mkLengthFieldDecl (mkSpan (mkPtok 42 "lengthOf" 23 4 86) (mkPtok 40 "," 24 17 90)) None (mkPtok 42 "lengthOf" 23 4 86) (mkLengthOf (mkSpan (mkPtok 7 "@lengthOf(" 23 13 87) (mkPtok 6 ")" 24 15 89)) (mkPtok 7 "@lengthOf(" 23 13 87) (mkPtok 42 "calculatedFrom" 24 0 88) (mkPtok 6 ")" 24 15 89)) None (mkPtok 40 "," 24 17 90)))); (mkFieldWithAttr (mkSpan (mkPtok 32 "@rightPad" 24 19 91) (mkPtok 40 "," 25 15 97)) [(FAPadding (mkSpan (mkPtok 32 "@rightPad" 24 19 91) (mkPtok 6 ")" 25 4 94)) (mkPaddingAttr (mkSpan (mkPtok 32 "@rightPad" 24 19 91) (mkPtok 6 ")" 25 4 94)) (mkPtok 32 "@rightPad" 24 19 91) (mkPtok 8 "(" 25 0 92) (Some (mkPtok 33 "'0'" 25 1 93)) (mkPtok 6 ")" 25 4 94)))] (MetaField (mkSpan (mkPtok 28 "f32" 25 6 95) (mkPtok 40 "," 25 15 97)) None (mkMetaDecl (mkSpan (mkPtok 28 "f32" 25 6 95) (mkPtok 40 "," 25 15 97)) (TyBasic (mkSpan (mkPtok 28 "f32" 25 6 95) (mkPtok 28 "f32" 25 6 95)) (mkBasicType (mkSpan (mkPtok 28 "f32" 25 6 95) (mkPtok 28 "f32" 25 6 95)) (mkPtok 28 "f32" 25 6 95))) (mkPtok 42 "f32a" 25 10 96) None (mkPtok 40 "," 25 15 97)))); (mkFieldWithAttr (mkSpan (mkPtok 5 "@calculatedFrom(" 28 0 100) (mkPtok 40 "," 28 25 104)) [(FACalculatedFrom (mkSpan (mkPtok 5 "@calculatedFrom(" 28 0 100) (mkPtok 6 ")" 28 20 102)) (mkCalculatedFrom (mkSpan (mkPtok 5 "@calculatedFrom(" 28 0 100) (mkPtok 6 ")" 28 20 102)) (mkPtok 5 "@calculatedFrom(" 28 0 100) (mkPtok 31 (string_of_bytes [34; 240; 159; 152; 128; 34]%N) 28 17 101) (mkPtok 6 ")" 28 20 102)))] (ObjectField (mkSpan (mkPtok 42 "tag" 28 21 103) (mkPtok 40 "," 28 25 104)) None (mkPtok 42 "tag" 28 21 103) None None (mkPtok 40 "," 28 25 104))); (mkFieldWithAttr (mkSpan (mkPtok 15 "string" 31 0 107) (mkPtok 40 "," 31 32 110)) [] (MetaField (mkSpan (mkPtok 15 "string" 31 0 107) (mkPtok 40 "," 31 32 110)) None (mkMetaDecl (mkSpan (mkPtok 15 "string" 31 0 107) (mkPtok 40 "," 31 32 110)) (TyDynamic (mkSpan (mkPtok 15 "string" 31 0 107) (mkPtok 15 "string" 31 0 107)) (mkDynamicString (mkSpan (mkPtok 15 "string" 31 0 107) (mkPtok 15 "string" 31 0 107)) (mkPtok 15 "string" 31 0 107))) (mkPtok 42 "zchar" 31 7 108) (Some (mkPtok 43 "`// not a comment`" 31 13 109)) (mkPtok 40 "," 31 32 110))))] (mkPtok 3 "}" 31 33 111))); (DMeta (mkMetaDef (mkSpan (mkPtok 37 "MetaData" 31 35 112) (mkPtok 3 "}" 32 4 115)) (mkPtok 37 "MetaData" 31 35 112) (mkPtok 42 "matchKey" 31 44 113) (mkPtok 2 "{" 31 53 114) [] (mkPtok 3 "}" 32 4 115))); (DPacket (mkPacketDef (mkSpan (mkPtok 35 "packet" 32 6 116) (mkPtok 3 "}" 55 8 206)) None (mkPtok 35 "packet" 32 6 116) (mkPtok 42 "uint8x" 32 13 117) (mkPtok 2 "{" 32 20 118) [(mkFieldWithAttr (mkSpan (mkPtok 36 "repeat" 35 0 121) (mkPtok 40 "," 39 10 133)) [] (InerObjectField (mkSpan (mkPtok 36 "repeat" 35 0 121) (mkPtok 40 "," 39 10 133)) (Some (mkPtok 36 "repeat" 35 0 121)) (InerObjectDecl (mkSpan (mkPtok 42 "lengthOf" 35 7 122) (mkPtok 3 "}" 39 8 132)) (mkPtok 42 "lengthOf" 35 7 122) (mkPtok 2 "{" 38 0 125) [(MetaField (mkSpan (mkPtok 21 "u16" 38 1 126) (mkPtok 40 "," 39 0 129)) None (mkMetaDecl (mkSpan (mkPtok 21 "u16" 38 1 126) (mkPtok 40 "," 39 0 129)) (TyBasic (mkSpan (mkPtok 21 "u16" 38 1 126) (mkPtok 21 "u16" 38 1 126)) (mkBasicType (mkSpan (mkPtok 21 "u16" 38 1 126) (mkPtok 21 "u16" 38 1 126)) (mkPtok 21 "u16" 38 1 126))) (mkPtok 42 "u128" 38 5 127) None (mkPtok 40 "," 39 0 129))); (ObjectField (mkSpan (mkPtok 42 "Pad" 39 1 130) (mkPtok 40 "," 39 6 131)) None (mkPtok 42 "Pad" 39 1 130) None None (mkPtok 40 "," 39 6 131))] (mkPtok 3 "}" 39 8 132)) (mkPtok 40 "," 39 10 133))); (mkFieldWithAttr (mkSpan (mkPtok 9 "@tag(" 39 12 134) (mkPtok 40 "," 40 88 150)) [(FATag (mkSpan (mkPtok 9 "@tag(" 39 12 134) (mkPtok 6 ")" 39 29 136)) (mkTagAttr (mkSpan (mkPtok 9 "@tag(" 39 12 134) (mkPtok 6 ")" 39 29 136)) (mkPtok 9 "@tag(" 39 12 134) (mkPtok 30 "4294967296" 39 18 135) (mkPtok 6 ")" 39 29 136))); (FACalculatedFrom (mkSpan (mkPtok 5 "@calculatedFrom(" 40 0 137) (mkPtok 6 ")" 40 23 139)) (mkCalculatedFrom (mkSpan (mkPtok 5 "@calculatedFrom(" 40 0 137) (mkPtok 6 ")" 40 23 139)) (mkPtok 5 "@calculatedFrom(" 40 0 137) (mkPtok 31 """x y""" 40 17 138) (mkPtok 6 ")" 40 23 139))); (FATag (mkSpan (mkPtok 9 "@tag(" 40 25 140) (mkPtok 6 ")" 40 32 142)) (mkTagAttr (mkSpan (mkPtok 9 "@tag(" 40 25 140) (mkPtok 6 ")" 40 32 142)) (mkPtok 9 "@tag(" 40 25 140) (mkPtok 30 "0" 40 31 141) (mkPtok 6 ")" 40 32 142)))] (CheckSumField (mkSpan (mkPtok 12 "char[" 40 34 143) (mkPtok 40 "," 40 88 150)) (mkChecksumFieldDecl (mkSpan (mkPtok 12 "char[" 40 34 143) (mkPtok 40 "," 40 88 150)) (Some (TyFixed (mkSpan (mkPtok 12 "char[" 40 34 143) (mkPtok 13 "]" 40 50 145)) (mkFixedString (mkSpan (mkPtok 12 "char[" 40 34 143) (mkPtok 13 "]" 40 50 145)) (mkPtok 12 "char[" 40 34 143) (mkPtok 30 "4294967296" 40 39 144) (mkPtok 13 "]" 40 50 145)))) (mkPtok 42 "options1" 40 52 146) (mkCalculatedFrom (mkSpan (mkPtok 5 "@calculatedFrom(" 40 61 147) (mkPtok 6 ")" 40 86 149)) (mkPtok 5 "@calculatedFrom(" 40 61 147) (mkPtok 31 """CRC32""" 40 78 148) (mkPtok 6 ")" 40 86 149)) None (mkPtok 40 "," 40 88 150)))); (mkFieldWithAttr (mkSpan (mkPtok 32 "@rightPad" 40 89 151) (mkPtok 40 "," 43 0 160)) [(FAPadding (mkSpan (mkPtok 32 "@rightPad" 40 89 151) (mkPtok 6 ")" 40 106 154)) (mkPaddingAttr (mkSpan (mkPtok 32 "@rightPad" 40 89 151) (mkPtok 6 ")" 40 106 154)) (mkPtok 32 "@rightPad" 40 89 151) (mkPtok 8 "(" 40 99 152) (Some (mkPtok 33 "'\x00'" 40 100 153)) (mkPtok 6 ")" 40 106 154)))] (MetaField (mkSpan (mkPtok 36 "repeat" 40 108 155) (mkPtok 40 "," 43 0 160)) (Some (mkPtok 36 "repeat" 40 108 155)) (mkMetaDecl (mkSpan (mkPtok 15 "string" 41 4 156) (mkPtok 40 "," 43 0 160)) (TyDynamic (mkSpan (mkPtok 15 "string" 41 4 156) (mkPtok 15 "string" 41 4 156)) (mkDynamicString (mkSpan (mkPtok 15 "string" 41 4 156) (mkPtok 15 "string" 41 4 156)) (mkPtok 15 "string" 41 4 156))) (mkPtok 42 "asx" 42 0 157) (Some (mkPtok 43 "`a\`" 42 4 158)) (mkPtok 40 "," 43 0 160)))); (mkFieldWithAttr (mkSpan (mkPtok 5 "@calculatedFrom(" 43 2 161) (mkPtok 40 "," 47 8 171)) [(FACalculatedFrom (mkSpan (mkPtok 5 "@calculatedFrom(" 43 2 161) (mkPtok 6 ")" 44 4 163)) (mkCalculatedFrom (mkSpan (mkPtok 5 "@calculatedFrom(" 43 2 161) (mkPtok 6 ")" 44 4 163)) (mkPtok 5 "@calculatedFrom(" 43 2 161) (mkPtok 31 (string_of_bytes [34; 240; 159; 152; 128; 34]%N) 44 0 162) (mkPtok 6 ")" 44 4 163)))] (CheckSumField (mkSpan (mkPtok 12 "char[" 44 6 164) (mkPtok 40 "," 47 8 171)) (mkChecksumFieldDecl (mkSpan (mkPtok 12 "char[" 44 6 164) (mkPtok 40 "," 47 8 171)) (Some (TyFixed (mkSpan (mkPtok 12 "char[" 44 6 164) (mkPtok 13 "]" 45 0 166)) (mkFixedString (mkSpan (mkPtok 12 "char[" 44 6 164) (mkPtok 13 "]" 45 0 166)) (mkPtok 12 "char[" 44 6 164) (mkPtok 30 "255" 44 11 165) (mkPtok 13 "]" 45 0 166)))) (mkPtok 42 "len" 45 2 167) (mkCalculatedFrom (mkSpan (mkPtok 5 "@calculatedFrom(" 46 0 168) (mkPtok 6 ")" 47 6 170)) (mkPtok 5 "@calculatedFrom(" 46 0 168) (mkPtok 31 (string_of_bytes [34; 195; 169; 116; 195; 169; 34]%N) 47 0 169) (mkPtok 6 ")" 47 6 170)) None (mkPtok 40 "," 47 8 171)))); (mkFieldWithAttr (mkSpan (mkPtok 5 "@calculatedFrom(" 48 0 172) (mkPtok 40 "," 51 18 179)) [(FACalculatedFrom (mkSpan (mkPtok 5 "@calculatedFrom(" 48 0 172) (mkPtok 6 ")" 49 6 175)) (mkCalculatedFrom (mkSpan (mkPtok 5 "@calculatedFrom(" 48 0 172) (mkPtok 6 ")" 49 6 175)) (mkPtok 5 "@calculatedFrom(" 48 0 172) (mkPtok 31 """{,}""" 49 0 174) (mkPtok 6 ")" 49 6 175)))] (ObjectField (mkSpan (mkPtok 36 "repeat" 50 0 176) (mkPtok 40 "," 51 18 179)) (Some (mkPtok 36 "repeat" 50 0 176)) (mkPtok 42 "zchar" 50 7 177) (Some (mkPtok 42 "calculatedFrom" 51 4 178)) None (mkPtok 40 "," 51 18 179))); (mkFieldWithAttr (mkSpan (mkPtok 5 "@calculatedFrom(" 51 20 180) (mkPtok 40 "," 52 29 188)) [(FACalculatedFrom (mkSpan (mkPtok 5 "@calculatedFrom(" 51 20 180) (mkPtok 6 ")" 52 4 182)) (mkCalculatedFrom (mkSpan (mkPtok 5 "@calculatedFrom(" 51 20 180) (mkPtok 6 ")" 52 4 182)) (mkPtok 5 "@calculatedFrom(" 51 20 180) (mkPtok 31 (string_of_bytes [34; 195; 169; 116; 195; 169; 34]%N) 51 37 181) (mkPtok 6 ")" 52 4 182)))] (LengthField (mkSpan (mkPtok 15 "string" 52 5 183) (mkPtok 40 "," 52 29 188)) (mkLengthFieldDecl (mkSpan (mkPtok 15 "string" 52 5 183) (mkPtok 40 "," 52 29 188)) (Some (TyDynamic (mkSpan (mkPtok 15 "string" 52 5 183) (mkPtok 15 "string" 52 5 183)) (mkDynamicString (mkSpan (mkPtok 15 "string" 52 5 183) (mkPtok 15 "string" 52 5 183)) (mkPtok 15 "string" 52 5 183)))) (mkPtok 42 "o" 52 13 184) (mkLengthOf (mkSpan (mkPtok 7 "@lengthOf(" 52 15 185) (mkPtok 6 ")" 52 27 187)) (mkPtok 7 "@lengthOf(" 52 15 185) (mkPtok 42 "u" 52 26 186) (mkPtok 6 ")" 52 27 187)) None (mkPtok 40 "," 52 29 188)))); (mkFieldWithAttr (mkSpan (mkPtok 23 "uint64" 52 30 189) (mkPtok 40 "," 54 28 195)) [] (CheckSumField (mkSpan (mkPtok 23 "uint64" 52 30 189) (mkPtok 40 "," 54 28 195)) (mkChecksumFieldDecl (mkSpan (mkPtok 23 "uint64" 52 30 189) (mkPtok 40 "," 54 28 195)) (Some (TyBasic (mkSpan (mkPtok 23 "uint64" 52 30 189) (mkPtok 23 "uint64" 52 30 189)) (mkBasicType (mkSpan (mkPtok 23 "uint64" 52 30 189) (mkPtok 23 "uint64" 52 30 189)) (mkPtok 23 "uint64" 52 30 189)))) (mkPtok 42 "falsey" 52 37 190) (mkCalculatedFrom (mkSpan (mkPtok 5 "@calculatedFrom(" 54 4 192) (mkPtok 6 ")" 54 26 194)) (mkPtok 5 "@calculatedFrom(" 54 4 192) (mkPtok 31 (string_of_bytes [34; 92; 195; 169; 34]%N) 54 21 193) (mkPtok 6 ")" 54 26 194)) None (mkPtok 40 "," 54 28 195)))); (mkFieldWithAttr (mkSpan (mkPtok 14 "zchar[" 54 30 196) (mkPtok 40 "," 55 1 203)) [] (CheckSumField (mkSpan (mkPtok 14 "zchar[" 54 30 196) (mkPtok 40 "," 55 1 203)) (mkChecksumFieldDecl (mkSpan (mkPtok 14 "zchar[" 54 30 196) (mkPtok 40 "," 55 1 203)) (Some (TyFixed (mkSpan (mkPtok 14 "zchar[" 54 30 196) (mkPtok 13 "]" 54 43 198)) (mkFixedString (mkSpan (mkPtok 14 "zchar[" 54 30 196) (mkPtok 13 "]" 54 43 198)) (mkPtok 14 "zchar[" 54 30 196) (mkPtok 30 "65535" 54 37 197) (mkPtok 13 "]" 54 43 198)))) (mkPtok 42 "stringy" 54 45 199) (mkCalculatedFrom (mkSpan (mkPtok 5 "@calculatedFrom(" 54 53 200) (mkPtok 6 ")" 55 0 202)) (mkPtok 5 "@calculatedFrom(" 54 53 200) (mkPtok 31 """1""" 54 70 201) (mkPtok 6 ")" 55 0 202)) None (mkPtok 40 "," 55 1 203)))); (mkFieldWithAttr (mkSpan (mkPtok 42 "As" 55 3 204) (mkPtok 40 "," 55 6 205)) [] (ObjectField (mkSpan (mkPtok 42 "As" 55 3 204) (mkPtok 40 "," 55 6 205)) None (mkPtok 42 "As" 55 3 204) None None (mkPtok 40 "," 55 6 205)))] (mkPtok 3 "}" 55 8 206))); (DPacket (mkPacketDef (mkSpan (mkPtok 35 "packet" 55 9 207) (mkPtok 3 "}" 70 62 294)) None (mkPtok 35 "packet" 55 9 207) (mkPtok 42 "BodyLength" 55 16 208) (mkPtok 2 "{" 55 26 209) [(mkFieldWithAttr (mkSpan (mkPtok 36 "repeat" 55 29 210) (mkPtok 40 "," 55 48 213)) [] (MetaField (mkSpan (mkPtok 36 "repeat" 55 29 210) (mkPtok 40 "," 55 48 213)) (Some (mkPtok 36 "repeat" 55 29 210)) (mkMetaDecl (mkSpan (mkPtok 22 "uint32" 55 36 211) (mkPtok 40 "," 55 48 213)) (TyBasic (mkSpan (mkPtok 22 "uint32" 55 36 211) (mkPtok 22 "uint32" 55 36 211)) (mkBasicType (mkSpan (mkPtok 22 "uint32" 55 36 211) (mkPtok 22 "uint32" 55 36 211)) (mkPtok 22 "uint32" 55 36 211))) (mkPtok 42 "body" 55 43 212) None (mkPtok 40 "," 55 48 213)))); (mkFieldWithAttr (mkSpan (mkPtok 14 "zchar[" 55 50 214) (mkPtok 40 "," 57 11 219)) [] (MetaField (mkSpan (mkPtok 14 "zchar[" 55 50 214) (mkPtok 40 "," 57 11 219)) None (mkMetaDecl (mkSpan (mkPtok 14 "zchar[" 55 50 214) (mkPtok 40 "," 57 11 219)) (TyFixed (mkSpan (mkPtok 14 "zchar[" 55 50 214) (mkPtok 13 "]" 55 63 216)) (mkFixedString (mkSpan (mkPtok 14 "zchar[" 55 50 214) (mkPtok 13 "]" 55 63 216)) (mkPtok 14 "zchar[" 55 50 214) (mkPtok 30 "65535" 55 57 215) (mkPtok 13 "]" 55 63 216))) (mkPtok 42 "Header" 57 4 218) None (mkPtok 40 "," 57 11 219)))); (mkFieldWithAttr (mkSpan (mkPtok 42 "As" 57 12 220) (mkPtok 40 "," 57 30 223)) [] (ObjectField (mkSpan (mkPtok 42 "As" 57 12 220) (mkPtok 40 "," 57 30 223)) None (mkPtok 42 "As" 57 12 220) (Some (mkPtok 42 "i8i8" 57 15 221)) (Some (mkPtok 43 (string_of_bytes [96; 116; 97; 98; 9; 104; 101; 114; 101; 96]%N) 57 20 222)) (mkPtok 40 "," 57 30 223))); (mkFieldWithAttr (mkSpan (mkPtok 5 "@calculatedFrom(" 57 31 224) (mkPtok 40 "," 63 3 241)) [(FACalculatedFrom (mkSpan (mkPtok 5 "@calculatedFrom(" 57 31 224) (mkPtok 6 ")" 58 4 226)) (mkCalculatedFrom (mkSpan (mkPtok 5 "@calculatedFrom(" 57 31 224) (mkPtok 6 ")" 58 4 226)) (mkPtok 5 "@calculatedFrom(" 57 31 224) (mkPtok 31 (string_of_bytes [34; 240; 159; 152; 128; 34]%N) 57 48 225) (mkPtok 6 ")" 58 4 226))); (FAPadding (mkSpan (mkPtok 32 "@rightPad" 58 6 227) (mkPtok 6 ")" 60 0 231)) (mkPaddingAttr (mkSpan (mkPtok 32 "@rightPad" 58 6 227) (mkPtok 6 ")" 60 0 231)) (mkPtok 32 "@rightPad" 58 6 227) (mkPtok 8 "(" 58 15 228) (Some (mkPtok 33 "'0'" 59 0 230)) (mkPtok 6 ")" 60 0 231))); (FATag (mkSpan (mkPtok 9 "@tag(" 60 2 232) (mkPtok 6 ")" 60 13 234)) (mkTagAttr (mkSpan (mkPtok 9 "@tag(" 60 2 232) (mkPtok 6 ")" 60 13 234)) (mkPtok 9 "@tag(" 60 2 232) (mkPtok 30 "65535" 60 7 233) (mkPtok 6 ")" 60 13 234)))] (InerObjectField (mkSpan (mkPtok 42 "Pad" 61 4 235) (mkPtok 40 "," 63 3 241)) None (InerObjectDecl (mkSpan (mkPtok 42 "Pad" 61 4 235) (mkPtok 3 "}" 63 2 240)) (mkPtok 42 "Pad" 61 4 235) (mkPtok 2 "{" 61 8 236) [(MetaField (mkSpan (mkPtok 15 "string" 61 10 237) (mkPtok 40 "," 63 0 239)) None (mkMetaDecl (mkSpan (mkPtok 15 "string" 61 10 237) (mkPtok 40 "," 63 0 239)) (TyDynamic (mkSpan (mkPtok 15 "string" 61 10 237) (mkPtok 15 "string" 61 10 237)) (mkDynamicString (mkSpan (mkPtok 15 "string" 61 10 237) (mkPtok 15 "string" 61 10 237)) (mkPtok 15 "string" 61 10 237))) (mkPtok 42 "u128" 62 0 238) None (mkPtok 40 "," 63 0 239)))] (mkPtok 3 "}" 63 2 240)) (mkPtok 40 "," 63 3 241))); (mkFieldWithAttr (mkSpan (mkPtok 9 "@tag(" 63 4 242) (mkPtok 40 "," 64 40 253)) [(FATag (mkSpan (mkPtok 9 "@tag(" 63 4 242) (mkPtok 6 ")" 63 15 244)) (mkTagAttr (mkSpan (mkPtok 9 "@tag(" 63 4 242) (mkPtok 6 ")" 63 15 244)) (mkPtok 9 "@tag(" 63 4 242) (mkPtok 30 "255" 63 11 243) (mkPtok 6 ")" 63 15 244))); (FAPadding (mkSpan (mkPtok 32 "@leftPad" 64 4 245) (mkPtok 6 ")" 64 13 247)) (mkPaddingAttr (mkSpan (mkPtok 32 "@leftPad" 64 4 245) (mkPtok 6 ")" 64 13 247)) (mkPtok 32 "@leftPad" 64 4 245) (mkPtok 8 "(" 64 12 246) None (mkPtok 6 ")" 64 13 247))); (FALengthOf (mkSpan (mkPtok 7 "@lengthOf(" 64 15 248) (mkPtok 6 ")" 64 29 250)) (mkLengthOf (mkSpan (mkPtok 7 "@lengthOf(" 64 15 248) (mkPtok 6 ")" 64 29 250)) (mkPtok 7 "@lengthOf(" 64 15 248) (mkPtok 42 "f32a" 64 25 249) (mkPtok 6 ")" 64 29 250)))] (ObjectField (mkSpan (mkPtok 36 "repeat" 64 31 251) (mkPtok 40 "," 64 40 253)) (Some (mkPtok 36 "repeat" 64 31 251)) (mkPtok 42 "o" 64 38 252) None None (mkPtok 40 "," 64 40 253))); (mkFieldWithAttr (mkSpan (mkPtok 36 "repeat" 64 41 254) (mkPtok 40 "," 67 12 275)) [] (InerObjectField (mkSpan (mkPtok 36 "repeat" 64 41 254) (mkPtok 40 "," 67 12 275)) (Some (mkPtok 36 "repeat" 64 41 254)) (InerObjectDecl (mkSpan (mkPtok 42 "i8i8" 64 48 255) (mkPtok 3 "}" 67 10 274)) (mkPtok 42 "i8i8" 64 48 255) (mkPtok 2 "{" 64 52 256) [(ObjectField (mkSpan (mkPtok 36 "repeat" 64 53 257) (mkPtok 40 "," 66 6 262)) (Some (mkPtok 36 "repeat" 64 53 257)) (mkPtok 42 "f32a" 64 60 258) (Some (mkPtok 42 "float" 65 0 260)) (Some (mkPtok 43 (string_of_bytes [96; 108; 105; 110; 101; 49; 10; 108; 105; 110; 101; 50; 96]%N) 65 5 261)) (mkPtok 40 "," 66 6 262)); (MetaField (mkSpan (mkPtok 36 "repeat" 66 8 263) (mkPtok 40 "," 66 49 269)) (Some (mkPtok 36 "repeat" 66 8 263)) (mkMetaDecl (mkSpan (mkPtok 12 "char[" 66 15 264) (mkPtok 40 "," 66 49 269)) (TyFixed (mkSpan (mkPtok 12 "char[" 66 15 264) (mkPtok 13 "]" 66 32 266)) (mkFixedString (mkSpan (mkPtok 12 "char[" 66 15 264) (mkPtok 13 "]" 66 32 266)) (mkPtok 12 "char[" 66 15 264) (mkPtok 30 "0123456789" 66 21 265) (mkPtok 13 "]" 66 32 266))) (mkPtok 42 "pack" 66 33 267) (Some (mkPtok 43 (string_of_bytes [96; 116; 97; 98; 9; 104; 101; 114; 101; 96]%N) 66 38 268)) (mkPtok 40 "," 66 49 269))); (MetaField (mkSpan (mkPtok 16 "char[]" 67 0 271) (mkPtok 40 "," 67 9 273)) None (mkMetaDecl (mkSpan (mkPtok 16 "char[]" 67 0 271) (mkPtok 40 "," 67 9 273)) (TyDynamic (mkSpan (mkPtok 16 "char[]" 67 0 271) (mkPtok 16 "char[]" 67 0 271)) (mkDynamicString (mkSpan (mkPtok 16 "char[]" 67 0 271) (mkPtok 16 "char[]" 67 0 271)) (mkPtok 16 "char[]" 67 0 271))) (mkPtok 42 "x" 67 7 272) None (mkPtok 40 "," 67 9 273)))] (mkPtok 3 "}" 67 10 274)) (mkPtok 40 "," 67 12 275))); (mkFieldWithAttr (mkSpan (mkPtok 5 "@calculatedFrom(" 68 4 276) (mkPtok 40 "," 70 31 287)) [(FACalculatedFrom (mkSpan (mkPtok 5 "@calculatedFrom(" 68 4 276) (mkPtok 6 ")" 68 24 278)) (mkCalculatedFrom (mkSpan (mkPtok 5 "@calculatedFrom(" 68 4 276) (mkPtok 6 ")" 68 24 278)) (mkPtok 5 "@calculatedFrom(" 68 4 276) (mkPtok 31 """""" 68 21 277) (mkPtok 6 ")" 68 24 278))); (FALengthOf (mkSpan (mkPtok 7 "@lengthOf(" 69 0 279) (mkPtok 6 ")" 70 4 281)) (mkLengthOf (mkSpan (mkPtok 7 "@lengthOf(" 69 0 279) (mkPtok 6 ")" 70 4 281)) (mkPtok 7 "@lengthOf(" 69 0 279) (mkPtok 42 "lengthOf" 69 10 280) (mkPtok 6 ")" 70 4 281)))] (MetaField (mkSpan (mkPtok 36 "repeat" 70 6 282) (mkPtok 40 "," 70 31 287)) (Some (mkPtok 36 "repeat" 70 6 282)) (mkMetaDecl (mkSpan (mkPtok 12 "char[" 70 13 283) (mkPtok 40 "," 70 31 287)) (TyFixed (mkSpan (mkPtok 12 "char[" 70 13 283) (mkPtok 13 "]" 70 25 285)) (mkFixedString (mkSpan (mkPtok 12 "char[" 70 13 283) (mkPtok 13 "]" 70 25 285)) (mkPtok 12 "char[" 70 13 283) (mkPtok 30 "65535" 70 19 284) (mkPtok 13 "]" 70 25 285))) (mkPtok 42 "Foo" 70 27 286) None (mkPtok 40 "," 70 31 287)))); (mkFieldWithAttr (mkSpan (mkPtok 42 "pack" 70 33 288) (mkPtok 40 "," 70 47 290)) [] (ObjectField (mkSpan (mkPtok 42 "pack" 70 33 288) (mkPtok 40 "," 70 47 290)) None (mkPtok 42 "pack" 70 33 288) (Some (mkPtok 42 "lengthOf" 70 38 289)) None (mkPtok 40 "," 70 47 290))); (mkFieldWithAttr (mkSpan (mkPtok 36 "repeat" 70 49 291) (mkPtok 40 "," 70 60 293)) [] (ObjectField (mkSpan (mkPtok 36 "repeat" 70 49 291) (mkPtok 40 "," 70 60 293)) (Some (mkPtok 36 "repeat" 70 49 291)) (mkPtok 42 "Pad" 70 56 292) None None (mkPtok 40 "," 70 60 293)))] (mkPtok 3 "}" 70 62 294))); (DPacket (mkPacketDef (mkSpan (mkPtok 35 "packet" 71 0 295) (mkPtok 3 "}" 102 4 356)) None (mkPtok 35 "packet" 71 0 295) (mkPtok 42 "u8x" 72 0 297) (mkPtok 2 "{" 72 4 298) [(mkFieldWithAttr (mkSpan (mkPtok 9 "@tag(" 74 4 300) (mkPtok 40 "," 79 5 310)) [(FATag (mkSpan (mkPtok 9 "@tag(" 74 4 300) (mkPtok 6 ")" 75 4 303)) (mkTagAttr (mkSpan (mkPtok 9 "@tag(" 74 4 300) (mkPtok 6 ")" 75 4 303)) (mkPtok 9 "@tag(" 74 4 300) (mkPtok 30 "255" 75 0 302) (mkPtok 6 ")" 75 4 303)))] (MetaField (mkSpan (mkPtok 36 "repeat" 75 6 304) (mkPtok 40 "," 79 5 310)) (Some (mkPtok 36 "repeat" 75 6 304)) (mkMetaDecl (mkSpan (mkPtok 14 "zchar[" 76 0 305) (mkPtok 40 "," 79 5 310)) (TyFixed (mkSpan (mkPtok 14 "zchar[" 76 0 305) (mkPtok 13 "]" 78 0 308)) (mkFixedString (mkSpan (mkPtok 14 "zchar[" 76 0 305) (mkPtok 13 "]" 78 0 308)) (mkPtok 14 "zchar[" 76 0 305) (mkPtok 30 "4294967296" 77 0 307) (mkPtok 13 "]" 78 0 308))) (mkPtok 42 "pack" 79 0 309) None (mkPtok 40 "," 79 5 310)))); (mkFieldWithAttr (mkSpan (mkPtok 12 "char[" 80 0 312) (mkPtok 40 "," 83 0 322)) [] (CheckSumField (mkSpan (mkPtok 12 "char[" 80 0 312) (mkPtok 40 "," 83 0 322)) (mkChecksumFieldDecl (mkSpan (mkPtok 12 "char[" 80 0 312) (mkPtok 40 "," 83 0 322)) (Some (TyFixed (mkSpan (mkPtok 12 "char[" 80 0 312) (mkPtok 13 "]" 80 17 314)) (mkFixedString (mkSpan (mkPtok 12 "char[" 80 0 312) (mkPtok 13 "]" 80 17 314)) (mkPtok 12 "char[" 80 0 312) (mkPtok 30 "0123456789" 80 6 313) (mkPtok 13 "]" 80 17 314)))) (mkPtok 42 "charz" 80 19 315) (mkCalculatedFrom (mkSpan (mkPtok 5 "@calculatedFrom(" 81 0 317) (mkPtok 6 ")" 82 7 320)) (mkPtok 5 "@calculatedFrom(" 81 0 317) (mkPtok 31 """a\""b""" 82 0 319) (mkPtok 6 ")" 82 7 320)) None (mkPtok 40 "," 83 0 322)))); (mkFieldWithAttr (mkSpan (mkPtok 7 "@lengthOf(" 85 4 324) (mkPtok 40 "," 102 2 355)) [(FALengthOf (mkSpan (mkPtok 7 "@lengthOf(" 85 4 324) (mkPtok 6 ")" 86 0 326)) (mkLengthOf (mkSpan (mkPtok 7 "@lengthOf(" 85 4 324) (mkPtok 6 ")" 86 0 326)) (mkPtok 7 "@lengthOf(" 85 4 324) (mkPtok 42 "Header" 85 15 325) (mkPtok 6 ")" 86 0 326)))] (InerObjectField (mkSpan (mkPtok 42 "f32a" 89 0 329) (mkPtok 40 "," 102 2 355)) None (InerObjectDecl (mkSpan (mkPtok 42 "f32a" 89 0 329) (mkPtok 3 "}" 102 0 354)) (mkPtok 42 "f32a" 89 0 329) (mkPtok 2 "{" 90 4 330) [(CheckSumField (mkSpan (mkPtok 42 "u128" 90 7 331) (mkPtok 40 "," 95 7 337)) (mkChecksumFieldDecl (mkSpan (mkPtok 42 "u128" 90 7 331) (mkPtok 40 "," 95 7 337)) None (mkPtok 42 "u128" 90 7 331) (mkCalculatedFrom (mkSpan (mkPtok 5 "@calculatedFrom(" 90 12 332) (mkPtok 6 ")" 93 4 335)) (mkPtok 5 "@calculatedFrom(" 90 12 332) (mkPtok 31 """""" 91 4 333) (mkPtok 6 ")" 93 4 335)) (Some (mkPtok 43 (string_of_bytes [96; 108; 105; 110; 101; 49; 10; 108; 105; 110; 101; 50; 96]%N) 94 4 336)) (mkPtok 40 "," 95 7 337))); (CheckSumField (mkSpan (mkPtok 42 "T" 95 9 338) (mkPtok 40 "," 97 0 342)) (mkChecksumFieldDecl (mkSpan (mkPtok 42 "T" 95 9 338) (mkPtok 40 "," 97 0 342)) None (mkPtok 42 "T" 95 9 338) (mkCalculatedFrom (mkSpan (mkPtok 5 "@calculatedFrom(" 95 11 339) (mkPtok 6 ")" 96 0 341)) (mkPtok 5 "@calculatedFrom(" 95 11 339) (mkPtok 31 """a\""b""" 95 28 340) (mkPtok 6 ")" 96 0 341)) None (mkPtok 40 "," 97 0 342))); (LengthField (mkSpan (mkPtok 26 "int32" 97 2 343) (mkPtok 40 "," 98 16 348)) (mkLengthFieldDecl (mkSpan (mkPtok 26 "int32" 97 2 343) (mkPtok 40 "," 98 16 348)) (Some (TyBasic (mkSpan (mkPtok 26 "int32" 97 2 343) (mkPtok 26 "int32" 97 2 343)) (mkBasicType (mkSpan (mkPtok 26 "int32" 97 2 343) (mkPtok 26 "int32" 97 2 343)) (mkPtok 26 "int32" 97 2 343)))) (mkPtok 42 "lengthOf" 97 8 344) (mkLengthOf (mkSpan (mkPtok 7 "@lengthOf(" 97 17 345) (mkPtok 6 ")" 98 14 347)) (mkPtok 7 "@lengthOf(" 97 17 345) (mkPtok 42 "msg_type" 98 4 346) (mkPtok 6 ")" 98 14 347)) None (mkPtok 40 "," 98 16 348))); (CheckSumField (mkSpan (mkPtok 42 "Foo" 99 0 349) (mkPtok 40 "," 101 2 353)) (mkChecksumFieldDecl (mkSpan (mkPtok 42 "Foo" 99 0 349) (mkPtok 40 "," 101 2 353)) None (mkPtok 42 "Foo" 99 0 349) (mkCalculatedFrom (mkSpan (mkPtok 5 "@calculatedFrom(" 99 3 350) (mkPtok 6 ")" 101 0 352)) (mkPtok 5 "@calculatedFrom(" 99 3 350) (mkPtok 31 """a\""b""" 100 4 351) (mkPtok 6 ")" 101 0 352)) None (mkPtok 40 "," 101 2 353)))] (mkPtok 3 "}" 102 0 354)) (mkPtok 40 "," 102 2 355)))] (mkPtok 3 "}" 102 4 356)))])).
-Eval vm_compute in ("<<<M948>>>" ++ check (runes_of_ascii "
-packet msg_type { @tag(// " ++ [27880; 37322]%N ++ runes_of_ascii "
-00 //	t
+float32	int
+`100% of %d` , } packet float {@calculatedFrom( ""// no comment"") @tag( 65535 ) @lengthOf(
+msg_type ) match
+    u as A
+{
+[ 007 , 7// a // b
+, ""x y"", 7, ""{,}"" ]: rootA ,
+    """ ++ [128512]%N ++ runes_of_ascii """
+    : packetx 0: i8i8
+, 4294967296 :
+zchar
+, 4294967296
+    :
+x, }
+, float32 uint8x
+// 50% %s
+// c
+, match string_ as packetx { """ ++ [128512]%N ++ runes_of_ascii """: stringy, ""\n""
+    : x
+,""""	:
+zchar , 1 : tag ,
+    3
+: Foo
+// trailing space 
+//x
+,
+[ 00]
+    :  leftPad , // a // b
+},  @calculatedFrom(""1"")
+uint64
+f32a,@calculatedFrom( ""// no comment"" ) char[
+00 ]	trueish	@calculatedFrom( ""a\""b""
+)`// not a comment`, repeatCount// 50% %s
+{
+char /// triple
+charz  ,
+float64 falsey	@lengthOf(
+    chars)  `doc`
+,
+// " ++ [128512]%N ++ runes_of_ascii " emoji
+//
+uint16 crc
+, int32 pack
+    `doc` ,
+}  , //x
+Foo
+    @calculatedFrom(// @lengthOf(
+""a\""b""
 )
-zchar[ 0123456789 ] //	t
-rootA	, }")).
-Eval vm_compute in ("<<<M980>>>" ++ check (runes_of_ascii "/// triple
-options {
-    // packet A { u8 x, }
-    Foo = 00 ; } root packet	string_ {u32 falsey	@calculatedFrom( ""x y"" )
-`u8 x,`	,} root packet // `tick` ""quote"" 'q'
-T { } // `tick` ""quote"" 'q'")).
-Eval vm_compute in ("<<<M1012>>>" ++ check (runes_of_ascii "
-")).
-Eval vm_compute in ("<<<M1044>>>" ++ check (@nil rune)).
-Eval vm_compute in ("<<<M1076>>>" ++ check (runes_of_ascii "  MetaData stringy { zchar[ 4294967296
-] charz , string// `tick` ""quote"" 'q'
-x_y_z
-    ,  }
+`
+`
+    // trailing space 
+    , zchar @lengthOf(
+body ) , }
 
 ")).
-Eval vm_compute in ("<<<M1108>>>" ++ check (runes_of_ascii "options
-    {Header = '\x00';
-}")).
-Eval vm_compute in ("<<<M1140>>>" ++ check (runes_of_ascii "packet packetx { /// triple
-@rightPad ('0' ) @tag( 007)Logon Pad ,  }
-")).
-Eval vm_compute in ("<<<T1140>>>" ++ terms [mkTok 35 "packet" 1 0 false; mkTok 42 "packetx" 1 7 false; mkTok 2 "{" 1 15 false; mkTok 44 "/// triple" 1 17 true; mkTok 32 "@rightPad" 2 0 false; mkTok 8 "(" 2 10 false; mkTok 33 "'0'" 2 11 false; mkTok 6 ")" 2 15 false; mkTok 9 "@tag(" 2 17 false; mkTok 30 "007" 2 23 false; mkTok 6 ")" 2 26 false; mkTok 42 "Logon" 2 27 false; mkTok 42 "Pad" 2 33 false; mkTok 40 "," 2 37 false; mkTok 3 "}" 2 40 false; mkTok 0 "<EOF>" 3 0 false] (mkPacket (mkPtok 35 "packet" 1 0 0) (Some (mkPtok 3 "}" 2 40 14)) [(DPacket (mkPacketDef (mkSpan (mkPtok 35 "packet" 1 0 0) (mkPtok 3 "}" 2 40 14)) None (mkPtok 35 "packet" 1 0 0) (mkPtok 42 "packetx" 1 7 1) (mkPtok 2 "{" 1 15 2) [(mkFieldWithAttr (mkSpan (mkPtok 32 "@rightPad" 2 0 4) (mkPtok 40 "," 2 37 13)) [(FAPadding (mkSpan (mkPtok 32 "@rightPad" 2 0 4) (mkPtok 6 ")" 2 15 7)) (mkPaddingAttr (mkSpan (mkPtok 32 "@rightPad" 2 0 4) (mkPtok 6 ")" 2 15 7)) (mkPtok 32 "@rightPad" 2 0 4) (mkPtok 8 "(" 2 10 5) (Some (mkPtok 33 "'0'" 2 11 6)) (mkPtok 6 ")" 2 15 7))); (FATag (mkSpan (mkPtok 9 "@tag(" 2 17 8) (mkPtok 6 ")" 2 26 10)) (mkTagAttr (mkSpan (mkPtok 9 "@tag(" 2 17 8) (mkPtok 6 ")" 2 26 10)) (mkPtok 9 "@tag(" 2 17 8) (mkPtok 30 "007" 2 23 9) (mkPtok 6 ")" 2 26 10)))] (ObjectField (mkSpan (mkPtok 42 "Logon" 2 27 11) (mkPtok 40 "," 2 37 13)) None (mkPtok 42 "Logon" 2 27 11) (Some (mkPtok 42 "Pad" 2 33 12)) None (mkPtok 40 "," 2 37 13)))] (mkPtok 3 "}" 2 40 14)))])).
-Eval vm_compute in ("<<<M1172>>>" ++ check (runes_of_ascii "packet
-u128 {
-    @tag( 0 ) BodyLength { Z9_ {  stringy {	metadata
-// @lengthOf(
-// a // b
-, } ,	zchar @lengthOf(
-x_y_z)
-, match	lengthOf
-as
-    float{ 10 : repeatCount,
-}
-    , repeat
-string Pad `" ++ [233]%N ++ runes_of_ascii "` , } , // packet A { u8 x, }
-u64
-u128 @calculatedFrom( ""a\""b""
-    ) ,} ,@rightPad
-(	'0') uint32
-    x_y_z@lengthOf(crc ) ,
-    match tag	as
-roots {
-    4294967296 : packetx , 007
-    :
-    Packet
-,// packet A { u8 x, }
-[ """ ++ [128512]%N ++ runes_of_ascii """
-,	7
-// trailing space 
-//
-, 255 // " ++ [27880; 37322]%N ++ runes_of_ascii "
-, ""a	b""
-]
-: x_y_z
+Eval vm_compute in ("<<<M84>>>" ++ check (runes_of_ascii "
+packet tag  {}")).
+Eval vm_compute in ("<<<M116>>>" ++ check (runes_of_ascii " 	 ")).
+Eval vm_compute in ("<<<M148>>>" ++ check (runes_of_ascii "
+root packet matchKey {  repeat x{ trueish calculatedFrom, match leftPad
+as _x
+{ 1
+:i64_
+,  """ ++ [28040; 24687]%N ++ runes_of_ascii """
+    :	options1
+    // c
+    }  ,repeat char[]  uint8x ,A{repeat metadata
+roots `a\` , //
+char[10 ] x_y_z@calculatedFrom( ""\" ++ [233]%N ++ runes_of_ascii """ ) `tab	here` ,leftPad, float32 f32a @calculatedFrom(
+""" ++ [233]%N ++ runes_of_ascii "t" ++ [233]%N ++ runes_of_ascii """ ) `{ , }`
 ,
-3	:
-    //	t
-    u128,
-""a	b"" : u128,}  , Foo
-@lengthOf( o ), i32 int
-    , options1 ,	@rightPad(
-    ) @rightPad (  '\x00' )
-x
-`crlf
-line` , @tag(
-255
-)  int16 u8x@lengthOf(trueish)  `" ++ [28040; 24687; 31867; 22411]%N ++ runes_of_ascii "` ,
-f64 leftPad @calculatedFrom( ""CRC32"" ) `doc`,
-    }")).
-Eval vm_compute in ("<<<M1204>>>" ++ check (runes_of_ascii "options { i64_ =
-true} root packet // c
-repeatCount { u32 Foo //	t
-, int8	rootA ,  zchar[
-0
-]
-MetaDataX ,	@calculatedFrom( ""a\""b"" ) char  o, // " ++ [128512]%N ++ runes_of_ascii " emoji
-}packet i64_ { } //
-packet Foo
-{ }
-")).
-Eval vm_compute in ("<<<M1236>>>" ++ check (runes_of_ascii "MetaData
-calculatedFrom
-{
-    Foo uint8x,o Packet `a\`
-, int8
-Packet
-,
-As calculatedFrom
-, } options  { T
+} // `tick` ""quote"" 'q'
+, }
+    ,
 // trailing space 
 // c
-= u64 ; stringy =/// triple
-f64 ; BodyLength =
-// a // b
-/// triple
-true ; } 	 ")).
-Eval vm_compute in ("<<<M1268>>>" ++ check (runes_of_ascii "packet f32a
+}
+")).
+Eval vm_compute in ("<<<M180>>>" ++ check (runes_of_ascii "
+root packet i8i8
 {}
 ")).
-Eval vm_compute in ("<<<M1300>>>" ++ check (runes_of_ascii "root
-packet i8i8 { } options {pack
-=
-char[3
-    ]body= ""// no comment"" ;
-// @lengthOf(
+Eval vm_compute in ("<<<M212>>>" ++ check (runes_of_ascii "packet pack// " ++ [27880; 37322]%N ++ runes_of_ascii "
+{ zchar[	007] chars
+, int {
+char[] asx `two words` , zchar[ 42]a1`crlf
+line`
+    , tag
+Packet, tag @lengthOf( i8i8 )	`crlf
+line`
+, } ,
+uint16 Packet`two words` ,	@calculatedFrom( ""abc"" ) @calculatedFrom(
 // c
-i8i8
-    // packet A { u8 x, }
-    = i32 //	t
-;	falsey
-=""a\\"" }
-")).
-Eval vm_compute in ("<<<M1332>>>" ++ check (runes_of_ascii "options {
-    i64_ =
-// c
-// trailing space 
-""x y"";
-    chars
-// a // b
-//	t
-=
-    65535 metadata= i32; // trailing space 
-} root  packet
-chars { @lengthOf( /// triple
-chars
-    // " ++ [128512]%N ++ runes_of_ascii " emoji
-    ) repeat  Logon
 // " ++ [128512]%N ++ runes_of_ascii " emoji
-//	t
-{ string len @lengthOf(
-    crc ) //x
-,u128 @lengthOf( x )
-, } , }
-    packet chars
-{ @lengthOf(charz)@calculatedFrom( """ ++ [233]%N ++ runes_of_ascii "t" ++ [233]%N ++ runes_of_ascii """  )
-@calculatedFrom( """ ++ [128512]%N ++ runes_of_ascii """ )repeat
-    // " ++ [128512]%N ++ runes_of_ascii " emoji
-    repeatCount
-    Packet `u8 x,`,match
-rootA as
-    /// triple
-    falsey {
-    ""{,}""
-:
-As ,
-00
-: // " ++ [128512]%N ++ runes_of_ascii " emoji
-lengthOf ,
-""\n"" : u8x, """ ++ [233]%N ++ runes_of_ascii "t" ++ [233]%N ++ runes_of_ascii """  :T 3:
-    /// triple
-    calculatedFrom ,}, @leftPad ( )@calculatedFrom(
-    ""it's"" )	repeat crc
-    stringy`
-` ,@lengthOf(// `tick` ""quote"" 'q'
-metadata ) repeat falsey{ char[]
-Foo `a\` , match leftPad //	t
-as  BodyLength {
-""CRC32"": body , ""1"": x
-,""a\\"":	calculatedFrom,
-[
-    // @lengthOf(
-    1
-,00]
-:
-float }
-, repeat
-    char calculatedFrom , Foo { u64  Header `
-` ,}
-, } , }
-")).
-Eval vm_compute in ("<<<M1364>>>" ++ check (runes_of_ascii "packet float //	t
-{ //
-}
-MetaData i8i8 {uint8x i8i8,
-}")).
-Eval vm_compute in ("<<<T1364>>>" ++ terms [mkTok 35 "packet" 1 0 false; mkTok 42 "float" 1 7 false; mkTok 44 (string_of_bytes [47; 47; 9; 116]%N) 1 13 true; mkTok 2 "{" 2 0 false; mkTok 44 "//" 2 2 true; mkTok 3 "}" 3 0 false; mkTok 37 "MetaData" 4 0 false; mkTok 42 "i8i8" 4 9 false; mkTok 2 "{" 4 14 false; mkTok 42 "uint8x" 4 15 false; mkTok 42 "i8i8" 4 22 false; mkTok 40 "," 4 26 false; mkTok 3 "}" 5 0 false; mkTok 0 "<EOF>" 5 1 false] (mkPacket (mkPtok 35 "packet" 1 0 0) (Some (mkPtok 3 "}" 5 0 12)) [(DPacket (mkPacketDef (mkSpan (mkPtok 35 "packet" 1 0 0) (mkPtok 3 "}" 3 0 5)) None (mkPtok 35 "packet" 1 0 0) (mkPtok 42 "float" 1 7 1) (mkPtok 2 "{" 2 0 3) [] (mkPtok 3 "}" 3 0 5))); (DMeta (mkMetaDef (mkSpan (mkPtok 37 "MetaData" 4 0 6) (mkPtok 3 "}" 5 0 12)) (mkPtok 37 "MetaData" 4 0 6) (mkPtok 42 "i8i8" 4 9 7) (mkPtok 2 "{" 4 14 8) [(MIRef (mkRefMetaDecl (mkSpan (mkPtok 42 "uint8x" 4 15 9) (mkPtok 40 "," 4 26 11)) (mkPtok 42 "uint8x" 4 15 9) (mkPtok 42 "i8i8" 4 22 10) None (mkPtok 40 "," 4 26 11)))] (mkPtok 3 "}" 5 0 12)))])).
-Eval vm_compute in ("<<<M1396>>>" ++ check (runes_of_ascii "packet
-falsey
-    { }
-")).
-Eval vm_compute in ("<<<M1428>>>" ++ check (runes_of_ascii "// `tick` ""quote"" 'q'
-options { i8i8
-=
-    // @lengthOf(
-    ""{,}""  ;
-calculatedFrom
-// " ++ [128512]%N ++ runes_of_ascii " emoji
-// trailing space 
-=42 ;
-}")).
-Eval vm_compute in ("<<<M1460>>>" ++ check (runes_of_ascii "options { options1 =
-char[
-00
-]
-    ; len=
-""" ++ [128512]%N ++ runes_of_ascii """ ; a1
-    =
-    42
-    Header =
-' '}packet Foo { }
-
-")).
-Eval vm_compute in ("<<<M1492>>>" ++ check (runes_of_ascii "packet metadata {//	t
-leftPad  { u64 stringy , }
-,
-} packet
-matchKey
-{  repeat u64 x_y_z, }MetaData
-f32a{
-} root packet  As  {
-@lengthOf(	Logon  ) float64
-A , @leftPad  (// " ++ [27880; 37322]%N ++ runes_of_ascii "
-'0' )u32
-    i64_ /// triple
-`// not a comment`/// triple
-, repeat i8
-    chars ,@lengthOf( x_y_z
-)	Foo x
-, stringy , chars @calculatedFrom( ""CRC32"" ) ,
-    @tag(
-0 ) int64 pack `
-` ,
-@rightPad ( )
-@calculatedFrom(
-""abc"" )
-@tag(// packet A { u8 x, }
-0 ) char[	0 ] msg_type // a // b
-,// " ++ [27880; 37322]%N ++ runes_of_ascii "
-tag {
-    char[	007 ]	zchar@lengthOf(
-    chars) , As@lengthOf(	charz )
-    `doc` , body `u8 x,`	,
-    } ,Foo
-    `two words`
-    ,
-}
-")).
-Eval vm_compute in ("<<<M1524>>>" ++ check (runes_of_ascii "root packet calculatedFrom { }
-")).
-Eval vm_compute in ("<<<M1556>>>" ++ check (runes_of_ascii "
-packet
-i64_ { repeat i64 _x ,float32 charz, @calculatedFrom(
-    """ ++ [128512]%N ++ runes_of_ascii """
-)BodyLength
-// `tick` ""quote"" 'q'
-//	t
-{	float32
-stringy// " ++ [27880; 37322]%N ++ runes_of_ascii "
-`line1
-line2`, } , @leftPad
-(	) char[ 0
-] int  @calculatedFrom( ""1"" /// triple
-)``  ,//x
-match charz //
-as lengthOf {""a\""b""
-    :
-    Foo , 00 : BodyLength
-,""1"" : stringy ,  ""a\""b""
-    : Z9_ ,
-0123456789
-//	t
-// " ++ [27880; 37322]%N ++ runes_of_ascii "
-: i8i8 ""it's""	:
-    lengthOf
-    } ,char[]
-rootA
-@calculatedFrom( """" ),uint16
-Packet`
-` , char[1
-    ] len
-,
-zchar[  10]
-// " ++ [27880; 37322]%N ++ runes_of_ascii "
-// c
-As , i32 f32a ,  }packet
-    chars {	@calculatedFrom(
 """ ++ [28040; 24687]%N ++ runes_of_ascii """
-    )  char[
-    // c
-    3
-] charz @lengthOf( Logon ) `say ""hi""` , i8i8
-{u32 msg_type ,
-// `tick` ""quote"" 'q'
-//	t
-}, match
-    Header as Pad {""a\\"": chars ,[ 7 , 7 , """ ++ [28040; 24687]%N ++ runes_of_ascii """ // @lengthOf(
-] :
-    // " ++ [128512]%N ++ runes_of_ascii " emoji
-    BodyLength ,
-    42
-: i8i8 7:
-len // trailing space 
-, ""it's""
-    : body , }
-    , //	t
-uint16 BodyLength  @calculatedFrom(
-""a	b""
-    // packet A { u8 x, }
-    ) // @lengthOf(
-`
-`
-    ,	@tag(
-0123456789 )
-    i64
-    Packet,
+)// `tick` ""quote"" 'q'
+@lengthOf(
+MetaDataX )
+char[7
+]
+    roots  @lengthOf(
+matchKey ) , }
+options { tag =  '0' packetx =""packet"";
+matchKey
+= char[ 3 ]
+;
+    MetaDataX = true
+    } root	packet	repeatCount { T
+@lengthOf(	int) // @lengthOf(
+, }
+")).
+Eval vm_compute in ("<<<M244>>>" ++ check (runes_of_ascii "packet string_ { // c
+matchKey
+@calculatedFrom(  ""it's""
+)  , @tag( 65535
+)
+    char[  255
+]stringy , @leftPad (' ')	@rightPad
+(
+'0' )  u64 leftPad
+    @calculatedFrom( // trailing space 
+""abc"" )
+, @calculatedFrom( """ ++ [233]%N ++ runes_of_ascii "t" ++ [233]%N ++ runes_of_ascii """ ) repeat
+u
+    //	t
+    , match
+string_ as packetx {
+    ""packet"" : Pad , 1
+    : metadata
+    ,	""`tick`"" // `tick` ""quote"" 'q'
+:a1 // 50% %s
+""" ++ [128512]%N ++ runes_of_ascii """ :charz ,
+} , repeat zchar[
+    10]	_x
+,
     }
 ")).
-Eval vm_compute in ("<<<M1588>>>" ++ check (runes_of_ascii "MetaData
-/// triple
-// a // b
-pack { x_y_z zchar
-// @lengthOf(
-// trailing space 
-`{ , }`
-,  }
+Eval vm_compute in ("<<<T244>>>" ++ terms [mkTok 35 "packet" 1 0 false; mkTok 42 "string_" 1 7 false; mkTok 2 "{" 1 15 false; mkTok 44 "// c" 1 17 true; mkTok 42 "matchKey" 2 0 false; mkTok 5 "@calculatedFrom(" 3 0 false; mkTok 31 """it's""" 3 18 false; mkTok 6 ")" 4 0 false; mkTok 40 "," 4 3 false; mkTok 9 "@tag(" 4 5 false; mkTok 30 "65535" 4 11 false; mkTok 6 ")" 5 0 false; mkTok 12 "char[" 6 4 false; mkTok 30 "255" 6 11 false; mkTok 13 "]" 7 0 false; mkTok 42 "stringy" 7 1 false; mkTok 40 "," 7 9 false; mkTok 32 "@leftPad" 7 11 false; mkTok 8 "(" 7 20 false; mkTok 33 "' '" 7 21 false; mkTok 6 ")" 7 24 false; mkTok 32 "@rightPad" 7 26 false; mkTok 8 "(" 8 0 false; mkTok 33 "'0'" 9 0 false; mkTok 6 ")" 9 4 false; mkTok 23 "u64" 9 7 false; mkTok 42 "leftPad" 9 11 false; mkTok 5 "@calculatedFrom(" 10 4 false; mkTok 44 "// trailing space " 10 21 true; mkTok 31 """abc""" 11 0 false; mkTok 6 ")" 11 6 false; mkTok 40 "," 12 0 false; mkTok 5 "@calculatedFrom(" 12 2 false; mkTok 31 (string_of_bytes [34; 195; 169; 116; 195; 169; 34]%N) 12 19 false; mkTok 6 ")" 12 25 false; mkTok 36 "repeat" 12 27 false; mkTok 42 "u" 13 0 false; mkTok 44 (string_of_bytes [47; 47; 9; 116]%N) 14 4 true; mkTok 40 "," 15 4 false; mkTok 38 "match" 15 6 false; mkTok 42 "string_" 16 0 false; mkTok 17 "as" 16 8 false; mkTok 42 "packetx" 16 11 false; mkTok 2 "{" 16 19 false; mkTok 31 """packet""" 17 4 false; mkTok 39 ":" 17 13 false; mkTok 42 "Pad" 17 15 false; mkTok 40 "," 17 19 false; mkTok 30 "1" 17 21 false; mkTok 39 ":" 18 4 false; mkTok 42 "metadata" 18 6 false; mkTok 40 "," 19 4 false; mkTok 31 """`tick`""" 19 6 false; mkTok 44 "// `tick` ""quote"" 'q'" 19 15 true; mkTok 39 ":" 20 0 false; mkTok 42 "a1" 20 1 false; mkTok 44 "// 50% %s" 20 4 true; mkTok 31 (string_of_bytes [34; 240; 159; 152; 128; 34]%N) 21 0 false; mkTok 39 ":" 21 4 false; mkTok 42 "charz" 21 5 false; mkTok 40 "," 21 11 false; mkTok 3 "}" 22 0 false; mkTok 40 "," 22 2 false; mkTok 36 "repeat" 22 4 false; mkTok 14 "zchar[" 22 11 false; mkTok 30 "10" 23 4 false; mkTok 13 "]" 23 6 false; mkTok 42 "_x" 23 8 false; mkTok 40 "," 24 0 false; mkTok 3 "}" 25 4 false; mkTok 0 "<EOF>" 26 0 false] (mkPacket (mkPtok 35 "packet" 1 0 0) (Some (mkPtok 3 "}" 25 4 69)) [(DPacket (mkPacketDef (mkSpan (mkPtok 35 "packet" 1 0 0) (mkPtok 3 "}" 25 4 69)) None (mkPtok 35 "packet" 1 0 0) (mkPtok 42 "string_" 1 7 1) (mkPtok 2 "{" 1 15 2) [(mkFieldWithAttr (mkSpan (mkPtok 42 "matchKey" 2 0 4) (mkPtok 40 "," 4 3 8)) [] (CheckSumField (mkSpan (mkPtok 42 "matchKey" 2 0 4) (mkPtok 40 "," 4 3 8)) (mkChecksumFieldDecl (mkSpan (mkPtok 42 "matchKey" 2 0 4) (mkPtok 40 "," 4 3 8)) None (mkPtok 42 "matchKey" 2 0 4) (mkCalculatedFrom (mkSpan (mkPtok 5 "@calculatedFrom(" 3 0 5) (mkPtok 6 ")" 4 0 7)) (mkPtok 5 "@calculatedFrom(" 3 0 5) (mkPtok 31 """it's""" 3 18 6) (mkPtok 6 ")" 4 0 7)) None (mkPtok 40 "," 4 3 8)))); (mkFieldWithAttr (mkSpan (mkPtok 9 "@tag(" 4 5 9) (mkPtok 40 "," 7 9 16)) [(FATag (mkSpan (mkPtok 9 "@tag(" 4 5 9) (mkPtok 6 ")" 5 0 11)) (mkTagAttr (mkSpan (mkPtok 9 "@tag(" 4 5 9) (mkPtok 6 ")" 5 0 11)) (mkPtok 9 "@tag(" 4 5 9) (mkPtok 30 "65535" 4 11 10) (mkPtok 6 ")" 5 0 11)))] (MetaField (mkSpan (mkPtok 12 "char[" 6 4 12) (mkPtok 40 "," 7 9 16)) None (mkMetaDecl (mkSpan (mkPtok 12 "char[" 6 4 12) (mkPtok 40 "," 7 9 16)) (TyFixed (mkSpan (mkPtok 12 "char[" 6 4 12) (mkPtok 13 "]" 7 0 14)) (mkFixedString (mkSpan (mkPtok 12 "char[" 6 4 12) (mkPtok 13 "]" 7 0 14)) (mkPtok 12 "char[" 6 4 12) (mkPtok 30 "255" 6 11 13) (mkPtok 13 "]" 7 0 14))) (mkPtok 42 "stringy" 7 1 15) None (mkPtok 40 "," 7 9 16)))); (mkFieldWithAttr (mkSpan (mkPtok 32 "@leftPad" 7 11 17) (mkPtok 40 "," 12 0 31)) [(FAPadding (mkSpan (mkPtok 32 "@leftPad" 7 11 17) (mkPtok 6 ")" 7 24 20)) (mkPaddingAttr (mkSpan (mkPtok 32 "@leftPad" 7 11 17) (mkPtok 6 ")" 7 24 20)) (mkPtok 32 "@leftPad" 7 11 17) (mkPtok 8 "(" 7 20 18) (Some (mkPtok 33 "' '" 7 21 19)) (mkPtok 6 ")" 7 24 20))); (FAPadding (mkSpan (mkPtok 32 "@rightPad" 7 26 21) (mkPtok 6 ")" 9 4 24)) (mkPaddingAttr (mkSpan (mkPtok 32 "@rightPad" 7 26 21) (mkPtok 6 ")" 9 4 24)) (mkPtok 32 "@rightPad" 7 26 21) (mkPtok 8 "(" 8 0 22) (Some (mkPtok 33 "'0'" 9 0 23)) (mkPtok 6 ")" 9 4 24)))] (CheckSumField (mkSpan (mkPtok 23 "u64" 9 7 25) (mkPtok 40 "," 12 0 31)) (mkChecksumFieldDecl (mkSpan (mkPtok 23 "u64" 9 7 25) (mkPtok 40 "," 12 0 31)) (Some (TyBasic (mkSpan (mkPtok 23 "u64" 9 7 25) (mkPtok 23 "u64" 9 7 25)) (mkBasicType (mkSpan (mkPtok 23 "u64" 9 7 25) (mkPtok 23 "u64" 9 7 25)) (mkPtok 23 "u64" 9 7 25)))) (mkPtok 42 "leftPad" 9 11 26) (mkCalculatedFrom (mkSpan (mkPtok 5 "@calculatedFrom(" 10 4 27) (mkPtok 6 ")" 11 6 30)) (mkPtok 5 "@calculatedFrom(" 10 4 27) (mkPtok 31 """abc""" 11 0 29) (mkPtok 6 ")" 11 6 30)) None (mkPtok 40 "," 12 0 31)))); (mkFieldWithAttr (mkSpan (mkPtok 5 "@calculatedFrom(" 12 2 32) (mkPtok 40 "," 15 4 38)) [(FACalculatedFrom (mkSpan (mkPtok 5 "@calculatedFrom(" 12 2 32) (mkPtok 6 ")" 12 25 34)) (mkCalculatedFrom (mkSpan (mkPtok 5 "@calculatedFrom(" 12 2 32) (mkPtok 6 ")" 12 25 34)) (mkPtok 5 "@calculatedFrom(" 12 2 32) (mkPtok 31 (string_of_bytes [34; 195; 169; 116; 195; 169; 34]%N) 12 19 33) (mkPtok 6 ")" 12 25 34)))] (ObjectField (mkSpan (mkPtok 36 "repeat" 12 27 35) (mkPtok 40 "," 15 4 38)) (Some (mkPtok 36 "repeat" 12 27 35)) (mkPtok 42 "u" 13 0 36) None None (mkPtok 40 "," 15 4 38))); (mkFieldWithAttr (mkSpan (mkPtok 38 "match" 15 6 39) (mkPtok 40 "," 22 2 62)) [] (MatchField (mkSpan (mkPtok 38 "match" 15 6 39) (mkPtok 40 "," 22 2 62)) (mkMatchFieldDecl (mkSpan (mkPtok 38 "match" 15 6 39) (mkPtok 3 "}" 22 0 61)) (mkPtok 38 "match" 15 6 39) (mkPtok 42 "string_" 16 0 40) (mkPtok 17 "as" 16 8 41) (mkPtok 42 "packetx" 16 11 42) (mkPtok 2 "{" 16 19 43) [(mkMatchPair (mkSpan (mkPtok 31 """packet""" 17 4 44) (mkPtok 40 "," 17 19 47)) (MKString (mkPtok 31 """packet""" 17 4 44)) (mkPtok 39 ":" 17 13 45) (mkPtok 42 "Pad" 17 15 46) (Some (mkPtok 40 "," 17 19 47))); (mkMatchPair (mkSpan (mkPtok 30 "1" 17 21 48) (mkPtok 40 "," 19 4 51)) (MKDigits (mkPtok 30 "1" 17 21 48)) (mkPtok 39 ":" 18 4 49) (mkPtok 42 "metadata" 18 6 50) (Some (mkPtok 40 "," 19 4 51))); (mkMatchPair (mkSpan (mkPtok 31 """`tick`""" 19 6 52) (mkPtok 42 "a1" 20 1 55)) (MKString (mkPtok 31 """`tick`""" 19 6 52)) (mkPtok 39 ":" 20 0 54) (mkPtok 42 "a1" 20 1 55) None); (mkMatchPair (mkSpan (mkPtok 31 (string_of_bytes [34; 240; 159; 152; 128; 34]%N) 21 0 57) (mkPtok 40 "," 21 11 60)) (MKString (mkPtok 31 (string_of_bytes [34; 240; 159; 152; 128; 34]%N) 21 0 57)) (mkPtok 39 ":" 21 4 58) (mkPtok 42 "charz" 21 5 59) (Some (mkPtok 40 "," 21 11 60)))] (mkPtok 3 "}" 22 0 61)) (mkPtok 40 "," 22 2 62))); (mkFieldWithAttr (mkSpan (mkPtok 36 "repeat" 22 4 63) (mkPtok 40 "," 24 0 68)) [] (MetaField (mkSpan (mkPtok 36 "repeat" 22 4 63) (mkPtok 40 "," 24 0 68)) (Some (mkPtok 36 "repeat" 22 4 63)) (mkMetaDecl (mkSpan (mkPtok 14 "zchar[" 22 11 64) (mkPtok 40 "," 24 0 68)) (TyFixed (mkSpan (mkPtok 14 "zchar[" 22 11 64) (mkPtok 13 "]" 23 6 66)) (mkFixedString (mkSpan (mkPtok 14 "zchar[" 22 11 64) (mkPtok 13 "]" 23 6 66)) (mkPtok 14 "zchar[" 22 11 64) (mkPtok 30 "10" 23 4 65) (mkPtok 13 "]" 23 6 66))) (mkPtok 42 "_x" 23 8 67) None (mkPtok 40 "," 24 0 68))))] (mkPtok 3 "}" 25 4 69)))])).
+Eval vm_compute in ("<<<M276>>>" ++ check (runes_of_ascii "  packet
+u8x// 50% %s
+{ @rightPad
+    (
+    ' ' ) repeat MetaDataX`it's`	, }
 ")).
-Eval vm_compute in ("<<<T1588>>>" ++ terms [mkTok 37 "MetaData" 1 0 false; mkTok 44 "/// triple" 2 0 true; mkTok 44 "// a // b" 3 0 true; mkTok 42 "pack" 4 0 false; mkTok 2 "{" 4 5 false; mkTok 42 "x_y_z" 4 7 false; mkTok 42 "zchar" 4 13 false; mkTok 44 "// @lengthOf(" 5 0 true; mkTok 44 "// trailing space " 6 0 true; mkTok 43 "`{ , }`" 7 0 false; mkTok 40 "," 8 0 false; mkTok 3 "}" 8 3 false; mkTok 0 "<EOF>" 9 0 false] (mkPacket (mkPtok 37 "MetaData" 1 0 0) (Some (mkPtok 3 "}" 8 3 11)) [(DMeta (mkMetaDef (mkSpan (mkPtok 37 "MetaData" 1 0 0) (mkPtok 3 "}" 8 3 11)) (mkPtok 37 "MetaData" 1 0 0) (mkPtok 42 "pack" 4 0 3) (mkPtok 2 "{" 4 5 4) [(MIRef (mkRefMetaDecl (mkSpan (mkPtok 42 "x_y_z" 4 7 5) (mkPtok 40 "," 8 0 10)) (mkPtok 42 "x_y_z" 4 7 5) (mkPtok 42 "zchar" 4 13 6) (Some (mkPtok 43 "`{ , }`" 7 0 9)) (mkPtok 40 "," 8 0 10)))] (mkPtok 3 "}" 8 3 11)))])).
-Eval vm_compute in ("<<<M1620>>>" ++ check (runes_of_ascii "packet /// triple
-Z9_ { @lengthOf(
-matchKey)i16
-BodyLength
-@calculatedFrom(
-// " ++ [128512]%N ++ runes_of_ascii " emoji
-// " ++ [27880; 37322]%N ++ runes_of_ascii "
-""a\""b"" // packet A { u8 x, }
-) `" ++ [233]%N ++ runes_of_ascii "` , match packetx as BodyLength {	"""": stringy , 007
-    : a1 ,
-    00: o
-, 007 : BodyLength /// triple
-}
-, // @lengthOf(
-x
-    @calculatedFrom( ""\n"" ) , } options {
-Z9_ = false ; } 	 ")).
-Eval vm_compute in ("<<<M1652>>>" ++ check (runes_of_ascii "MetaData float {
-    o
-Pad
-`tab	here` ,	f64 pack
-`` , uint16 asx,
-repeatCount int `line1
-line2`, f32a trueish	,}packet string_{ match
-    // @lengthOf(
-    roots
-    as A { ""x y"" :
-Z9_
-,""it's"" :
-msg_type	""" ++ [28040; 24687]%N ++ runes_of_ascii """ : msg_type , ""x y"":
-tag	,
-}
-    , @lengthOf( u
+Eval vm_compute in ("<<<M308>>>" ++ check (runes_of_ascii "// c
+packet _x {	lengthOf A `crlf
+line`
+, i64_
+    //x
+    { uint64 u ,
+    }
+    , @tag(  1 ) zchar[ 4294967296
+// 50% %s
 // a // b
+]
+    // " ++ [27880; 37322]%N ++ runes_of_ascii "
+    leftPad `" ++ [233]%N ++ runes_of_ascii "`
+    /// triple
+    , } root packet MetaDataX
+    {
+    string
+    roots@lengthOf(falsey ) `two words` , roots asx , repeat Packet  , repeat uint64 falsey
 // c
-)
-    // packet A { u8 x, }
-    match uint8x  as
-msg_type { 65535 : u8x ,
-    }, int16 string_ @calculatedFrom(
-""x y"") `doc` , f64 _x @calculatedFrom("""")	, // " ++ [27880; 37322]%N ++ runes_of_ascii "
-} 	 ")).
-Eval vm_compute in ("<<<M1684>>>" ++ check (runes_of_ascii "
-options
-    {	packetx
-    =""" ++ [128512]%N ++ runes_of_ascii """ ; repeatCount
-    =
-i32 ; // c
-}  packet zchar { trueish// " ++ [27880; 37322]%N ++ runes_of_ascii "
-, repeat pack u
-    // " ++ [128512]%N ++ runes_of_ascii " emoji
-    , // packet A { u8 x, }
-}
-    options { string_ = true u=
-// @lengthOf(
 //
-false; }packet
-MetaDataX{repeat x_y_z  T
-    ,@tag(  3 ) // `tick` ""quote"" 'q'
-repeat i32
-    Foo , @calculatedFrom(
-""{,}""
-) @tag(00) @lengthOf( packetx ) match repeatCount as
-    tag { [
-"""" ,  0 , ""1"", ""packet""
-,/// triple
-""// no comment""
-,  ""1"" ,
-    // trailing space 
-    00
-]: Header //
+, uint8
+MetaDataX  @calculatedFrom( """" ) ,
+leftPad ,	@calculatedFrom(
+    ""{,}"" )
+float64 leftPad	@calculatedFrom(
+""packet""  ),}
+    root packet msg_type { T,@calculatedFrom( """ ++ [28040; 24687]%N ++ runes_of_ascii """)
+char[ 255]x
+, @leftPad
+    (
+'0'
+    )char[
+// `tick` ""quote"" 'q'
+// " ++ [128512]%N ++ runes_of_ascii " emoji
+65535 ]
+    A `{ , }`,match//x
+Z9_ as zchar  {[42 ,""" ++ [28040; 24687]%N ++ runes_of_ascii """,""" ++ [233]%N ++ runes_of_ascii "t" ++ [233]%N ++ runes_of_ascii """ ,10 , 1	, ""\n"" ]
+    :
+len ,[
+    ""a	b""	]
+:packetx,
+    } // packet A { u8 x, }
+,
+    string u128,	@calculatedFrom(
+""" ++ [28040; 24687]%N ++ runes_of_ascii """	) @calculatedFrom(
+""CRC32""
+    ) asx	calculatedFrom  ,
+@tag(
+7 ) repeat body {string	tag , u32 As , }
+// " ++ [27880; 37322]%N ++ runes_of_ascii "
+//
+, @calculatedFrom(""\n"" )	int16
+A
+    @calculatedFrom( ""CRC32""	) `` ,
+    }")).
+Eval vm_compute in ("<<<M340>>>" ++ check (runes_of_ascii "  packet
+leftPad { @leftPad
+    ( '\x00') int32
+    stringy `it's`
+// c
+// packet A { u8 x, }
+, body { lengthOf x_y_z `line1
+line2` ,falsey pack, asx , uint32 trueish	@lengthOf( // trailing space 
+MetaDataX
+)
+`{ , }`	, }	,  @calculatedFrom( """ ++ [128512]%N ++ runes_of_ascii """
+) falsey@lengthOf(
+f32a) `line1
+line2`
+,string u128 @calculatedFrom( ""a\""b""  )
+, i64 asx@lengthOf( u )	`line1
+line2`
+    , uint8x @calculatedFrom(""packet"" )`a\`, @calculatedFrom(""`tick`"" ) As  `it's` , @lengthOf( Z9_
+) i16 packetx , @lengthOf(BodyLength) stringy @lengthOf(
+    Header )`" ++ [233]%N ++ runes_of_ascii "`
+, } options// 50% %s
+{Foo =	""" ++ [28040; 24687]%N ++ runes_of_ascii """
+; BodyLength =
+' '
+    lengthOf =
+""a\""b"" ; stringy= ""abc""; int= false // trailing space 
+}")).
+Eval vm_compute in ("<<<M372>>>" ++ check (runes_of_ascii "options // packet A { u8 x, }
+{ roots= ""{,}""
+    asx= ""a	b"" tag =  '0'// a // b
+;
+Packet = false;
+    zchar =
+    255
+    }")).
+Eval vm_compute in ("<<<M404>>>" ++ check (runes_of_ascii "// a // b
+packet
+    // @lengthOf(
+    matchKey{
+repeat
+    Z9_{ a1 //
+@calculatedFrom(""" ++ [28040; 24687]%N ++ runes_of_ascii """
+/// triple
+/// triple
+)	, } ,} root packet T { //
+}")).
+Eval vm_compute in ("<<<M436>>>" ++ check (runes_of_ascii "packet _x{uint8 repeatCount `say ""hi""`
+,
+Foo {i8	stringy
+@lengthOf( float ) ``
+//x
+// trailing space 
+,
+    uint8x `u8 x,`, repeat
+// `tick` ""quote"" 'q'
+// " ++ [128512]%N ++ runes_of_ascii " emoji
+i8i8
+// 50% %s
+//
+, // c
+As {
+    _x pack , } ,}  ,}MetaData
+    // packet A { u8 x, }
+    i8i8  { zchar[	00 // trailing space 
+] a1 `doc` // trailing space 
+, }
+options
+// 50% %s
+// " ++ [128512]%N ++ runes_of_ascii " emoji
+{ } options
+    {
+    body =	false ; x_y_z  = false ; u128=
+    int64 ;
+f32a =""it's""; //
 }
-, zchar[ // " ++ [128512]%N ++ runes_of_ascii " emoji
-3 ]
-    pack `
-` , @tag(
-    42 ) uint8x
+")).
+Eval vm_compute in ("<<<M468>>>" ++ check (runes_of_ascii "
+")).
+Eval vm_compute in ("<<<T468>>>" ++ terms [mkTok 0 "<EOF>" 2 0 false] (mkPacket (mkPtok 0 "<EOF>" 2 0 0) None [])).
+Eval vm_compute in ("<<<M500>>>" ++ check (runes_of_ascii "packet
+metadata { // " ++ [27880; 37322]%N ++ runes_of_ascii "
+f64 u8x	,u16
+    o `tab	here` , msg_type
+    { u8 a1 @lengthOf( u
+// c
+// @lengthOf(
+)
+    `tab	here` , } , char[65535
+] crc
+@calculatedFrom( ""CRC32"") ,
+    }
+    MetaData Logon{ msg_type x ,  }")).
+Eval vm_compute in ("<<<M532>>>" ++ check (runes_of_ascii "MetaData	x_y_z
+{
+    // " ++ [128512]%N ++ runes_of_ascii " emoji
+    char[
+1 ]Pad , } packet
+_x{ o,//
+repeat int8 // c
+MetaDataX , zchar[ 42 ] Z9_
+    ,	@leftPad ( '\x00')uint64 string_ `tab	here` ,
+    int16 T , @lengthOf( matchKey )char crc // trailing space 
+@lengthOf(  asx ) , @rightPad ( // 50% %s
+'0') x_y_z`line1
+line2` ,
+    } options{ roots= char[	4294967296
+]; } packet// a // b
+string_ { packetx@lengthOf(
+_x
+) ,
+repeatCount
+@calculatedFrom( ""a	b""
+) ,
+// 50% %s
+// @lengthOf(
+match Header as pack
+    {""it's"" : zchar// @lengthOf(
+, }	, @lengthOf(
+trueish
+) @rightPad	( ) @lengthOf(Z9_ )
+u8 trueish
+//x
+// c
+, }MetaData T { }
+// " ++ [27880; 37322]%N ++ runes_of_ascii "
+")).
+Eval vm_compute in ("<<<M564>>>" ++ check (runes_of_ascii "MetaData uint8x
+    {rootA Z9_`" ++ [233]%N ++ runes_of_ascii "`
+    ,
+    float64
+    _x `it's`//	t
+, zchar lengthOf // packet A { u8 x, }
+,}
+")).
+Eval vm_compute in ("<<<M596>>>" ++ check (runes_of_ascii "
+packet
+MetaDataX { repeat f32 MetaDataX
+    , }
+")).
+Eval vm_compute in ("<<<M628>>>" ++ check (runes_of_ascii "root
+packet// a // b
+options1{ repeatCount
+//	t
+// a // b
+@calculatedFrom( ""{,}""
+    )
+,// packet A { u8 x, }
+uint8x @calculatedFrom( ""\" ++ [233]%N ++ runes_of_ascii """) `crlf
+line` , @calculatedFrom( ""x y""
+) uint16
+    packetx ,
+    char[]// `tick` ""quote"" 'q'
+f32a @calculatedFrom( """" ) `doc`
+    ,
+/// triple
+//
+@tag(
+    3)
+@calculatedFrom( """ ++ [233]%N ++ runes_of_ascii "t" ++ [233]%N ++ runes_of_ascii """ ) u32 trueish , u16 options1 , lengthOf @calculatedFrom( """" ) `doc` , @lengthOf(
+    // " ++ [27880; 37322]%N ++ runes_of_ascii "
+    Packet ) @tag(255) @lengthOf( f32a // a // b
+)Header
+@lengthOf( i8i8
+) ,
+    @leftPad ( ' ' ) repeat i8i8 ,
+// @lengthOf(
+// " ++ [27880; 37322]%N ++ runes_of_ascii "
+match matchKey as
+    stringy {42 :body, ""a\\""
+    : chars , 7
+    :
+    charz // 50% %s
+, """" : a1 , ""{,}""
+    :string_	,""{,}"" : MetaDataX
+} ,}")).
+Eval vm_compute in ("<<<M660>>>" ++ check (runes_of_ascii "options
+{
+    o=
+i16 ; crc  =true ; zchar
+= ""\" ++ [233]%N ++ runes_of_ascii """ ; u128= """ ++ [128512]%N ++ runes_of_ascii """ ;}
+    // a // b
+    MetaData
+Logon
+{ string options1`doc`	, char[//
+007] int`" ++ [233]%N ++ runes_of_ascii "`, } MetaData pack
+{
+x rootA
+,	roots u8x `crlf
+line` ,
+a1 Z9_ `line1
+line2` , }
+")).
+Eval vm_compute in ("<<<M692>>>" ++ check (runes_of_ascii "MetaData A { }
+
+")).
+Eval vm_compute in ("<<<T692>>>" ++ terms [mkTok 37 "MetaData" 1 0 false; mkTok 42 "A" 1 9 false; mkTok 2 "{" 1 11 false; mkTok 3 "}" 1 13 false; mkTok 0 "<EOF>" 3 0 false] (mkPacket (mkPtok 37 "MetaData" 1 0 0) (Some (mkPtok 3 "}" 1 13 3)) [(DMeta (mkMetaDef (mkSpan (mkPtok 37 "MetaData" 1 0 0) (mkPtok 3 "}" 1 13 3)) (mkPtok 37 "MetaData" 1 0 0) (mkPtok 42 "A" 1 9 1) (mkPtok 2 "{" 1 11 2) [] (mkPtok 3 "}" 1 13 3)))])).
+Eval vm_compute in ("<<<M724>>>" ++ check (runes_of_ascii "MetaData  metadata { }
+")).
+Eval vm_compute in ("<<<M756>>>" ++ check (runes_of_ascii "packet  calculatedFrom
+{ @calculatedFrom(""" ++ [128512]%N ++ runes_of_ascii """ )// @lengthOf(
+repeat // 50% %s
+zchar[007 ] i8i8, @calculatedFrom( ""// no comment"" // " ++ [128512]%N ++ runes_of_ascii " emoji
+) char[] //x
+x_y_z ,	} root packet u128
+    { i64 int@lengthOf(f32a ) ,  }")).
+Eval vm_compute in ("<<<M788>>>" ++ check (runes_of_ascii "packet  len
+{ repeat // `tick` ""quote"" 'q'
+Pad{match A as x
+    /// triple
+    {
+[""1"" , 42 , 0123456789
+    ,
+""abc"" ,
+""it's""// c
+,
+""" ++ [233]%N ++ runes_of_ascii "t" ++ [233]%N ++ runes_of_ascii """ ,
+7 ,
+// 50% %s
+// @lengthOf(
+10 ]  :calculatedFrom 0 : len } ,
+    int8
+string_ , // a // b
+repeat repeatCount , } , f64	As
+    ,zchar[	7
+] x `" ++ [233]%N ++ runes_of_ascii "`
+//	t
+// @lengthOf(
+,
 @calculatedFrom(
-    ""CRC32"" ) ,@calculatedFrom(
-""// no comment"" ) @leftPad(
+    //x
+    ""a\\"" ) Header{
+//x
+/// triple
+repeat char[ 255 // c
+]  metadata,	pack@lengthOf(
+T) , }
+, } packet T {	float64  u8x	`// not a comment`,
+    match u128 as
+roots // " ++ [128512]%N ++ runes_of_ascii " emoji
+{
+[ """ ++ [128512]%N ++ runes_of_ascii """ ]
+: msg_type ,  ""\n"" : u8x
+00  : crc } , u16 lengthOf
+@calculatedFrom(
+    """ ++ [233]%N ++ runes_of_ascii "t" ++ [233]%N ++ runes_of_ascii """)
+    ,@tag( 1 )	zchar[
+7 ] falsey
+`doc`  ,char[]
+    metadata	, Packet @calculatedFrom( ""`tick`"" ) , //	t
+@tag( // c
+42 ) A ,
+// " ++ [128512]%N ++ runes_of_ascii " emoji
+// packet A { u8 x, }
+Packet
+@calculatedFrom( ""{,}"") , }
+options{ Pad
+    = false
+    T =
+'\x00' // trailing space 
+;asx = false; _x =""\" ++ [233]%N ++ runes_of_ascii """ ;} packet float {	uint8x{ repeatCount ,
+u32 lengthOf@calculatedFrom(	""a	b""
+    ) `" ++ [233]%N ++ runes_of_ascii "` ,
+i16 u, } ,}
+root packet Foo {match asx as Foo
+{ [""" ++ [128512]%N ++ runes_of_ascii """ ,
+""1""] :roots
+    ,
+    ""`tick`""
+    :
+    a1  , 0123456789 :string_ , } , }
+")).
+Eval vm_compute in ("<<<M820>>>" ++ check (runes_of_ascii "packet msg_type {
+repeat stringy Header`` , @leftPad ( '\x00'
+    )repeat leftPad ,
+repeat
+f32a
+    ,	@calculatedFrom(
+""it's""
+) @tag(
+    255 ) match roots as trueish
+{ 7 :
+    tag ,
+},  repeat zchar[ // @lengthOf(
+0 ] repeatCount
+/// triple
+// trailing space 
+, string	f32a,
+string body , @calculatedFrom("""" )uint64 f32a ,
+    } packet asx {  leftPad
+    ``
+    //	t
+    , @rightPad ( '0' )
+//
+// `tick` ""quote"" 'q'
+int8 leftPad , @rightPad( '0' )asx @lengthOf( // @lengthOf(
+falsey )
+    , @tag(// a // b
+00 ) // `tick` ""quote"" 'q'
+u32 pack
+    ,@tag(
+    007
+)repeat stringy repeatCount `" ++ [28040; 24687; 31867; 22411]%N ++ runes_of_ascii "`, @lengthOf( roots ) u16 pack @lengthOf( roots
+    ) , @calculatedFrom( ""1"" )
+    @tag( 1 )
+match calculatedFrom as
+pack {
+""a\\""
+    :
+Logon//	t
+,
+[ // 50% %s
+""" ++ [128512]%N ++ runes_of_ascii """
+] : u8x
+    , 1 :calculatedFrom , """ ++ [128512]%N ++ runes_of_ascii """ :	Z9_	, 0 :
+_x } , f32 Header
+, } packet asx { @tag(00 )@rightPad
+    ( '0')
+@calculatedFrom(""a\\""// @lengthOf(
+) int64 leftPad
+    `u8 x,`
+    , repeat stringy `two words`
+/// triple
+// @lengthOf(
+,@lengthOf( len )@tag( 7 )
+i16
+int , @lengthOf( repeatCount
+    ) i8i8@lengthOf(
+roots
+) `" ++ [28040; 24687; 31867; 22411]%N ++ runes_of_ascii "` ,
+    string int @calculatedFrom(
+    ""\n"" ) `100% of %d`
+    , repeat i8i8 rootA
+`two words`, T {
+roots @lengthOf( o )  ,
+    // a // b
+    },Pad
+// trailing space 
+// a // b
+,@lengthOf(As )f32 options1 , } MetaData
+a1
+    {
+zchar[ 255 ] tag `say ""hi""`, } options { BodyLength = // 50% %s
+0123456789 }
+")).
+Eval vm_compute in ("<<<M852>>>" ++ check (runes_of_ascii "root
+packet// packet A { u8 x, }
+repeatCount
+{
+    repeat calculatedFrom {char[4294967296 ] // " ++ [27880; 37322]%N ++ runes_of_ascii "
+msg_type `it's`
+//
+/// triple
+, } , match // " ++ [27880; 37322]%N ++ runes_of_ascii "
+repeatCount as u8x {  [ 0
+, ""a	b"" , ""a\\"" , ""CRC32"" , ""`tick`"" , ""a\""b"" ] : tag
+,
+// `tick` ""quote"" 'q'
+// trailing space 
+7
+    // " ++ [27880; 37322]%N ++ runes_of_ascii "
+    :Z9_ 3 :leftPad}
+// " ++ [128512]%N ++ runes_of_ascii " emoji
+// packet A { u8 x, }
+,}
+")).
+Eval vm_compute in ("<<<M884>>>" ++ check (runes_of_ascii "// trailing space 
+packet a1 {string BodyLength @lengthOf( leftPad ) ,	int8 u128 @calculatedFrom(""1"") `it's`
+    ,
+@calculatedFrom( ""CRC32"" // " ++ [128512]%N ++ runes_of_ascii " emoji
+) @rightPad
+( )	repeat Z9_
+, @calculatedFrom(
+""" ++ [128512]%N ++ runes_of_ascii """
+) char[] metadata
+@calculatedFrom( //x
+""a\""b"" )
+, repeat
+    msg_type u128 , @tag(
+    255)  @leftPad ( )@lengthOf( f32a) repeat
+    // " ++ [128512]%N ++ runes_of_ascii " emoji
+    o , repeat i8i8 { repeat f32a float `// not a comment` ,
+repeat char[ 0123456789 ] pack`{ , }`,A  `" ++ [28040; 24687; 31867; 22411]%N ++ runes_of_ascii "` , } , lengthOf { i64
+    // 50% %s
+    Foo ,}, // trailing space 
+pack lengthOf ,
+    } packet repeatCount // trailing space 
+{
+T `// not a comment`, @tag(
+    00 ) leftPad
+Packet
+`100% of %d` ,char[0123456789  ] charz
+    @calculatedFrom(""a\""b"") ,@lengthOf(Header ) f32a	{u128 @calculatedFrom("""") `// not a comment` /// triple
+,T@calculatedFrom( ""a\""b"" ) , int32 lengthOf	@lengthOf( msg_type // `tick` ""quote"" 'q'
+) , Foo@calculatedFrom( ""a\""b""
+    )	, }
+,a1
+    { i16 x @calculatedFrom( ""a\\"" ) `{ , }` , match i8i8 as packetx { 00
+: // " ++ [128512]%N ++ runes_of_ascii " emoji
+As ,
+    //
+    0 // `tick` ""quote"" 'q'
+: packetx 3
+: // trailing space 
+A
+,
+} ,// 50% %s
+packetx
+Pad, },
+@lengthOf(int
+    )match leftPad as	tag
+    //
+    { ""1""
+:
+// c
+//x
+matchKey
+    ,  } ,
+    }
+    // " ++ [128512]%N ++ runes_of_ascii " emoji
+    options
+    { Packet = false ;
+chars
+= 00	; uint8x
+    =  false ;
+o=
+    00
+; tag
+= 7 ; } options { }
+packet trueish { @calculatedFrom(""" ++ [128512]%N ++ runes_of_ascii """ ) options1 @calculatedFrom( /// triple
+"""" ) `tab	here` ,
+u16 calculatedFrom
+@lengthOf( leftPad
+) `" ++ [233]%N ++ runes_of_ascii "`,match x_y_z as tag{
+    1 : trueish , } ,
+    string
+// c
+// c
+body @calculatedFrom(
+    ""x y""// c
+) , @calculatedFrom(
+// @lengthOf(
+//x
+""{,}""
+) char[ 1 ]Pad ,  Foo
+    Z9_,
+match  roots as asx //
+{ 255 :i8i8
+    }
+,
+    i16 repeatCount
+    //
+    , uint8 x , }
+")).
+Eval vm_compute in ("<<<M916>>>" ++ check (runes_of_ascii "packet a1 { @rightPad(
+    ) zchar[ 7 ]BodyLength
+, }MetaData repeatCount { pack calculatedFrom //	t
+,
+Header uint8x/// triple
+,string_ tag,// " ++ [27880; 37322]%N ++ runes_of_ascii "
+options1 rootA
+    //	t
+    ,} // trailing space ")).
+Eval vm_compute in ("<<<T916>>>" ++ terms [mkTok 35 "packet" 1 0 false; mkTok 42 "a1" 1 7 false; mkTok 2 "{" 1 10 false; mkTok 32 "@rightPad" 1 12 false; mkTok 8 "(" 1 21 false; mkTok 6 ")" 2 4 false; mkTok 14 "zchar[" 2 6 false; mkTok 30 "7" 2 13 false; mkTok 13 "]" 2 15 false; mkTok 42 "BodyLength" 2 16 false; mkTok 40 "," 3 0 false; mkTok 3 "}" 3 2 false; mkTok 37 "MetaData" 3 3 false; mkTok 42 "repeatCount" 3 12 false; mkTok 2 "{" 3 24 false; mkTok 42 "pack" 3 26 false; mkTok 42 "calculatedFrom" 3 31 false; mkTok 44 (string_of_bytes [47; 47; 9; 116]%N) 3 46 true; mkTok 40 "," 4 0 false; mkTok 42 "Header" 5 0 false; mkTok 42 "uint8x" 5 7 false; mkTok 44 "/// triple" 5 13 true; mkTok 40 "," 6 0 false; mkTok 42 "string_" 6 1 false; mkTok 42 "tag" 6 9 false; mkTok 40 "," 6 12 false; mkTok 44 (string_of_bytes [47; 47; 32; 230; 179; 168; 233; 135; 138]%N) 6 13 true; mkTok 42 "options1" 7 0 false; mkTok 42 "rootA" 7 9 false; mkTok 44 (string_of_bytes [47; 47; 9; 116]%N) 8 4 true; mkTok 40 "," 9 4 false; mkTok 3 "}" 9 5 false; mkTok 44 "// trailing space " 9 7 true; mkTok 0 "<EOF>" 9 25 false] (mkPacket (mkPtok 35 "packet" 1 0 0) (Some (mkPtok 3 "}" 9 5 31)) [(DPacket (mkPacketDef (mkSpan (mkPtok 35 "packet" 1 0 0) (mkPtok 3 "}" 3 2 11)) None (mkPtok 35 "packet" 1 0 0) (mkPtok 42 "a1" 1 7 1) (mkPtok 2 "{" 1 10 2) [(mkFieldWithAttr (mkSpan (mkPtok 32 "@rightPad" 1 12 3) (mkPtok 40 "," 3 0 10)) [(FAPadding (mkSpan (mkPtok 32 "@rightPad" 1 12 3) (mkPtok 6 ")" 2 4 5)) (mkPaddingAttr (mkSpan (mkPtok 32 "@rightPad" 1 12 3) (mkPtok 6 ")" 2 4 5)) (mkPtok 32 "@rightPad" 1 12 3) (mkPtok 8 "(" 1 21 4) None (mkPtok 6 ")" 2 4 5)))] (MetaField (mkSpan (mkPtok 14 "zchar[" 2 6 6) (mkPtok 40 "," 3 0 10)) None (mkMetaDecl (mkSpan (mkPtok 14 "zchar[" 2 6 6) (mkPtok 40 "," 3 0 10)) (TyFixed (mkSpan (mkPtok 14 "zchar[" 2 6 6) (mkPtok 13 "]" 2 15 8)) (mkFixedString (mkSpan (mkPtok 14 "zchar[" 2 6 6) (mkPtok 13 "]" 2 15 8)) (mkPtok 14 "zchar[" 2 6 6) (mkPtok 30 "7" 2 13 7) (mkPtok 13 "]" 2 15 8))) (mkPtok 42 "BodyLength" 2 16 9) None (mkPtok 40 "," 3 0 10))))] (mkPtok 3 "}" 3 2 11))); (DMeta (mkMetaDef (mkSpan (mkPtok 37 "MetaData" 3 3 12) (mkPtok 3 "}" 9 5 31)) (mkPtok 37 "MetaData" 3 3 12) (mkPtok 42 "repeatCount" 3 12 13) (mkPtok 2 "{" 3 24 14) [(MIRef (mkRefMetaDecl (mkSpan (mkPtok 42 "pack" 3 26 15) (mkPtok 40 "," 4 0 18)) (mkPtok 42 "pack" 3 26 15) (mkPtok 42 "calculatedFrom" 3 31 16) None (mkPtok 40 "," 4 0 18))); (MIRef (mkRefMetaDecl (mkSpan (mkPtok 42 "Header" 5 0 19) (mkPtok 40 "," 6 0 22)) (mkPtok 42 "Header" 5 0 19) (mkPtok 42 "uint8x" 5 7 20) None (mkPtok 40 "," 6 0 22))); (MIRef (mkRefMetaDecl (mkSpan (mkPtok 42 "string_" 6 1 23) (mkPtok 40 "," 6 12 25)) (mkPtok 42 "string_" 6 1 23) (mkPtok 42 "tag" 6 9 24) None (mkPtok 40 "," 6 12 25))); (MIRef (mkRefMetaDecl (mkSpan (mkPtok 42 "options1" 7 0 27) (mkPtok 40 "," 9 4 30)) (mkPtok 42 "options1" 7 0 27) (mkPtok 42 "rootA" 7 9 28) None (mkPtok 40 "," 9 4 30)))] (mkPtok 3 "}" 9 5 31)))])).
+Eval vm_compute in ("<<<M948>>>" ++ check (runes_of_ascii "packet a1
+{
+    /// triple
+    string_@lengthOf(As ) `
+` , // " ++ [128512]%N ++ runes_of_ascii " emoji
+}")).
+Eval vm_compute in ("<<<M980>>>" ++ check (runes_of_ascii "
+root packet len { @calculatedFrom( ""a\\"")  @tag( 7) @lengthOf( int ) u
+@calculatedFrom(
+    """" ) ,}
+packet stringy
+    {// a // b
+repeat
+    string zchar ``
+, @leftPad
+    (
+' ' )
+    i8i8 //
+{crc i64_ , } , charz @calculatedFrom( ""1"" )`" ++ [28040; 24687; 31867; 22411]%N ++ runes_of_ascii "`	, @tag( 0123456789) msg_type `it's` ,} packet T {options1
+    , match rootA
+//
+// @lengthOf(
+as i64_ { 42	:	repeatCount
 // " ++ [128512]%N ++ runes_of_ascii " emoji
 //	t
-'\x00' ) msg_type
-@lengthOf( Z9_)  , @lengthOf(
-msg_type
-    )
-    asx ,@lengthOf(	metadata )
-    @tag( 3) @lengthOf( metadata ) f32 BodyLength	@lengthOf(/// triple
-T ) , body
 ,
-@leftPad ( '\x00') //x
-zchar[ 255 //x
-]
-    // c
-    repeatCount
-    @lengthOf( body ) `a\`
-,
-}
-")).
-Eval vm_compute in ("<<<M1716>>>" ++ check (runes_of_ascii "packet  repeatCount
-    { /// triple
-repeat string
-    msg_type
-`crlf
-line` , i8 calculatedFrom
-,	@calculatedFrom(
-""" ++ [233]%N ++ runes_of_ascii "t" ++ [233]%N ++ runes_of_ascii """
-    //x
-    ) // `tick` ""quote"" 'q'
-uint8x @calculatedFrom( ""{,}"" )`doc` ,	} packet lengthOf {//	t
-char[ 3] Logon
-,// " ++ [128512]%N ++ runes_of_ascii " emoji
-match // `tick` ""quote"" 'q'
-i64_
-as i64_ {[7 ,
-    42 ,
-    /// triple
-    4294967296
-, ""{,}"", 1,
-// trailing space 
-// `tick` ""quote"" 'q'
-""a\""b"" ]
-    : _x ,  1: crc ,
-}
-    , }
-    packet
-Pad // packet A { u8 x, }
-{roots , match options1 as	crc { ""a\\"": packetx
-, ""\" ++ [233]%N ++ runes_of_ascii """:
-//
-// trailing space 
-_x  [
-4294967296 , 0123456789  , ""1"", 00 ]: uint8x ,""a\\""//	t
-: f32a ,""x y"" :charz
-// trailing space 
-// packet A { u8 x, }
-, } , }
-")).
-Eval vm_compute in ("<<<M1748>>>" ++ check (runes_of_ascii "packet f32a { // a // b
-}
-")).
-Eval vm_compute in ("<<<M1780>>>" ++ check (runes_of_ascii "packet metadata
-// c
-// " ++ [27880; 37322]%N ++ runes_of_ascii "
-{	@leftPad (
-    '\x00' ) match crc // " ++ [27880; 37322]%N ++ runes_of_ascii "
-as metadata
-{ [ 007, 255 ,  3
-//
-// trailing space 
-,
-    1 ,
-    // packet A { u8 x, }
-    10
-, 10 ] :Header , [ ""1""  , ""`tick`"" , 65535,""a\""b"" ,
-    007 ,
-    007 , 0, """ ++ [233]%N ++ runes_of_ascii "t" ++ [233]%N ++ runes_of_ascii """]: a1 ,	},zchar[255 ]repeatCount @lengthOf( stringy)
+0123456789 :  len, }
     ,
-uint16
-    zchar
-, }
-root packet	f32a
-// a // b
+repeat// packet A { u8 x, }
+o asx
+`u8 x,` , repeat i8i8
+`" ++ [28040; 24687; 31867; 22411]%N ++ runes_of_ascii "`, //
+MetaDataX `doc`
+,	packetx {
+    f32 Logon @calculatedFrom( ""`tick`"" )`it's` , u lengthOf
+`a\`, }
+    , @lengthOf( a1 )
+chars , //	t
+char[] u128@lengthOf(a1
+)`" ++ [28040; 24687; 31867; 22411]%N ++ runes_of_ascii "`,match metadata as zchar { //x
+""1"" : lengthOf, 1	: _x, [ 7
+    , // @lengthOf(
+""" ++ [28040; 24687]%N ++ runes_of_ascii """ ,""" ++ [128512]%N ++ runes_of_ascii """ ,
+1, 4294967296
+    ] :
 // packet A { u8 x, }
-{ u8 tag `a\`,
-} packet trueish{ @tag( 0123456789 ) @tag( 007 ) u32	metadata `two words` , float32 T @calculatedFrom( ""a\\"") `" ++ [233]%N ++ runes_of_ascii "` , match stringy
-as x_y_z {// a // b
-[ ""a\""b""
-]: a1 , }
-, int8
-rootA `tab	here` , int packetx , @tag(0 ) repeat i16 lengthOf `// not a comment` ,}")).
-Eval vm_compute in ("<<<M1812>>>" ++ check (runes_of_ascii "MetaData rootA// @lengthOf(
-{
-string f32a , float zchar , //
-string options1
-, string crc `` , } // c
-root packet _x  {
-@calculatedFrom(	""it's"") // packet A { u8 x, }
-match x	as leftPad { ""\n""
-: matchKey
-} ,
-string rootA
-`crlf
-line` // a // b
-,  }// trailing space 
+//x
+Packet , [
+// packet A { u8 x, }
+// a // b
+""a\\""	]:As
+    } ,
+char[65535
+// trailing space 
+// trailing space 
+] uint8x ,	}
+")).
+Eval vm_compute in ("<<<M1012>>>" ++ check (runes_of_ascii "
 packet
-    zchar //x
-{ } // " ++ [27880; 37322]%N)).
-Eval vm_compute in ("<<<T1812>>>" ++ terms [mkTok 37 "MetaData" 1 0 false; mkTok 42 "rootA" 1 9 false; mkTok 44 "// @lengthOf(" 1 14 true; mkTok 2 "{" 2 0 false; mkTok 15 "string" 3 0 false; mkTok 42 "f32a" 3 7 false; mkTok 40 "," 3 12 false; mkTok 42 "float" 3 14 false; mkTok 42 "zchar" 3 20 false; mkTok 40 "," 3 26 false; mkTok 44 "//" 3 28 true; mkTok 15 "string" 4 0 false; mkTok 42 "options1" 4 7 false; mkTok 40 "," 5 0 false; mkTok 15 "string" 5 2 false; mkTok 42 "crc" 5 9 false; mkTok 43 "``" 5 13 false; mkTok 40 "," 5 16 false; mkTok 3 "}" 5 18 false; mkTok 44 "// c" 5 20 true; mkTok 34 "root" 6 0 false; mkTok 35 "packet" 6 5 false; mkTok 42 "_x" 6 12 false; mkTok 2 "{" 6 16 false; mkTok 5 "@calculatedFrom(" 7 0 false; mkTok 31 """it's""" 7 17 false; mkTok 6 ")" 7 23 false; mkTok 44 "// packet A { u8 x, }" 7 25 true; mkTok 38 "match" 8 0 false; mkTok 42 "x" 8 6 false; mkTok 17 "as" 8 8 false; mkTok 42 "leftPad" 8 11 false; mkTok 2 "{" 8 19 false; mkTok 31 """\n""" 8 21 false; mkTok 39 ":" 9 0 false; mkTok 42 "matchKey" 9 2 false; mkTok 3 "}" 10 0 false; mkTok 40 "," 10 2 false; mkTok 15 "string" 11 0 false; mkTok 42 "rootA" 11 7 false; mkTok 43 (string_of_bytes [96; 99; 114; 108; 102; 13; 10; 108; 105; 110; 101; 96]%N) 12 0 false; mkTok 44 "// a // b" 13 6 true; mkTok 40 "," 14 0 false; mkTok 3 "}" 14 3 false; mkTok 44 "// trailing space " 14 4 true; mkTok 35 "packet" 15 0 false; mkTok 42 "zchar" 16 4 false; mkTok 44 "//x" 16 10 true; mkTok 2 "{" 17 0 false; mkTok 3 "}" 17 2 false; mkTok 44 (string_of_bytes [47; 47; 32; 230; 179; 168; 233; 135; 138]%N) 17 4 true; mkTok 0 "<EOF>" 17 9 false] (mkPacket (mkPtok 37 "MetaData" 1 0 0) (Some (mkPtok 3 "}" 17 2 49)) [(DMeta (mkMetaDef (mkSpan (mkPtok 37 "MetaData" 1 0 0) (mkPtok 3 "}" 5 18 18)) (mkPtok 37 "MetaData" 1 0 0) (mkPtok 42 "rootA" 1 9 1) (mkPtok 2 "{" 2 0 3) [(MIDecl (mkMetaDecl (mkSpan (mkPtok 15 "string" 3 0 4) (mkPtok 40 "," 3 12 6)) (TyDynamic (mkSpan (mkPtok 15 "string" 3 0 4) (mkPtok 15 "string" 3 0 4)) (mkDynamicString (mkSpan (mkPtok 15 "string" 3 0 4) (mkPtok 15 "string" 3 0 4)) (mkPtok 15 "string" 3 0 4))) (mkPtok 42 "f32a" 3 7 5) None (mkPtok 40 "," 3 12 6))); (MIRef (mkRefMetaDecl (mkSpan (mkPtok 42 "float" 3 14 7) (mkPtok 40 "," 3 26 9)) (mkPtok 42 "float" 3 14 7) (mkPtok 42 "zchar" 3 20 8) None (mkPtok 40 "," 3 26 9))); (MIDecl (mkMetaDecl (mkSpan (mkPtok 15 "string" 4 0 11) (mkPtok 40 "," 5 0 13)) (TyDynamic (mkSpan (mkPtok 15 "string" 4 0 11) (mkPtok 15 "string" 4 0 11)) (mkDynamicString (mkSpan (mkPtok 15 "string" 4 0 11) (mkPtok 15 "string" 4 0 11)) (mkPtok 15 "string" 4 0 11))) (mkPtok 42 "options1" 4 7 12) None (mkPtok 40 "," 5 0 13))); (MIDecl (mkMetaDecl (mkSpan (mkPtok 15 "string" 5 2 14) (mkPtok 40 "," 5 16 17)) (TyDynamic (mkSpan (mkPtok 15 "string" 5 2 14) (mkPtok 15 "string" 5 2 14)) (mkDynamicString (mkSpan (mkPtok 15 "string" 5 2 14) (mkPtok 15 "string" 5 2 14)) (mkPtok 15 "string" 5 2 14))) (mkPtok 42 "crc" 5 9 15) (Some (mkPtok 43 "``" 5 13 16)) (mkPtok 40 "," 5 16 17)))] (mkPtok 3 "}" 5 18 18))); (DPacket (mkPacketDef (mkSpan (mkPtok 34 "root" 6 0 20) (mkPtok 3 "}" 14 3 43)) (Some (mkPtok 34 "root" 6 0 20)) (mkPtok 35 "packet" 6 5 21) (mkPtok 42 "_x" 6 12 22) (mkPtok 2 "{" 6 16 23) [(mkFieldWithAttr (mkSpan (mkPtok 5 "@calculatedFrom(" 7 0 24) (mkPtok 40 "," 10 2 37)) [(FACalculatedFrom (mkSpan (mkPtok 5 "@calculatedFrom(" 7 0 24) (mkPtok 6 ")" 7 23 26)) (mkCalculatedFrom (mkSpan (mkPtok 5 "@calculatedFrom(" 7 0 24) (mkPtok 6 ")" 7 23 26)) (mkPtok 5 "@calculatedFrom(" 7 0 24) (mkPtok 31 """it's""" 7 17 25) (mkPtok 6 ")" 7 23 26)))] (MatchField (mkSpan (mkPtok 38 "match" 8 0 28) (mkPtok 40 "," 10 2 37)) (mkMatchFieldDecl (mkSpan (mkPtok 38 "match" 8 0 28) (mkPtok 3 "}" 10 0 36)) (mkPtok 38 "match" 8 0 28) (mkPtok 42 "x" 8 6 29) (mkPtok 17 "as" 8 8 30) (mkPtok 42 "leftPad" 8 11 31) (mkPtok 2 "{" 8 19 32) [(mkMatchPair (mkSpan (mkPtok 31 """\n""" 8 21 33) (mkPtok 42 "matchKey" 9 2 35)) (MKString (mkPtok 31 """\n""" 8 21 33)) (mkPtok 39 ":" 9 0 34) (mkPtok 42 "matchKey" 9 2 35) None)] (mkPtok 3 "}" 10 0 36)) (mkPtok 40 "," 10 2 37))); (mkFieldWithAttr (mkSpan (mkPtok 15 "string" 11 0 38) (mkPtok 40 "," 14 0 42)) [] (MetaField (mkSpan (mkPtok 15 "string" 11 0 38) (mkPtok 40 "," 14 0 42)) None (mkMetaDecl (mkSpan (mkPtok 15 "string" 11 0 38) (mkPtok 40 "," 14 0 42)) (TyDynamic (mkSpan (mkPtok 15 "string" 11 0 38) (mkPtok 15 "string" 11 0 38)) (mkDynamicString (mkSpan (mkPtok 15 "string" 11 0 38) (mkPtok 15 "string" 11 0 38)) (mkPtok 15 "string" 11 0 38))) (mkPtok 42 "rootA" 11 7 39) (Some (mkPtok 43 (string_of_bytes [96; 99; 114; 108; 102; 13; 10; 108; 105; 110; 101; 96]%N) 12 0 40)) (mkPtok 40 "," 14 0 42))))] (mkPtok 3 "}" 14 3 43))); (DPacket (mkPacketDef (mkSpan (mkPtok 35 "packet" 15 0 45) (mkPtok 3 "}" 17 2 49)) None (mkPtok 35 "packet" 15 0 45) (mkPtok 42 "zchar" 16 4 46) (mkPtok 2 "{" 17 0 48) [] (mkPtok 3 "}" 17 2 49)))])).
-Eval vm_compute in ("<<<M1844>>>" ++ check (runes_of_ascii "root packet
-    a1{ @calculatedFrom(  ""`tick`""
-    /// triple
-    ) match a1 as chars // a // b
-{ 4294967296
-    : packetx,
-""packet"" : crc /// triple
-, ""CRC32""	://	t
-BodyLength ,
-""// no comment""
-:	Packet ,}
-// packet A { u8 x, }
-// packet A { u8 x, }
-,
-i8  Header@calculatedFrom(""abc"" ) , @calculatedFrom( // c
-""// no comment"" )
-// @lengthOf(
-//x
-@tag(
-    42 ) repeat
-float32	As
-, } MetaData
-BodyLength { float Pad
-`" ++ [28040; 24687; 31867; 22411]%N ++ runes_of_ascii "` ,  i8
-    // a // b
-    repeatCount `a\`,
-    }	packet asx { repeat zchar[ 0 ]x_y_z
-    , pack
-    //x
-    packetx `" ++ [233]%N ++ runes_of_ascii "`,repeat string roots , } packet len { charz
-u
-, metadata `
-`,
-    metadata,@tag( 00
-) stringy,
-match x as x_y_z // @lengthOf(
+    Pad {
+int64
+repeatCount
+    `" ++ [233]%N ++ runes_of_ascii "` , }options {}
+")).
+Eval vm_compute in ("<<<M1044>>>" ++ check (runes_of_ascii "root
+packet
+    roots
 {
-    1:
-    rootA , } ,
-    @rightPad ( '0' )
-    i64_ @lengthOf( roots
-) `a\` , metadata i8i8 , @leftPad ( ' ' //	t
-)
-f64 string_ `` , repeat
-MetaDataX,
-@rightPad ( '0'
-    )
-    /// triple
-    zchar[	7
-] charz @calculatedFrom( """ ++ [233]%N ++ runes_of_ascii "t" ++ [233]%N ++ runes_of_ascii """ )	`two words` ,
-} // `tick` ""quote"" 'q'
-root packet Pad
-    {u8x msg_type
-    // c
-    , @tag( 42
-    )crc @calculatedFrom(
-""a	b""
-) , match
-rootA
-as u { ""\n"": As	, """ ++ [233]%N ++ runes_of_ascii "t" ++ [233]%N ++ runes_of_ascii """
-:crc , [ 0 ,""" ++ [233]%N ++ runes_of_ascii "t" ++ [233]%N ++ runes_of_ascii """
-, ""abc"" ]  : o ,  ""a	b"" :
-    len,	0123456789 :  chars
-[
-    /// triple
-    4294967296
-, 1, ""a	b"" ,""a\""b"" ,
-00 ,
-    00
-,""""
-, // a // b
-65535]: o ,}  , @calculatedFrom(	""packet"" ) uint16 trueish `crlf
-line`, leftPad
-    calculatedFrom `it's`
+    repeat stringy uint8x
+, repeatCount {char metadata @lengthOf(_x ) // @lengthOf(
+`crlf
+line`,
+    //
+    repeatCount { char msg_type ,} ,	}, }")).
+Eval vm_compute in ("<<<M1076>>>" ++ check (runes_of_ascii "options {// a // b
+}")).
+Eval vm_compute in ("<<<M1108>>>" ++ check (runes_of_ascii "options{crc =//x
+00 ; Packet= uint32 ; MetaDataX = '\x00' ; } // a // b")).
+Eval vm_compute in ("<<<M1140>>>" ++ check (runes_of_ascii "packet chars	{ @lengthOf(Pad )
+    f64
+    asx , } MetaData asx { char[] lengthOf// " ++ [27880; 37322]%N ++ runes_of_ascii "
+, } packet options1 {
+    @tag( 65535  )u32
+falsey , }
+")).
+Eval vm_compute in ("<<<T1140>>>" ++ terms [mkTok 35 "packet" 1 0 false; mkTok 42 "chars" 1 7 false; mkTok 2 "{" 1 13 false; mkTok 7 "@lengthOf(" 1 15 false; mkTok 42 "Pad" 1 25 false; mkTok 6 ")" 1 29 false; mkTok 29 "f64" 2 4 false; mkTok 42 "asx" 3 4 false; mkTok 40 "," 3 8 false; mkTok 3 "}" 3 10 false; mkTok 37 "MetaData" 3 12 false; mkTok 42 "asx" 3 21 false; mkTok 2 "{" 3 25 false; mkTok 16 "char[]" 3 27 false; mkTok 42 "lengthOf" 3 34 false; mkTok 44 (string_of_bytes [47; 47; 32; 230; 179; 168; 233; 135; 138]%N) 3 42 true; mkTok 40 "," 4 0 false; mkTok 3 "}" 4 2 false; mkTok 35 "packet" 4 4 false; mkTok 42 "options1" 4 11 false; mkTok 2 "{" 4 20 false; mkTok 9 "@tag(" 5 4 false; mkTok 30 "65535" 5 10 false; mkTok 6 ")" 5 17 false; mkTok 22 "u32" 5 18 false; mkTok 42 "falsey" 6 0 false; mkTok 40 "," 6 7 false; mkTok 3 "}" 6 9 false; mkTok 0 "<EOF>" 7 0 false] (mkPacket (mkPtok 35 "packet" 1 0 0) (Some (mkPtok 3 "}" 6 9 27)) [(DPacket (mkPacketDef (mkSpan (mkPtok 35 "packet" 1 0 0) (mkPtok 3 "}" 3 10 9)) None (mkPtok 35 "packet" 1 0 0) (mkPtok 42 "chars" 1 7 1) (mkPtok 2 "{" 1 13 2) [(mkFieldWithAttr (mkSpan (mkPtok 7 "@lengthOf(" 1 15 3) (mkPtok 40 "," 3 8 8)) [(FALengthOf (mkSpan (mkPtok 7 "@lengthOf(" 1 15 3) (mkPtok 6 ")" 1 29 5)) (mkLengthOf (mkSpan (mkPtok 7 "@lengthOf(" 1 15 3) (mkPtok 6 ")" 1 29 5)) (mkPtok 7 "@lengthOf(" 1 15 3) (mkPtok 42 "Pad" 1 25 4) (mkPtok 6 ")" 1 29 5)))] (MetaField (mkSpan (mkPtok 29 "f64" 2 4 6) (mkPtok 40 "," 3 8 8)) None (mkMetaDecl (mkSpan (mkPtok 29 "f64" 2 4 6) (mkPtok 40 "," 3 8 8)) (TyBasic (mkSpan (mkPtok 29 "f64" 2 4 6) (mkPtok 29 "f64" 2 4 6)) (mkBasicType (mkSpan (mkPtok 29 "f64" 2 4 6) (mkPtok 29 "f64" 2 4 6)) (mkPtok 29 "f64" 2 4 6))) (mkPtok 42 "asx" 3 4 7) None (mkPtok 40 "," 3 8 8))))] (mkPtok 3 "}" 3 10 9))); (DMeta (mkMetaDef (mkSpan (mkPtok 37 "MetaData" 3 12 10) (mkPtok 3 "}" 4 2 17)) (mkPtok 37 "MetaData" 3 12 10) (mkPtok 42 "asx" 3 21 11) (mkPtok 2 "{" 3 25 12) [(MIDecl (mkMetaDecl (mkSpan (mkPtok 16 "char[]" 3 27 13) (mkPtok 40 "," 4 0 16)) (TyDynamic (mkSpan (mkPtok 16 "char[]" 3 27 13) (mkPtok 16 "char[]" 3 27 13)) (mkDynamicString (mkSpan (mkPtok 16 "char[]" 3 27 13) (mkPtok 16 "char[]" 3 27 13)) (mkPtok 16 "char[]" 3 27 13))) (mkPtok 42 "lengthOf" 3 34 14) None (mkPtok 40 "," 4 0 16)))] (mkPtok 3 "}" 4 2 17))); (DPacket (mkPacketDef (mkSpan (mkPtok 35 "packet" 4 4 18) (mkPtok 3 "}" 6 9 27)) None (mkPtok 35 "packet" 4 4 18) (mkPtok 42 "options1" 4 11 19) (mkPtok 2 "{" 4 20 20) [(mkFieldWithAttr (mkSpan (mkPtok 9 "@tag(" 5 4 21) (mkPtok 40 "," 6 7 26)) [(FATag (mkSpan (mkPtok 9 "@tag(" 5 4 21) (mkPtok 6 ")" 5 17 23)) (mkTagAttr (mkSpan (mkPtok 9 "@tag(" 5 4 21) (mkPtok 6 ")" 5 17 23)) (mkPtok 9 "@tag(" 5 4 21) (mkPtok 30 "65535" 5 10 22) (mkPtok 6 ")" 5 17 23)))] (MetaField (mkSpan (mkPtok 22 "u32" 5 18 24) (mkPtok 40 "," 6 7 26)) None (mkMetaDecl (mkSpan (mkPtok 22 "u32" 5 18 24) (mkPtok 40 "," 6 7 26)) (TyBasic (mkSpan (mkPtok 22 "u32" 5 18 24) (mkPtok 22 "u32" 5 18 24)) (mkBasicType (mkSpan (mkPtok 22 "u32" 5 18 24) (mkPtok 22 "u32" 5 18 24)) (mkPtok 22 "u32" 5 18 24))) (mkPtok 42 "falsey" 6 0 25) None (mkPtok 40 "," 6 7 26))))] (mkPtok 3 "}" 6 9 27)))])).
+Eval vm_compute in ("<<<M1172>>>" ++ check (runes_of_ascii "MetaData Header
+{ // @lengthOf(
+}packet i8i8 { // " ++ [27880; 37322]%N ++ runes_of_ascii "
+@calculatedFrom(
+""it's"" )@leftPad  ('0')
+    @lengthOf(msg_type
+)u8 Logon `{ , }` ,}
+")).
+Eval vm_compute in ("<<<M1204>>>" ++ check (runes_of_ascii "
+packet	u {match Z9_ as
+Z9_ { 7 :  packetx ,	}// packet A { u8 x, }
+, uint8x `// not a comment`
+    , @lengthOf(
     // @lengthOf(
-    ,	@calculatedFrom( ""x y"" )
-    @calculatedFrom( ""it's""  )  @lengthOf( len )
-repeat len  `// not a comment` ,
-repeat //
-i64
-    uint8x
-`
-`
-// a // b
-// @lengthOf(
-,	uint32 leftPad
-    @calculatedFrom(	""a	b""
-//x
+    x ) pack `line1
+line2` ,
+@tag( 65535) x_y_z `a\` , float32 tag `100% of %d`	, leftPad
+leftPad , @calculatedFrom( ""CRC32"" ) @rightPad( ' ') string x
 // " ++ [27880; 37322]%N ++ runes_of_ascii "
-)	, }
-")).
-Eval vm_compute in ("<<<M1876>>>" ++ check (runes_of_ascii "packet BodyLength
-{
-@leftPad('\x00'
-//
-//x
-)repeat chars, } packet len
-{ @leftPad ( // `tick` ""quote"" 'q'
-' ' )//x
-@tag( 007
-) int64 Packet // a // b
-`a\`
-    , }
-// @lengthOf(
-//x
-packet float {
-} packet
-packetx {}
-")).
-Eval vm_compute in ("<<<M1908>>>" ++ check (runes_of_ascii "MetaData int { char[]
-    pack ,
-}
 // " ++ [128512]%N ++ runes_of_ascii " emoji
-")).
-Eval vm_compute in ("<<<M1940>>>" ++ check (runes_of_ascii "
-")).
-Eval vm_compute in ("<<<M1972>>>" ++ check (runes_of_ascii "packet i8i8{ Z9_ { u8x
-lengthOf
-,char[] _x @lengthOf(
-    u128 ), lengthOf, i64 i8i8 , } , Packet u , @rightPad ( )
-match _x
-as body
-{
-    ""`tick`"" :	repeatCount, 00 // trailing space 
-: // " ++ [128512]%N ++ runes_of_ascii " emoji
-uint8x// " ++ [27880; 37322]%N ++ runes_of_ascii "
-0123456789	:
-    len
-    ,// trailing space 
-[ ""\n""
-, ""1""
-    // packet A { u8 x, }
-    ]
-:
-//x
-//
-o
-, """"  : A , } , repeat u32
+, // " ++ [128512]%N ++ runes_of_ascii " emoji
+@leftPad  ( ' '
+)i8
+// `tick` ""quote"" 'q'
+// packet A { u8 x, }
+T @lengthOf(
+    Z9_ ) ,packetx
+    @calculatedFrom(
+    ""packet""
+)
+    , }
+    options	{u8x=  007 ; x_y_z=
+    ""a	b"" ; }
+packet
+falsey {
+    @lengthOf( int ) @calculatedFrom(
+    ""// no comment"" ) @calculatedFrom(""" ++ [28040; 24687]%N ++ runes_of_ascii """
+)
     // @lengthOf(
-    A
-`
-` ,char[
-    42 ] charz
-,repeat
-uint8x float
-`two words` ,@calculatedFrom( """ ++ [28040; 24687]%N ++ runes_of_ascii """
+    zchar[ 4294967296//
+] //	t
+u , int8 BodyLength @lengthOf(
+f32a )
+,
+    @tag(	4294967296 )	uint16  calculatedFrom `doc` , float32
+    As ,
+}packet tag
+{ } packet	leftPad {@rightPad
+    ( )
+repeat
+    char[ 42 ]i8i8 , } 	 ")).
+Eval vm_compute in ("<<<M1236>>>" ++ check (runes_of_ascii "options	{ Foo= true	;  }packet u128 {
+    //x
+    @calculatedFrom(
+    // a // b
+    ""x y""
     )
-a1
-,}
+lengthOf @lengthOf(
+    msg_type ) `line1
+line2`, @tag( 4294967296) match
+uint8x as
+x{ 00 : // " ++ [27880; 37322]%N ++ runes_of_ascii "
+T
+,""`tick`"" : i64_ ,} ,
+repeat // a // b
+body , }
+")).
+Eval vm_compute in ("<<<M1268>>>" ++ check (runes_of_ascii "// a // b
+packet// " ++ [128512]%N ++ runes_of_ascii " emoji
+trueish{ }
+")).
+Eval vm_compute in ("<<<M1300>>>" ++ check (runes_of_ascii "// " ++ [128512]%N ++ runes_of_ascii " emoji
+MetaData Header {  string
+tag , char[ 0123456789]uint8x
+`{ , }`
+,float64  falsey , }")).
+Eval vm_compute in ("<<<M1332>>>" ++ check (runes_of_ascii "
+packet crc
+    {
+    match asx
+as tag { 1
+:u8x , [ 4294967296,""CRC32""
+, 65535 , ""x y"" , 00	]
+: calculatedFrom , ""a\\"" :
+    packetx ,
+} ,
+    metadata @calculatedFrom( // packet A { u8 x, }
+""" ++ [28040; 24687]%N ++ runes_of_ascii """ )	`` , string
+    string_@calculatedFrom(
+""a	b""
+) ,
+    } packet
+options1{  char[] MetaDataX	@lengthOf( roots	) , }")).
+Eval vm_compute in ("<<<M1364>>>" ++ check (runes_of_ascii "packet
+leftPad //x
+{
+T `u8 x,` ,
+x @calculatedFrom(""1"")
+// a // b
+// trailing space 
+`` , // " ++ [128512]%N ++ runes_of_ascii " emoji
+}")).
+Eval vm_compute in ("<<<T1364>>>" ++ terms [mkTok 35 "packet" 1 0 false; mkTok 42 "leftPad" 2 0 false; mkTok 44 "//x" 2 8 true; mkTok 2 "{" 3 0 false; mkTok 42 "T" 4 0 false; mkTok 43 "`u8 x,`" 4 2 false; mkTok 40 "," 4 10 false; mkTok 42 "x" 5 0 false; mkTok 5 "@calculatedFrom(" 5 2 false; mkTok 31 """1""" 5 18 false; mkTok 6 ")" 5 21 false; mkTok 44 "// a // b" 6 0 true; mkTok 44 "// trailing space " 7 0 true; mkTok 43 "``" 8 0 false; mkTok 40 "," 8 3 false; mkTok 44 (string_of_bytes [47; 47; 32; 240; 159; 152; 128; 32; 101; 109; 111; 106; 105]%N) 8 5 true; mkTok 3 "}" 9 0 false; mkTok 0 "<EOF>" 9 1 false] (mkPacket (mkPtok 35 "packet" 1 0 0) (Some (mkPtok 3 "}" 9 0 16)) [(DPacket (mkPacketDef (mkSpan (mkPtok 35 "packet" 1 0 0) (mkPtok 3 "}" 9 0 16)) None (mkPtok 35 "packet" 1 0 0) (mkPtok 42 "leftPad" 2 0 1) (mkPtok 2 "{" 3 0 3) [(mkFieldWithAttr (mkSpan (mkPtok 42 "T" 4 0 4) (mkPtok 40 "," 4 10 6)) [] (ObjectField (mkSpan (mkPtok 42 "T" 4 0 4) (mkPtok 40 "," 4 10 6)) None (mkPtok 42 "T" 4 0 4) None (Some (mkPtok 43 "`u8 x,`" 4 2 5)) (mkPtok 40 "," 4 10 6))); (mkFieldWithAttr (mkSpan (mkPtok 42 "x" 5 0 7) (mkPtok 40 "," 8 3 14)) [] (CheckSumField (mkSpan (mkPtok 42 "x" 5 0 7) (mkPtok 40 "," 8 3 14)) (mkChecksumFieldDecl (mkSpan (mkPtok 42 "x" 5 0 7) (mkPtok 40 "," 8 3 14)) None (mkPtok 42 "x" 5 0 7) (mkCalculatedFrom (mkSpan (mkPtok 5 "@calculatedFrom(" 5 2 8) (mkPtok 6 ")" 5 21 10)) (mkPtok 5 "@calculatedFrom(" 5 2 8) (mkPtok 31 """1""" 5 18 9) (mkPtok 6 ")" 5 21 10)) (Some (mkPtok 43 "``" 8 0 13)) (mkPtok 40 "," 8 3 14))))] (mkPtok 3 "}" 9 0 16)))])).
+Eval vm_compute in ("<<<M1396>>>" ++ check (runes_of_ascii "// " ++ [128512]%N ++ runes_of_ascii " emoji
+
+")).
+Eval vm_compute in ("<<<M1428>>>" ++ check (runes_of_ascii "// " ++ [27880; 37322]%N ++ runes_of_ascii "
+options { As
+    = false x =
+false;
+}
+//x
+")).
+Eval vm_compute in ("<<<M1460>>>" ++ check (runes_of_ascii "MetaData
+    calculatedFrom{
+    string Header,}
+")).
+Eval vm_compute in ("<<<M1492>>>" ++ check (runes_of_ascii "packet  _x { @lengthOf( len )
+    @lengthOf( A
+)@lengthOf( //x
+Header	)
+    // packet A { u8 x, }
+    crc rootA
+    `two words` , } MetaData
+body
+    { zchar Logon ,  pack As	,
+string _x `" ++ [28040; 24687; 31867; 22411]%N ++ runes_of_ascii "` //x
+, i64 u  , char[] charz `say ""hi""`	,}")).
+Eval vm_compute in ("<<<M1524>>>" ++ check (runes_of_ascii "root
+packet body{stringy // c
+@calculatedFrom( ""a	b"" )  `say ""hi""` , }
+
+")).
+Eval vm_compute in ("<<<M1556>>>" ++ check (runes_of_ascii "options {// packet A { u8 x, }
+Packet =""x y"" ; x=
+""abc""
+;
+_x
+= ""a	b""// `tick` ""quote"" 'q'
+zchar = ""it's""	}
+")).
+Eval vm_compute in ("<<<M1588>>>" ++ check (runes_of_ascii "
+options{ options1 =""`tick`"" BodyLength	= ""x y""; } packet
+    o
+{
+// @lengthOf(
+// c
+uint64 charz `tab	here` , }  packet o { body @lengthOf( trueish ) , repeat
+    u8 charz	,@tag( 4294967296 ) Pad
+float ,
+    repeat
+    // c
+    u32 Z9_ `100% of %d`
+, char[0	]//	t
+chars// @lengthOf(
+@calculatedFrom( ""x y"" )
+`two words` , // @lengthOf(
+}
+")).
+Eval vm_compute in ("<<<T1588>>>" ++ terms [mkTok 1 "options" 2 0 false; mkTok 2 "{" 2 7 false; mkTok 42 "options1" 2 9 false; mkTok 4 "=" 2 18 false; mkTok 31 """`tick`""" 2 19 false; mkTok 42 "BodyLength" 2 28 false; mkTok 4 "=" 2 39 false; mkTok 31 """x y""" 2 41 false; mkTok 41 ";" 2 46 false; mkTok 3 "}" 2 48 false; mkTok 35 "packet" 2 50 false; mkTok 42 "o" 3 4 false; mkTok 2 "{" 4 0 false; mkTok 44 "// @lengthOf(" 5 0 true; mkTok 44 "// c" 6 0 true; mkTok 23 "uint64" 7 0 false; mkTok 42 "charz" 7 7 false; mkTok 43 (string_of_bytes [96; 116; 97; 98; 9; 104; 101; 114; 101; 96]%N) 7 13 false; mkTok 40 "," 7 24 false; mkTok 3 "}" 7 26 false; mkTok 35 "packet" 7 29 false; mkTok 42 "o" 7 36 false; mkTok 2 "{" 7 38 false; mkTok 42 "body" 7 40 false; mkTok 7 "@lengthOf(" 7 45 false; mkTok 42 "trueish" 7 56 false; mkTok 6 ")" 7 64 false; mkTok 40 "," 7 66 false; mkTok 36 "repeat" 7 68 false; mkTok 20 "u8" 8 4 false; mkTok 42 "charz" 8 7 false; mkTok 40 "," 8 13 false; mkTok 9 "@tag(" 8 14 false; mkTok 30 "4294967296" 8 20 false; mkTok 6 ")" 8 31 false; mkTok 42 "Pad" 8 33 false; mkTok 42 "float" 9 0 false; mkTok 40 "," 9 6 false; mkTok 36 "repeat" 10 4 false; mkTok 44 "// c" 11 4 true; mkTok 22 "u32" 12 4 false; mkTok 42 "Z9_" 12 8 false; mkTok 43 "`100% of %d`" 12 12 false; mkTok 40 "," 13 0 false; mkTok 12 "char[" 13 2 false; mkTok 30 "0" 13 7 false; mkTok 13 "]" 13 9 false; mkTok 44 (string_of_bytes [47; 47; 9; 116]%N) 13 10 true; mkTok 42 "chars" 14 0 false; mkTok 44 "// @lengthOf(" 14 5 true; mkTok 5 "@calculatedFrom(" 15 0 false; mkTok 31 """x y""" 15 17 false; mkTok 6 ")" 15 23 false; mkTok 43 "`two words`" 16 0 false; mkTok 40 "," 16 12 false; mkTok 44 "// @lengthOf(" 16 14 true; mkTok 3 "}" 17 0 false; mkTok 0 "<EOF>" 18 0 false] (mkPacket (mkPtok 1 "options" 2 0 0) (Some (mkPtok 3 "}" 17 0 56)) [(DOption (mkOptionDef (mkSpan (mkPtok 1 "options" 2 0 0) (mkPtok 3 "}" 2 48 9)) (mkPtok 1 "options" 2 0 0) (mkPtok 2 "{" 2 7 1) [(mkOptionDecl (mkSpan (mkPtok 42 "options1" 2 9 2) (mkPtok 31 """`tick`""" 2 19 4)) (mkPtok 42 "options1" 2 9 2) (mkPtok 4 "=" 2 18 3) (VString (mkSpan (mkPtok 31 """`tick`""" 2 19 4) (mkPtok 31 """`tick`""" 2 19 4)) (mkPtok 31 """`tick`""" 2 19 4)) None); (mkOptionDecl (mkSpan (mkPtok 42 "BodyLength" 2 28 5) (mkPtok 41 ";" 2 46 8)) (mkPtok 42 "BodyLength" 2 28 5) (mkPtok 4 "=" 2 39 6) (VString (mkSpan (mkPtok 31 """x y""" 2 41 7) (mkPtok 31 """x y""" 2 41 7)) (mkPtok 31 """x y""" 2 41 7)) (Some (mkPtok 41 ";" 2 46 8)))] (mkPtok 3 "}" 2 48 9))); (DPacket (mkPacketDef (mkSpan (mkPtok 35 "packet" 2 50 10) (mkPtok 3 "}" 7 26 19)) None (mkPtok 35 "packet" 2 50 10) (mkPtok 42 "o" 3 4 11) (mkPtok 2 "{" 4 0 12) [(mkFieldWithAttr (mkSpan (mkPtok 23 "uint64" 7 0 15) (mkPtok 40 "," 7 24 18)) [] (MetaField (mkSpan (mkPtok 23 "uint64" 7 0 15) (mkPtok 40 "," 7 24 18)) None (mkMetaDecl (mkSpan (mkPtok 23 "uint64" 7 0 15) (mkPtok 40 "," 7 24 18)) (TyBasic (mkSpan (mkPtok 23 "uint64" 7 0 15) (mkPtok 23 "uint64" 7 0 15)) (mkBasicType (mkSpan (mkPtok 23 "uint64" 7 0 15) (mkPtok 23 "uint64" 7 0 15)) (mkPtok 23 "uint64" 7 0 15))) (mkPtok 42 "charz" 7 7 16) (Some (mkPtok 43 (string_of_bytes [96; 116; 97; 98; 9; 104; 101; 114; 101; 96]%N) 7 13 17)) (mkPtok 40 "," 7 24 18))))] (mkPtok 3 "}" 7 26 19))); (DPacket (mkPacketDef (mkSpan (mkPtok 35 "packet" 7 29 20) (mkPtok 3 "}" 17 0 56)) None (mkPtok 35 "packet" 7 29 20) (mkPtok 42 "o" 7 36 21) (mkPtok 2 "{" 7 38 22) [(mkFieldWithAttr (mkSpan (mkPtok 42 "body" 7 40 23) (mkPtok 40 "," 7 66 27)) [] (LengthField (mkSpan (mkPtok 42 "body" 7 40 23) (mkPtok 40 "," 7 66 27)) (mkLengthFieldDecl (mkSpan (mkPtok 42 "body" 7 40 23) (mkPtok 40 "," 7 66 27)) None (mkPtok 42 "body" 7 40 23) (mkLengthOf (mkSpan (mkPtok 7 "@lengthOf(" 7 45 24) (mkPtok 6 ")" 7 64 26)) (mkPtok 7 "@lengthOf(" 7 45 24) (mkPtok 42 "trueish" 7 56 25) (mkPtok 6 ")" 7 64 26)) None (mkPtok 40 "," 7 66 27)))); (mkFieldWithAttr (mkSpan (mkPtok 36 "repeat" 7 68 28) (mkPtok 40 "," 8 13 31)) [] (MetaField (mkSpan (mkPtok 36 "repeat" 7 68 28) (mkPtok 40 "," 8 13 31)) (Some (mkPtok 36 "repeat" 7 68 28)) (mkMetaDecl (mkSpan (mkPtok 20 "u8" 8 4 29) (mkPtok 40 "," 8 13 31)) (TyBasic (mkSpan (mkPtok 20 "u8" 8 4 29) (mkPtok 20 "u8" 8 4 29)) (mkBasicType (mkSpan (mkPtok 20 "u8" 8 4 29) (mkPtok 20 "u8" 8 4 29)) (mkPtok 20 "u8" 8 4 29))) (mkPtok 42 "charz" 8 7 30) None (mkPtok 40 "," 8 13 31)))); (mkFieldWithAttr (mkSpan (mkPtok 9 "@tag(" 8 14 32) (mkPtok 40 "," 9 6 37)) [(FATag (mkSpan (mkPtok 9 "@tag(" 8 14 32) (mkPtok 6 ")" 8 31 34)) (mkTagAttr (mkSpan (mkPtok 9 "@tag(" 8 14 32) (mkPtok 6 ")" 8 31 34)) (mkPtok 9 "@tag(" 8 14 32) (mkPtok 30 "4294967296" 8 20 33) (mkPtok 6 ")" 8 31 34)))] (ObjectField (mkSpan (mkPtok 42 "Pad" 8 33 35) (mkPtok 40 "," 9 6 37)) None (mkPtok 42 "Pad" 8 33 35) (Some (mkPtok 42 "float" 9 0 36)) None (mkPtok 40 "," 9 6 37))); (mkFieldWithAttr (mkSpan (mkPtok 36 "repeat" 10 4 38) (mkPtok 40 "," 13 0 43)) [] (MetaField (mkSpan (mkPtok 36 "repeat" 10 4 38) (mkPtok 40 "," 13 0 43)) (Some (mkPtok 36 "repeat" 10 4 38)) (mkMetaDecl (mkSpan (mkPtok 22 "u32" 12 4 40) (mkPtok 40 "," 13 0 43)) (TyBasic (mkSpan (mkPtok 22 "u32" 12 4 40) (mkPtok 22 "u32" 12 4 40)) (mkBasicType (mkSpan (mkPtok 22 "u32" 12 4 40) (mkPtok 22 "u32" 12 4 40)) (mkPtok 22 "u32" 12 4 40))) (mkPtok 42 "Z9_" 12 8 41) (Some (mkPtok 43 "`100% of %d`" 12 12 42)) (mkPtok 40 "," 13 0 43)))); (mkFieldWithAttr (mkSpan (mkPtok 12 "char[" 13 2 44) (mkPtok 40 "," 16 12 54)) [] (CheckSumField (mkSpan (mkPtok 12 "char[" 13 2 44) (mkPtok 40 "," 16 12 54)) (mkChecksumFieldDecl (mkSpan (mkPtok 12 "char[" 13 2 44) (mkPtok 40 "," 16 12 54)) (Some (TyFixed (mkSpan (mkPtok 12 "char[" 13 2 44) (mkPtok 13 "]" 13 9 46)) (mkFixedString (mkSpan (mkPtok 12 "char[" 13 2 44) (mkPtok 13 "]" 13 9 46)) (mkPtok 12 "char[" 13 2 44) (mkPtok 30 "0" 13 7 45) (mkPtok 13 "]" 13 9 46)))) (mkPtok 42 "chars" 14 0 48) (mkCalculatedFrom (mkSpan (mkPtok 5 "@calculatedFrom(" 15 0 50) (mkPtok 6 ")" 15 23 52)) (mkPtok 5 "@calculatedFrom(" 15 0 50) (mkPtok 31 """x y""" 15 17 51) (mkPtok 6 ")" 15 23 52)) (Some (mkPtok 43 "`two words`" 16 0 53)) (mkPtok 40 "," 16 12 54))))] (mkPtok 3 "}" 17 0 56)))])).
+Eval vm_compute in ("<<<M1620>>>" ++ check (runes_of_ascii "packet	Pad // c
+{@lengthOf(
+asx ) int
+{ // 50% %s
+int16
+    falsey,
+    repeat uint8x, }
+    , }MetaData
+metadata {
+    // trailing space 
+    char[] i8i8 ,// 50% %s
+char[] i64_ , i64_	As , float64 string_, } MetaData msg_type  { }")).
+Eval vm_compute in ("<<<M1652>>>" ++ check (runes_of_ascii "packet repeatCount
+{
+}
+")).
+Eval vm_compute in ("<<<M1684>>>" ++ check (runes_of_ascii "root packet// " ++ [27880; 37322]%N ++ runes_of_ascii "
+MetaDataX
+{@rightPad // " ++ [27880; 37322]%N ++ runes_of_ascii "
+(  )
+repeat uint8 i64_ , char[]
+tag
+`u8 x,`	, @rightPad
+( '0'	)
+/// triple
+// packet A { u8 x, }
+@tag(
+3 // c
+) @lengthOf( i8i8 )
+    u8
+    msg_type@calculatedFrom(""CRC32"" ) `100% of %d`
+    , @lengthOf(
+x)
+metadata `line1
+line2`,	zchar[ 7 ] // trailing space 
+metadata , matchKey
+, }
+")).
+Eval vm_compute in ("<<<M1716>>>" ++ check (runes_of_ascii "// c
+packet
+    /// triple
+    crc
+    {
+    } MetaData stringy {f64 As ,  char[] tag , u32 rootA `// not a comment`
+, }
+    root  packet
+// trailing space 
+//x
+i8i8{ leftPad ,	char[	42] falsey `100% of %d` ,} // c")).
+Eval vm_compute in ("<<<M1748>>>" ++ check (runes_of_ascii "MetaData leftPad {
+pack
+    /// triple
+    calculatedFrom`u8 x,` , }packet chars { @lengthOf(
+u128
+) MetaDataX// a // b
+@lengthOf( Z9_) `two words`
+    // `tick` ""quote"" 'q'
+    ,	char	leftPad, MetaDataX  ,match // @lengthOf(
+Header as As { [ // " ++ [128512]%N ++ runes_of_ascii " emoji
+0 , 4294967296 , 1
+]: falsey [
+""CRC32""
+]:Z9_, 4294967296:leftPad	42 :// `tick` ""quote"" 'q'
+Pad ,[ ""`tick`""// packet A { u8 x, }
+] :
+    repeatCount
+, [ 0	, 42 , ""it's"" ,
+    1]: x ,// packet A { u8 x, }
+} ,
+    @tag( 1 )
+    float
+    @lengthOf( stringy	)
+// c
+//
+`" ++ [233]%N ++ runes_of_ascii "`
+    , } options { a1 =
+0123456789 ;  }
+")).
+Eval vm_compute in ("<<<M1780>>>" ++ check (runes_of_ascii "MetaData	int {//	t
+uint32 matchKey
+`tab	here` ,
+    uint64 string_ ,u128
+_x, } options	{lengthOf = true
+    i64_
+// 50% %s
+// trailing space 
+= 42 } packet
+    roots
+{ @rightPad( ' ' )
+repeat Logon
+{  falsey
+    string_ `// not a comment` , u16 chars `line1
+line2`
+, pack{ roots { repeat
+msg_type,} ,char[] Pad @calculatedFrom( ""CRC32"" //
+)
+, } ,} ,//x
+@leftPad (
+' '
+    )@lengthOf(  f32a
+)T { i16 // " ++ [128512]%N ++ runes_of_ascii " emoji
+Pad @lengthOf( rootA
+) `` ,// @lengthOf(
+int8
+f32a @lengthOf( Pad ), uint8 A
+    `" ++ [233]%N ++ runes_of_ascii "` , } // " ++ [27880; 37322]%N ++ runes_of_ascii "
+,@tag( 0123456789 )	f32a ,
+@lengthOf(// `tick` ""quote"" 'q'
+crc
+    )repeat string Packet `it's`	,@tag(
+1 )
+@rightPad ( ) @tag(0	) zchar[ 7 ]BodyLength
+/// triple
+// @lengthOf(
+@lengthOf(f32a
+), }
+packet zchar { charz `say ""hi""`
+, zchar[
+7] body	@calculatedFrom(""a	b"" ) `line1
+line2` , } // packet A { u8 x, }")).
+Eval vm_compute in ("<<<M1812>>>" ++ check (runes_of_ascii "packet
+    trueish {
+    u64 // c
+lengthOf @lengthOf(  asx ), i8i8 crc  ,	repeat MetaDataX
+{
+packetx{	zchar[ 255 // 50% %s
+]// 50% %s
+zchar `a\` ,  int64 a1 `// not a comment`  , float32 leftPad @calculatedFrom( ""1"") , //x
+f64 Header// @lengthOf(
+, }
+,
+    uint16 pack@calculatedFrom(
+// `tick` ""quote"" 'q'
+//	t
+""abc"" ) , char[ 3] leftPad
+    ,
+u8 // a // b
+i64_
+    `u8 x,` , } ,
+@calculatedFrom(
+""a	b""
+    )stringy, } root packet chars	{
+    match  i8i8 as uint8x{ [
+// `tick` ""quote"" 'q'
+// trailing space 
+""\" ++ [233]%N ++ runes_of_ascii """ , ""abc""
+    ]// " ++ [128512]%N ++ runes_of_ascii " emoji
+: chars
+, ""`tick`"" :
+f32a [ // " ++ [27880; 37322]%N ++ runes_of_ascii "
+""packet"" ]:
+MetaDataX	""\n"" : tag , } ,
+    // 50% %s
+    @rightPad ( '0'  )
+    len @calculatedFrom( ""a\\""
+    )
+`" ++ [233]%N ++ runes_of_ascii "`	, @calculatedFrom(  ""1""
+    ) u8x  { repeat string_
+    , repeat
+Z9_ { repeat int8	Logon `it's` , } // packet A { u8 x, }
+,
+    }
+    // 50% %s
+    ,
+@calculatedFrom(""// no comment"" )@lengthOf(
+    u8x )  falsey,
+    } // " ++ [128512]%N ++ runes_of_ascii " emoji")).
+Eval vm_compute in ("<<<T1812>>>" ++ terms [mkTok 35 "packet" 1 0 false; mkTok 42 "trueish" 2 4 false; mkTok 2 "{" 2 12 false; mkTok 23 "u64" 3 4 false; mkTok 44 "// c" 3 8 true; mkTok 42 "lengthOf" 4 0 false; mkTok 7 "@lengthOf(" 4 9 false; mkTok 42 "asx" 4 21 false; mkTok 6 ")" 4 25 false; mkTok 40 "," 4 26 false; mkTok 42 "i8i8" 4 28 false; mkTok 42 "crc" 4 33 false; mkTok 40 "," 4 38 false; mkTok 36 "repeat" 4 40 false; mkTok 42 "MetaDataX" 4 47 false; mkTok 2 "{" 5 0 false; mkTok 42 "packetx" 6 0 false; mkTok 2 "{" 6 7 false; mkTok 14 "zchar[" 6 9 false; mkTok 30 "255" 6 16 false; mkTok 44 "// 50% %s" 6 20 true; mkTok 13 "]" 7 0 false; mkTok 44 "// 50% %s" 7 1 true; mkTok 42 "zchar" 8 0 false; mkTok 43 "`a\`" 8 6 false; mkTok 40 "," 8 11 false; mkTok 27 "int64" 8 14 false; mkTok 42 "a1" 8 20 false; mkTok 43 "`// not a comment`" 8 23 false; mkTok 40 "," 8 43 false; mkTok 28 "float32" 8 45 false; mkTok 42 "leftPad" 8 53 false; mkTok 5 "@calculatedFrom(" 8 61 false; mkTok 31 """1""" 8 78 false; mkTok 6 ")" 8 81 false; mkTok 40 "," 8 83 false; mkTok 44 "//x" 8 85 true; mkTok 29 "f64" 9 0 false; mkTok 42 "Header" 9 4 false; mkTok 44 "// @lengthOf(" 9 10 true; mkTok 40 "," 10 0 false; mkTok 3 "}" 10 2 false; mkTok 40 "," 11 0 false; mkTok 21 "uint16" 12 4 false; mkTok 42 "pack" 12 11 false; mkTok 5 "@calculatedFrom(" 12 15 false; mkTok 44 "// `tick` ""quote"" 'q'" 13 0 true; mkTok 44 (string_of_bytes [47; 47; 9; 116]%N) 14 0 true; mkTok 31 """abc""" 15 0 false; mkTok 6 ")" 15 6 false; mkTok 40 "," 15 8 false; mkTok 12 "char[" 15 10 false; mkTok 30 "3" 15 16 false; mkTok 13 "]" 15 17 false; mkTok 42 "leftPad" 15 19 false; mkTok 40 "," 16 4 false; mkTok 20 "u8" 17 0 false; mkTok 44 "// a // b" 17 3 true; mkTok 42 "i64_" 18 0 false; mkTok 43 "`u8 x,`" 19 4 false; mkTok 40 "," 19 12 false; mkTok 3 "}" 19 14 false; mkTok 40 "," 19 16 false; mkTok 5 "@calculatedFrom(" 20 0 false; mkTok 31 (string_of_bytes [34; 97; 9; 98; 34]%N) 21 0 false; mkTok 6 ")" 22 4 false; mkTok 42 "stringy" 22 5 false; mkTok 40 "," 22 12 false; mkTok 3 "}" 22 14 false; mkTok 34 "root" 22 16 false; mkTok 35 "packet" 22 21 false; mkTok 42 "chars" 22 28 false; mkTok 2 "{" 22 34 false; mkTok 38 "match" 23 4 false; mkTok 42 "i8i8" 23 11 false; mkTok 17 "as" 23 16 false; mkTok 42 "uint8x" 23 19 false; mkTok 2 "{" 23 25 false; mkTok 18 "[" 23 27 false; mkTok 44 "// `tick` ""quote"" 'q'" 24 0 true; mkTok 44 "// trailing space " 25 0 true; mkTok 31 (string_of_bytes [34; 92; 195; 169; 34]%N) 26 0 false; mkTok 40 "," 26 5 false; mkTok 31 """abc""" 26 7 false; mkTok 13 "]" 27 4 false; mkTok 44 (string_of_bytes [47; 47; 32; 240; 159; 152; 128; 32; 101; 109; 111; 106; 105]%N) 27 5 true; mkTok 39 ":" 28 0 false; mkTok 42 "chars" 28 2 false; mkTok 40 "," 29 0 false; mkTok 31 """`tick`""" 29 2 false; mkTok 39 ":" 29 11 false; mkTok 42 "f32a" 30 0 false; mkTok 18 "[" 30 5 false; mkTok 44 (string_of_bytes [47; 47; 32; 230; 179; 168; 233; 135; 138]%N) 30 7 true; mkTok 31 """packet""" 31 0 false; mkTok 13 "]" 31 9 false; mkTok 39 ":" 31 10 false; mkTok 42 "MetaDataX" 32 0 false; mkTok 31 """\n""" 32 10 false; mkTok 39 ":" 32 15 false; mkTok 42 "tag" 32 17 false; mkTok 40 "," 32 21 false; mkTok 3 "}" 32 23 false; mkTok 40 "," 32 25 false; mkTok 44 "// 50% %s" 33 4 true; mkTok 32 "@rightPad" 34 4 false; mkTok 8 "(" 34 14 false; mkTok 33 "'0'" 34 16 false; mkTok 6 ")" 34 21 false; mkTok 42 "len" 35 4 false; mkTok 5 "@calculatedFrom(" 35 8 false; mkTok 31 """a\\""" 35 25 false; mkTok 6 ")" 36 4 false; mkTok 43 (string_of_bytes [96; 195; 169; 96]%N) 37 0 false; mkTok 40 "," 37 4 false; mkTok 5 "@calculatedFrom(" 37 6 false; mkTok 31 """1""" 37 24 false; mkTok 6 ")" 38 4 false; mkTok 42 "u8x" 38 6 false; mkTok 2 "{" 38 11 false; mkTok 36 "repeat" 38 13 false; mkTok 42 "string_" 38 20 false; mkTok 40 "," 39 4 false; mkTok 36 "repeat" 39 6 false; mkTok 42 "Z9_" 40 0 false; mkTok 2 "{" 40 4 false; mkTok 36 "repeat" 40 6 false; mkTok 24 "int8" 40 13 false; mkTok 42 "Logon" 40 18 false; mkTok 43 "`it's`" 40 24 false; mkTok 40 "," 40 31 false; mkTok 3 "}" 40 33 false; mkTok 44 "// packet A { u8 x, }" 40 35 true; mkTok 40 "," 41 0 false; mkTok 3 "}" 42 4 false; mkTok 44 "// 50% %s" 43 4 true; mkTok 40 "," 44 4 false; mkTok 5 "@calculatedFrom(" 45 0 false; mkTok 31 """// no comment""" 45 16 false; mkTok 6 ")" 45 32 false; mkTok 7 "@lengthOf(" 45 33 false; mkTok 42 "u8x" 46 4 false; mkTok 6 ")" 46 8 false; mkTok 42 "falsey" 46 11 false; mkTok 40 "," 46 17 false; mkTok 3 "}" 47 4 false; mkTok 44 (string_of_bytes [47; 47; 32; 240; 159; 152; 128; 32; 101; 109; 111; 106; 105]%N) 47 6 true; mkTok 0 "<EOF>" 47 16 false] (mkPacket (mkPtok 35 "packet" 1 0 0) (Some (mkPtok 3 "}" 47 4 145)) [(DPacket (mkPacketDef (mkSpan (mkPtok 35 "packet" 1 0 0) (mkPtok 3 "}" 22 14 68)) None (mkPtok 35 "packet" 1 0 0) (mkPtok 42 "trueish" 2 4 1) (mkPtok 2 "{" 2 12 2) [(mkFieldWithAttr (mkSpan (mkPtok 23 "u64" 3 4 3) (mkPtok 40 "," 4 26 9)) [] (LengthField (mkSpan (mkPtok 23 "u64" 3 4 3) (mkPtok 40 "," 4 26 9)) (mkLengthFieldDecl (mkSpan (mkPtok 23 "u64" 3 4 3) (mkPtok 40 "," 4 26 9)) (Some (TyBasic (mkSpan (mkPtok 23 "u64" 3 4 3) (mkPtok 23 "u64" 3 4 3)) (mkBasicType (mkSpan (mkPtok 23 "u64" 3 4 3) (mkPtok 23 "u64" 3 4 3)) (mkPtok 23 "u64" 3 4 3)))) (mkPtok 42 "lengthOf" 4 0 5) (mkLengthOf (mkSpan (mkPtok 7 "@lengthOf(" 4 9 6) (mkPtok 6 ")" 4 25 8)) (mkPtok 7 "@lengthOf(" 4 9 6) (mkPtok 42 "asx" 4 21 7) (mkPtok 6 ")" 4 25 8)) None (mkPtok 40 "," 4 26 9)))); (mkFieldWithAttr (mkSpan (mkPtok 42 "i8i8" 4 28 10) (mkPtok 40 "," 4 38 12)) [] (ObjectField (mkSpan (mkPtok 42 "i8i8" 4 28 10) (mkPtok 40 "," 4 38 12)) None (mkPtok 42 "i8i8" 4 28 10) (Some (mkPtok 42 "crc" 4 33 11)) None (mkPtok 40 "," 4 38 12))); (mkFieldWithAttr (mkSpan (mkPtok 36 "repeat" 4 40 13) (mkPtok 40 "," 19 16 62)) [] (InerObjectField (mkSpan (mkPtok 36 "repeat" 4 40 13) (mkPtok 40 "," 19 16 62)) (Some (mkPtok 36 "repeat" 4 40 13)) (InerObjectDecl (mkSpan (mkPtok 42 "MetaDataX" 4 47 14) (mkPtok 3 "}" 19 14 61)) (mkPtok 42 "MetaDataX" 4 47 14) (mkPtok 2 "{" 5 0 15) [(InerObjectField (mkSpan (mkPtok 42 "packetx" 6 0 16) (mkPtok 40 "," 11 0 42)) None (InerObjectDecl (mkSpan (mkPtok 42 "packetx" 6 0 16) (mkPtok 3 "}" 10 2 41)) (mkPtok 42 "packetx" 6 0 16) (mkPtok 2 "{" 6 7 17) [(MetaField (mkSpan (mkPtok 14 "zchar[" 6 9 18) (mkPtok 40 "," 8 11 25)) None (mkMetaDecl (mkSpan (mkPtok 14 "zchar[" 6 9 18) (mkPtok 40 "," 8 11 25)) (TyFixed (mkSpan (mkPtok 14 "zchar[" 6 9 18) (mkPtok 13 "]" 7 0 21)) (mkFixedString (mkSpan (mkPtok 14 "zchar[" 6 9 18) (mkPtok 13 "]" 7 0 21)) (mkPtok 14 "zchar[" 6 9 18) (mkPtok 30 "255" 6 16 19) (mkPtok 13 "]" 7 0 21))) (mkPtok 42 "zchar" 8 0 23) (Some (mkPtok 43 "`a\`" 8 6 24)) (mkPtok 40 "," 8 11 25))); (MetaField (mkSpan (mkPtok 27 "int64" 8 14 26) (mkPtok 40 "," 8 43 29)) None (mkMetaDecl (mkSpan (mkPtok 27 "int64" 8 14 26) (mkPtok 40 "," 8 43 29)) (TyBasic (mkSpan (mkPtok 27 "int64" 8 14 26) (mkPtok 27 "int64" 8 14 26)) (mkBasicType (mkSpan (mkPtok 27 "int64" 8 14 26) (mkPtok 27 "int64" 8 14 26)) (mkPtok 27 "int64" 8 14 26))) (mkPtok 42 "a1" 8 20 27) (Some (mkPtok 43 "`// not a comment`" 8 23 28)) (mkPtok 40 "," 8 43 29))); (CheckSumField (mkSpan (mkPtok 28 "float32" 8 45 30) (mkPtok 40 "," 8 83 35)) (mkChecksumFieldDecl (mkSpan (mkPtok 28 "float32" 8 45 30) (mkPtok 40 "," 8 83 35)) (Some (TyBasic (mkSpan (mkPtok 28 "float32" 8 45 30) (mkPtok 28 "float32" 8 45 30)) (mkBasicType (mkSpan (mkPtok 28 "float32" 8 45 30) (mkPtok 28 "float32" 8 45 30)) (mkPtok 28 "float32" 8 45 30)))) (mkPtok 42 "leftPad" 8 53 31) (mkCalculatedFrom (mkSpan (mkPtok 5 "@calculatedFrom(" 8 61 32) (mkPtok 6 ")" 8 81 34)) (mkPtok 5 "@calculatedFrom(" 8 61 32) (mkPtok 31 """1""" 8 78 33) (mkPtok 6 ")" 8 81 34)) None (mkPtok 40 "," 8 83 35))); (MetaField (mkSpan (mkPtok 29 "f64" 9 0 37) (mkPtok 40 "," 10 0 40)) None (mkMetaDecl (mkSpan (mkPtok 29 "f64" 9 0 37) (mkPtok 40 "," 10 0 40)) (TyBasic (mkSpan (mkPtok 29 "f64" 9 0 37) (mkPtok 29 "f64" 9 0 37)) (mkBasicType (mkSpan (mkPtok 29 "f64" 9 0 37) (mkPtok 29 "f64" 9 0 37)) (mkPtok 29 "f64" 9 0 37))) (mkPtok 42 "Header" 9 4 38) None (mkPtok 40 "," 10 0 40)))] (mkPtok 3 "}" 10 2 41)) (mkPtok 40 "," 11 0 42)); (CheckSumField (mkSpan (mkPtok 21 "uint16" 12 4 43) (mkPtok 40 "," 15 8 50)) (mkChecksumFieldDecl (mkSpan (mkPtok 21 "uint16" 12 4 43) (mkPtok 40 "," 15 8 50)) (Some (TyBasic (mkSpan (mkPtok 21 "uint16" 12 4 43) (mkPtok 21 "uint16" 12 4 43)) (mkBasicType (mkSpan (mkPtok 21 "uint16" 12 4 43) (mkPtok 21 "uint16" 12 4 43)) (mkPtok 21 "uint16" 12 4 43)))) (mkPtok 42 "pack" 12 11 44) (mkCalculatedFrom (mkSpan (mkPtok 5 "@calculatedFrom(" 12 15 45) (mkPtok 6 ")" 15 6 49)) (mkPtok 5 "@calculatedFrom(" 12 15 45) (mkPtok 31 """abc""" 15 0 48) (mkPtok 6 ")" 15 6 49)) None (mkPtok 40 "," 15 8 50))); (MetaField (mkSpan (mkPtok 12 "char[" 15 10 51) (mkPtok 40 "," 16 4 55)) None (mkMetaDecl (mkSpan (mkPtok 12 "char[" 15 10 51) (mkPtok 40 "," 16 4 55)) (TyFixed (mkSpan (mkPtok 12 "char[" 15 10 51) (mkPtok 13 "]" 15 17 53)) (mkFixedString (mkSpan (mkPtok 12 "char[" 15 10 51) (mkPtok 13 "]" 15 17 53)) (mkPtok 12 "char[" 15 10 51) (mkPtok 30 "3" 15 16 52) (mkPtok 13 "]" 15 17 53))) (mkPtok 42 "leftPad" 15 19 54) None (mkPtok 40 "," 16 4 55))); (MetaField (mkSpan (mkPtok 20 "u8" 17 0 56) (mkPtok 40 "," 19 12 60)) None (mkMetaDecl (mkSpan (mkPtok 20 "u8" 17 0 56) (mkPtok 40 "," 19 12 60)) (TyBasic (mkSpan (mkPtok 20 "u8" 17 0 56) (mkPtok 20 "u8" 17 0 56)) (mkBasicType (mkSpan (mkPtok 20 "u8" 17 0 56) (mkPtok 20 "u8" 17 0 56)) (mkPtok 20 "u8" 17 0 56))) (mkPtok 42 "i64_" 18 0 58) (Some (mkPtok 43 "`u8 x,`" 19 4 59)) (mkPtok 40 "," 19 12 60)))] (mkPtok 3 "}" 19 14 61)) (mkPtok 40 "," 19 16 62))); (mkFieldWithAttr (mkSpan (mkPtok 5 "@calculatedFrom(" 20 0 63) (mkPtok 40 "," 22 12 67)) [(FACalculatedFrom (mkSpan (mkPtok 5 "@calculatedFrom(" 20 0 63) (mkPtok 6 ")" 22 4 65)) (mkCalculatedFrom (mkSpan (mkPtok 5 "@calculatedFrom(" 20 0 63) (mkPtok 6 ")" 22 4 65)) (mkPtok 5 "@calculatedFrom(" 20 0 63) (mkPtok 31 (string_of_bytes [34; 97; 9; 98; 34]%N) 21 0 64) (mkPtok 6 ")" 22 4 65)))] (ObjectField (mkSpan (mkPtok 42 "stringy" 22 5 66) (mkPtok 40 "," 22 12 67)) None (mkPtok 42 "stringy" 22 5 66) None None (mkPtok 40 "," 22 12 67)))] (mkPtok 3 "}" 22 14 68))); (DPacket (mkPacketDef (mkSpan (mkPtok 34 "root" 22 16 69) (mkPtok 3 "}" 47 4 145)) (Some (mkPtok 34 "root" 22 16 69)) (mkPtok 35 "packet" 22 21 70) (mkPtok 42 "chars" 22 28 71) (mkPtok 2 "{" 22 34 72) [(mkFieldWithAttr (mkSpan (mkPtok 38 "match" 23 4 73) (mkPtok 40 "," 32 25 103)) [] (MatchField (mkSpan (mkPtok 38 "match" 23 4 73) (mkPtok 40 "," 32 25 103)) (mkMatchFieldDecl (mkSpan (mkPtok 38 "match" 23 4 73) (mkPtok 3 "}" 32 23 102)) (mkPtok 38 "match" 23 4 73) (mkPtok 42 "i8i8" 23 11 74) (mkPtok 17 "as" 23 16 75) (mkPtok 42 "uint8x" 23 19 76) (mkPtok 2 "{" 23 25 77) [(mkMatchPair (mkSpan (mkPtok 18 "[" 23 27 78) (mkPtok 40 "," 29 0 88)) (MKList (mkKeyList (mkSpan (mkPtok 18 "[" 23 27 78) (mkPtok 13 "]" 27 4 84)) (mkPtok 18 "[" 23 27 78) (mkPtok 31 (string_of_bytes [34; 92; 195; 169; 34]%N) 26 0 81) [((mkPtok 40 "," 26 5 82), (mkPtok 31 """abc""" 26 7 83))] (mkPtok 13 "]" 27 4 84))) (mkPtok 39 ":" 28 0 86) (mkPtok 42 "chars" 28 2 87) (Some (mkPtok 40 "," 29 0 88))); (mkMatchPair (mkSpan (mkPtok 31 """`tick`""" 29 2 89) (mkPtok 42 "f32a" 30 0 91)) (MKString (mkPtok 31 """`tick`""" 29 2 89)) (mkPtok 39 ":" 29 11 90) (mkPtok 42 "f32a" 30 0 91) None); (mkMatchPair (mkSpan (mkPtok 18 "[" 30 5 92) (mkPtok 42 "MetaDataX" 32 0 97)) (MKList (mkKeyList (mkSpan (mkPtok 18 "[" 30 5 92) (mkPtok 13 "]" 31 9 95)) (mkPtok 18 "[" 30 5 92) (mkPtok 31 """packet""" 31 0 94) [] (mkPtok 13 "]" 31 9 95))) (mkPtok 39 ":" 31 10 96) (mkPtok 42 "MetaDataX" 32 0 97) None); (mkMatchPair (mkSpan (mkPtok 31 """\n""" 32 10 98) (mkPtok 40 "," 32 21 101)) (MKString (mkPtok 31 """\n""" 32 10 98)) (mkPtok 39 ":" 32 15 99) (mkPtok 42 "tag" 32 17 100) (Some (mkPtok 40 "," 32 21 101)))] (mkPtok 3 "}" 32 23 102)) (mkPtok 40 "," 32 25 103))); (mkFieldWithAttr (mkSpan (mkPtok 32 "@rightPad" 34 4 105) (mkPtok 40 "," 37 4 114)) [(FAPadding (mkSpan (mkPtok 32 "@rightPad" 34 4 105) (mkPtok 6 ")" 34 21 108)) (mkPaddingAttr (mkSpan (mkPtok 32 "@rightPad" 34 4 105) (mkPtok 6 ")" 34 21 108)) (mkPtok 32 "@rightPad" 34 4 105) (mkPtok 8 "(" 34 14 106) (Some (mkPtok 33 "'0'" 34 16 107)) (mkPtok 6 ")" 34 21 108)))] (CheckSumField (mkSpan (mkPtok 42 "len" 35 4 109) (mkPtok 40 "," 37 4 114)) (mkChecksumFieldDecl (mkSpan (mkPtok 42 "len" 35 4 109) (mkPtok 40 "," 37 4 114)) None (mkPtok 42 "len" 35 4 109) (mkCalculatedFrom (mkSpan (mkPtok 5 "@calculatedFrom(" 35 8 110) (mkPtok 6 ")" 36 4 112)) (mkPtok 5 "@calculatedFrom(" 35 8 110) (mkPtok 31 """a\\""" 35 25 111) (mkPtok 6 ")" 36 4 112)) (Some (mkPtok 43 (string_of_bytes [96; 195; 169; 96]%N) 37 0 113)) (mkPtok 40 "," 37 4 114)))); (mkFieldWithAttr (mkSpan (mkPtok 5 "@calculatedFrom(" 37 6 115) (mkPtok 40 "," 44 4 136)) [(FACalculatedFrom (mkSpan (mkPtok 5 "@calculatedFrom(" 37 6 115) (mkPtok 6 ")" 38 4 117)) (mkCalculatedFrom (mkSpan (mkPtok 5 "@calculatedFrom(" 37 6 115) (mkPtok 6 ")" 38 4 117)) (mkPtok 5 "@calculatedFrom(" 37 6 115) (mkPtok 31 """1""" 37 24 116) (mkPtok 6 ")" 38 4 117)))] (InerObjectField (mkSpan (mkPtok 42 "u8x" 38 6 118) (mkPtok 40 "," 44 4 136)) None (InerObjectDecl (mkSpan (mkPtok 42 "u8x" 38 6 118) (mkPtok 3 "}" 42 4 134)) (mkPtok 42 "u8x" 38 6 118) (mkPtok 2 "{" 38 11 119) [(ObjectField (mkSpan (mkPtok 36 "repeat" 38 13 120) (mkPtok 40 "," 39 4 122)) (Some (mkPtok 36 "repeat" 38 13 120)) (mkPtok 42 "string_" 38 20 121) None None (mkPtok 40 "," 39 4 122)); (InerObjectField (mkSpan (mkPtok 36 "repeat" 39 6 123) (mkPtok 40 "," 41 0 133)) (Some (mkPtok 36 "repeat" 39 6 123)) (InerObjectDecl (mkSpan (mkPtok 42 "Z9_" 40 0 124) (mkPtok 3 "}" 40 33 131)) (mkPtok 42 "Z9_" 40 0 124) (mkPtok 2 "{" 40 4 125) [(MetaField (mkSpan (mkPtok 36 "repeat" 40 6 126) (mkPtok 40 "," 40 31 130)) (Some (mkPtok 36 "repeat" 40 6 126)) (mkMetaDecl (mkSpan (mkPtok 24 "int8" 40 13 127) (mkPtok 40 "," 40 31 130)) (TyBasic (mkSpan (mkPtok 24 "int8" 40 13 127) (mkPtok 24 "int8" 40 13 127)) (mkBasicType (mkSpan (mkPtok 24 "int8" 40 13 127) (mkPtok 24 "int8" 40 13 127)) (mkPtok 24 "int8" 40 13 127))) (mkPtok 42 "Logon" 40 18 128) (Some (mkPtok 43 "`it's`" 40 24 129)) (mkPtok 40 "," 40 31 130)))] (mkPtok 3 "}" 40 33 131)) (mkPtok 40 "," 41 0 133))] (mkPtok 3 "}" 42 4 134)) (mkPtok 40 "," 44 4 136))); (mkFieldWithAttr (mkSpan (mkPtok 5 "@calculatedFrom(" 45 0 137) (mkPtok 40 "," 46 17 144)) [(FACalculatedFrom (mkSpan (mkPtok 5 "@calculatedFrom(" 45 0 137) (mkPtok 6 ")" 45 32 139)) (mkCalculatedFrom (mkSpan (mkPtok 5 "@calculatedFrom(" 45 0 137) (mkPtok 6 ")" 45 32 139)) (mkPtok 5 "@calculatedFrom(" 45 0 137) (mkPtok 31 """// no comment""" 45 16 138) (mkPtok 6 ")" 45 32 139))); (FALengthOf (mkSpan (mkPtok 7 "@lengthOf(" 45 33 140) (mkPtok 6 ")" 46 8 142)) (mkLengthOf (mkSpan (mkPtok 7 "@lengthOf(" 45 33 140) (mkPtok 6 ")" 46 8 142)) (mkPtok 7 "@lengthOf(" 45 33 140) (mkPtok 42 "u8x" 46 4 141) (mkPtok 6 ")" 46 8 142)))] (ObjectField (mkSpan (mkPtok 42 "falsey" 46 11 143) (mkPtok 40 "," 46 17 144)) None (mkPtok 42 "falsey" 46 11 143) None None (mkPtok 40 "," 46 17 144)))] (mkPtok 3 "}" 47 4 145)))])).
+Eval vm_compute in ("<<<M1844>>>" ++ check (runes_of_ascii "packet matchKey { }
+packet falsey { int64
+_x,
+//	t
+// c
+@calculatedFrom(
+    ""1""
+// a // b
+// a // b
+)// packet A { u8 x, }
+u64	Foo @calculatedFrom( ""a	b"")	,@lengthOf(
+    // @lengthOf(
+    u128 )//x
+@lengthOf( len
+/// triple
+//
+) string
+string_ , }")).
+Eval vm_compute in ("<<<M1876>>>" ++ check (runes_of_ascii "options {// c
+i64_ = zchar[65535// packet A { u8 x, }
+];
+MetaDataX // packet A { u8 x, }
+= 0123456789 //	t
+; o = ""abc""
+; //	t
+tag
+=
+    ""a\\"" ; }
+packet leftPad
+{ repeat
+    char[] uint8x ,
+repeat As `" ++ [233]%N ++ runes_of_ascii "` , } packet Logon{ // c
+@lengthOf(
+// a // b
+// " ++ [128512]%N ++ runes_of_ascii " emoji
+u128 // 50% %s
+)
+    matchKey float
+,// `tick` ""quote"" 'q'
+} MetaData Pad { u64 o
+, } packet chars { zchar[ 10] rootA ,int64 o,
+    // " ++ [128512]%N ++ runes_of_ascii " emoji
+    i8i8
+    @calculatedFrom( ""1"" ) `
+`	, @tag(  0123456789 )match leftPad as len{	""a\\""	: Pad
+007 : body ,
+""a\\"" :matchKey
+    ,
+    ""a\\"" :stringy,
+// a // b
+//
+[ 00,
+    007	, """ ++ [233]%N ++ runes_of_ascii "t" ++ [233]%N ++ runes_of_ascii """
+,
+    3 ,7// " ++ [128512]%N ++ runes_of_ascii " emoji
+, """ ++ [233]%N ++ runes_of_ascii "t" ++ [233]%N ++ runes_of_ascii """  ,	""`tick`"" ]: string_ } , i64 T `tab	here` , string
+    x_y_z
+    , repeatCount
+// trailing space 
+// " ++ [128512]%N ++ runes_of_ascii " emoji
+@calculatedFrom( ""packet"" ) ,trueish `u8 x,`
+    , }
+//
+")).
+Eval vm_compute in ("<<<M1908>>>" ++ check (runes_of_ascii "packet
+    Pad	{ repeat  int64 i8i8,int64 int,@tag(
+    007 ) zchar[ 0123456789 ]
+    tag ,
+}root packet x_y_z
+    {
+repeat
+    lengthOf
+,i32 metadata `" ++ [233]%N ++ runes_of_ascii "` , i64_ `" ++ [233]%N ++ runes_of_ascii "` , }
+")).
+Eval vm_compute in ("<<<M1940>>>" ++ check (runes_of_ascii "packet
+options1 { // 50% %s
+u128
+@calculatedFrom(""CRC32"") , char[ 3 ] As ,
+char[ 10 ]Logon`
+`
+    , uint64 f32a @calculatedFrom( ""x y"") ,
+repeat
+stringy Packet `line1
+line2` , match// " ++ [128512]%N ++ runes_of_ascii " emoji
+msg_type // 50% %s
+as
+BodyLength { ""\n"" : rootA ,0
+: u  ,	4294967296 :options1 ""a	b""
+:
+/// triple
+//x
+rootA
+    }
+, repeat
+char[3 ]  asx ,
+repeat  string
+    u8x ,
+@leftPad( '\x00')
+u {
+matchKey `a\` /// triple
+,
+    match repeatCount // trailing space 
+as o{ 007 :u128 [ ""a\\"" ]: string_
+    ,""" ++ [28040; 24687]%N ++ runes_of_ascii """: Header , 10:  float
+,} , Foo	@lengthOf( Header	) , match stringy as float
+    { ""\" ++ [233]%N ++ runes_of_ascii """: Z9_
+},
+    } , @leftPad ( )
+charz ,//x
+}")).
+Eval vm_compute in ("<<<M1972>>>" ++ check (runes_of_ascii "
+root packet
+x_y_z  { @leftPad
+    ( ' ' )
+float `two words` ,
+@rightPad (
+    '0'
+)len@calculatedFrom( """ ++ [233]%N ++ runes_of_ascii "t" ++ [233]%N ++ runes_of_ascii """ )// " ++ [27880; 37322]%N ++ runes_of_ascii "
+, }
 ")).
 Eval vm_compute in ("<<<M2004>>>" ++ check (runes_of_ascii "options {
     StringPrefixLenType = u16;
@@ -1485,455 +1323,421 @@ packet Detail {
     string RuleName `" ++ [35268; 21017; 21517; 31216]%N ++ runes_of_ascii "`,
     u16 Code `" ++ [21407; 22240; 20195; 30721]%N ++ runes_of_ascii "`,
 }")).
-Eval vm_compute in ("<<<M2036>>>" ++ check (runes_of_ascii "options{ i64_ = string trueish ; =
-    '\x00'
-    leftPad = ""a\\"" /// triple
-; crc
-    = 255; uint8x
-=
-""abc""
-    ;}")).
-Eval vm_compute in ("<<<M2068>>>" ++ check (runes_of_ascii "options{ i64_ = string ; trueish =
-    '\x00'
-    leftPad =")).
-Eval vm_compute in ("<<<M2100>>>" ++ check (runes_of_ascii "options{ i64_ = string ; trueish =
-    '\x00'
-    leftPad = ""a\\"" /// triple
-; crc
-    = 255; uint8x
-= =
-""abc""
-    ;}")).
-Eval vm_compute in ("<<<M2132>>>" ++ check (runes_of_ascii "options{ i64_ = string ; trueish =
-    '\x00'
-    leftPad = ""a\\"" /// triple
-?; crc
-    = 255; uint8x
-=
-""abc""
-    ;}")).
-Eval vm_compute in ("<<<M2164>>>" ++ check (runes_of_ascii "  packet
-asx
-{
-/// triple
-// @lengthOf(
-u32")).
-Eval vm_compute in ("<<<M2196>>>" ++ check (runes_of_ascii "  packet
-asx
-{
-/// triple
-// @lengthOf(
-u32 stringy
-`" ++ [28040; 24687; 31867; 22411]%N ++ runes_of_ascii "` ,} MetaData
-    A {string string  _x, zchar Header `a\`
-// @lengthOf(
+Eval vm_compute in ("<<<M2036>>>" ++ check (runes_of_ascii "MetaData repeatCount { float64 packetx}
+, root packet  metadata {
+char _x @lengthOf( trueish ), @leftPad
+( ' '// " ++ [27880; 37322]%N ++ runes_of_ascii "
+)/// triple
+char[] len`doc` , // packet A { u8 x, }
+repeatCount , }
+")).
+Eval vm_compute in ("<<<M2068>>>" ++ check (runes_of_ascii "MetaData repeatCount { float64 packetx,
+} root packet  metadata {")).
+Eval vm_compute in ("<<<M2100>>>" ++ check (runes_of_ascii "MetaData repeatCount { float64 packetx,
+} root packet  metadata {
+char _x @lengthOf( trueish ), @leftPad
+( ( ' '// " ++ [27880; 37322]%N ++ runes_of_ascii "
+)/// triple
+char[] len`doc` , // packet A { u8 x, }
+repeatCount , }
+")).
+Eval vm_compute in ("<<<M2132>>>" ++ check (runes_of_ascii "MetaData repeatCount { float64 packetx,
+} root packet  metadata {
+char _x @lengthOf( trueish ), @leftPad
+( ' '// " ++ [27880; 37322]%N ++ runes_of_ascii "
+)/// triple
+char[] len`doc` u8 // packet A { u8 x, }
+repeatCount , }
+")).
+Eval vm_compute in ("<<<M2164>>>" ++ check (runes_of_ascii "MetaData repeatCount { float64 packetx,
+} root packet  metada$ta {
+char _x @lengthOf( trueish ), @leftPad
+( ' '// " ++ [27880; 37322]%N ++ runes_of_ascii "
+)/// triple
+char[] len`doc` , // packet A { u8 x, }
+repeatCount , }
+")).
+Eval vm_compute in ("<<<M2196>>>" ++ check (runes_of_ascii "options{
+leftPad
+    =65535
+; ;
+a1 = true ; packetx=  '\x00' ; packetx
+=  """ ++ [28040; 24687]%N ++ runes_of_ascii """MetaDataX= // " ++ [27880; 37322]%N ++ runes_of_ascii "
+false }root // c
+packet // packet A { u8 x, }
+Pad { repeat
+u8 Header
 // packet A { u8 x, }
-, char[] MetaDataX
-,zchar[ 1 ]
-    matchKey
-    , char[] //
-u,	char[0123456789 ]
-    matchKey
-    `{ , }`, }
+//	t
+`{ , }`
+// a // b
+//x
+, }
 ")).
-Eval vm_compute in ("<<<M2228>>>" ++ check (runes_of_ascii "  packet
-asx
-{
-/// triple
-// @lengthOf(
-u32 stringy
-`" ++ [28040; 24687; 31867; 22411]%N ++ runes_of_ascii "` ,} MetaData
-    A {string  _x, zchar Header `a\`
-// @lengthOf(
+Eval vm_compute in ("<<<M2228>>>" ++ check (runes_of_ascii "options{
+leftPad
+    =65535
+;
+a1 = true ; packetx int16  '\x00' ; packetx
+=  """ ++ [28040; 24687]%N ++ runes_of_ascii """MetaDataX= // " ++ [27880; 37322]%N ++ runes_of_ascii "
+false }root // c
+packet // packet A { u8 x, }
+Pad { repeat
+u8 Header
 // packet A { u8 x, }
-float32 char[] MetaDataX
-,zchar[ 1 ]
-    matchKey
-    , char[] //
-u,	char[0123456789 ]
-    matchKey
-    `{ , }`, }
+//	t
+`{ , }`
+// a // b
+//x
+, }
 ")).
-Eval vm_compute in ("<<<M2260>>>" ++ check (runes_of_ascii "  packet
-asx
-{
-/// triple
-// @lengthOf(
-u32 stringy
-`" ++ [28040; 24687; 31867; 22411]%N ++ runes_of_ascii "` ,} MetaData
-    A {string  _x, zchar Header `a\`
-// @lengthOf(
+Eval vm_compute in ("<<<M2260>>>" ++ check (runes_of_ascii "options{
+leftPad
+    =65535
+;
+a1 = true ; packetx=  '\x00' ; packetx
+=  """ ++ [28040; 24687]%N ++ runes_of_ascii """MetaDataX // " ++ [27880; 37322]%N ++ runes_of_ascii "
+false }root // c
+packet // packet A { u8 x, }
+Pad { repeat
+u8 Header
 // packet A { u8 x, }
-, char[] MetaDataX
-,zchar[ 1 ]
-    
-    , char[] //
-u,	char[0123456789 ]
-    matchKey
-    `{ , }`, }
+//	t
+`{ , }`
+// a // b
+//x
+, }
 ")).
-Eval vm_compute in ("<<<M2292>>>" ++ check (runes_of_ascii "  packet
-asx
-{
-/// triple
-// @lengthOf(
-u32 stringy
-`" ++ [28040; 24687; 31867; 22411]%N ++ runes_of_ascii "` ,} MetaData
-    A {string  _x, zchar Header `a\`
-// @lengthOf(
+Eval vm_compute in ("<<<M2292>>>" ++ check (runes_of_ascii "options{
+leftPad
+    =65535
+;
+a1 = true ; packetx=  '\x00' ; packetx
+=  """ ++ [28040; 24687]%N ++ runes_of_ascii """MetaDataX= // " ++ [27880; 37322]%N ++ runes_of_ascii "
+false }root // c
+packet // packet A { u8 x, }
+Pad repeat {
+u8 Header
 // packet A { u8 x, }
-, char[] MetaDataX
-,zchar[ 1 ]
-    matchKey
-    , char[] //
-u,	char[ ] 0123456789
-    matchKey
-    `{ , }`, }
+//	t
+`{ , }`
+// a // b
+//x
+, }
 ")).
-Eval vm_compute in ("<<<M2324>>>" ++ check (runes_of_ascii "  packet
-asx
-{
-/// triple
-// @lengthOf(
-u32 stringy
-`" ++ [28040; 24687; 31867; 22411]%N ++ runes_of_ascii "` ,} MetaData
-    A {string  _x, zchar Header `a\`
-// @lengthOf(
-// packet A { u8 x, }
-, char[] MetaDataX
-,zchar[ 1 #]
-    matchKey
-    , char[] //
-u,	char[0123456789 ]
-    matchKey
-    `{ , }`, }
-")).
-Eval vm_compute in ("<<<M2356>>>" ++ check (runes_of_ascii "root
-    packet
-Packet
- // trailing space 
-matchKey `tab	here` ,}")).
-Eval vm_compute in ("<<<M2388>>>" ++ check (runes_of_ascii "root
-    packet
-Packet
-{ // trailing spa""ce 
-matchKey `tab	here` ,}")).
-Eval vm_compute in ("<<<M2420>>>" ++ check (runes_of_ascii "options{ falsey // a // b
-packet
-    '0' } options { repeatCount =
-true ; string_// a // b
-=
-// c
-// " ++ [27880; 37322]%N ++ runes_of_ascii "
-int64
-// trailing space 
-/// triple
-; } // @lengthOf(")).
-Eval vm_compute in ("<<<M2452>>>" ++ check (runes_of_ascii "options{ falsey // a // b
-=
-    '0' } options { repeatCount =
- ; string_// a // b
-=
-// c
-// " ++ [27880; 37322]%N ++ runes_of_ascii "
-int64
-// trailing space 
-/// triple
-; } // @lengthOf(")).
-Eval vm_compute in ("<<<M2484>>>" ++ check (runes_of_ascii "options{ falsey // a // b
-=
-    '0' } options { repeatCount =
-true ; string_// a // b
-=
-// c
-// " ++ [27880; 37322]%N ++ runes_of_ascii "
-int64
-// trailing space 
-/// triple
-; char[] // @lengthOf(")).
-Eval vm_compute in ("<<<M2516>>>" ++ check (runes_of_ascii "options:}root packet
-metadata {
-@lengthOf(x ) float32
-body ``, }
-    MetaData
-Z9_
-    {
-    string string_ , Logon x
-,
-uint32
-    // packet A { u8 x, }
-    Z9_,asx
-_x
-    `tab	here` , }
-")).
-Eval vm_compute in ("<<<M2548>>>" ++ check (runes_of_ascii "options{}root packet
-metadata {
-@lengthOf( ) float32
-body ``, }
-    MetaData
-Z9_
-    {
-    string string_ , Logon x
-,
-uint32
-    // packet A { u8 x, }
-    Z9_,asx
-_x
-    `tab	here` , }
-")).
-Eval vm_compute in ("<<<M2580>>>" ++ check (runes_of_ascii "options{}root packet
-metadata {
-@lengthOf(x ) float32
-body ``, MetaData
-    }
-Z9_
-    {
-    string string_ , Logon x
-,
-uint32
-    // packet A { u8 x, }
-    Z9_,asx
-_x
-    `tab	here` , }
-")).
-Eval vm_compute in ("<<<M2612>>>" ++ check (runes_of_ascii "options{}root packet
-metadata {
-@lengthOf(x ) float32
-body ``, }
-    MetaData
-Z9_
-    {
-    string string_")).
-Eval vm_compute in ("<<<M2644>>>" ++ check (runes_of_ascii "options{}root packet
-metadata {
-@lengthOf(x ) float32
-body ``, }
-    MetaData
-Z9_
-    {
-    string string_ , Logon x
-,
-uint32
-    // packet A { u8 x, }
-    Z9_,asx asx
-_x
-    `tab	here` , }
-")).
-Eval vm_compute in ("<<<M2676>>>" ++ check (runes_of_ascii "options{}root packet
-' metadata {
-@lengthOf(x ) float32
-body ``, }
-    MetaData
-Z9_
-    {
-    string string_ , Logon x
-,
-uint32
-    // packet A { u8 x, }
-    Z9_,asx
-_x
-    `tab	here` , }
-")).
-Eval vm_compute in ("<<<M2708>>>" ++ check (runes_of_ascii "options {
-    falsey")).
-Eval vm_compute in ("<<<M2740>>>" ++ check (runes_of_ascii "options {
-    falsey=
-? ""a\\"" ; }")).
-Eval vm_compute in ("<<<M2772>>>" ++ check (runes_of_ascii "MetaData f32a
-{
-    //	t
-    }root
-    tag packet  {
+Eval vm_compute in ("<<<M2324>>>" ++ check (runes_of_ascii "options{
+leftPad
+    ")).
+Eval vm_compute in ("<<<M2356>>>" ++ check (runes_of_ascii "
+packet float
+	@calculatedFrom( """ ++ [233]%N ++ runes_of_ascii "t" ++ [233]%N ++ runes_of_ascii """ )
+@rightPad ( '\x00' )
+    @calculatedFrom( ""x y"" ) string chars  ,
+    // a // b
+    char[0 ]
+    u	@lengthOf( i8i8 ) `{ , }` ,repeat char[] o //x
+`// not a comment`, } // c")).
+Eval vm_compute in ("<<<M2388>>>" ++ check (runes_of_ascii "
+packet float
+{	@calculatedFrom( """ ++ [233]%N ++ runes_of_ascii "t" ++ [233]%N ++ runes_of_ascii """ )
+@rightPad ( ) '\x00'
+    @calculatedFrom( ""x y"" ) string chars  ,
+    // a // b
+    char[0 ]
+    u	@lengthOf( i8i8 ) `{ , }` ,repeat char[] o //x
+`// not a comment`, } // c")).
+Eval vm_compute in ("<<<M2420>>>" ++ check (runes_of_ascii "
+packet float
+{	@calculatedFrom( """ ++ [233]%N ++ runes_of_ascii "t" ++ [233]%N ++ runes_of_ascii """ )
+@rightPad ( '\x00' )
+    @calculatedFrom( ""x y"" ) string")).
+Eval vm_compute in ("<<<M2452>>>" ++ check (runes_of_ascii "
+packet float
+{	@calculatedFrom( """ ++ [233]%N ++ runes_of_ascii "t" ++ [233]%N ++ runes_of_ascii """ )
+@rightPad ( '\x00' )
+    @calculatedFrom( ""x y"" ) string chars  ,
+    // a // b
+    char[0 ]
+    u	@lengthOf( i8i8 i8i8 ) `{ , }` ,repeat char[] o //x
+`// not a comment`, } // c")).
+Eval vm_compute in ("<<<M2484>>>" ++ check (runes_of_ascii "
+packet float
+{	@calculatedFrom( """ ++ [233]%N ++ runes_of_ascii "t" ++ [233]%N ++ runes_of_ascii """ )
+@rightPad ( '\x00' )
+    @calculatedFrom( ""x y"" ) string chars  ,
+    // a // b
+    char[0 ]
+    u	@lengthOf( i8i8 ) `{ , }` ,repeat char[] packet //x
+`// not a comment`, } // c")).
+Eval vm_compute in ("<<<M2516>>>" ++ check (runes_of_ascii "
+packet float
+{	@calculatedFrom( """ ++ [233]%N ++ runes_of_ascii "t" ++ [233]%N ++ runes_of_ascii """ )
+@rightPad ( '\x00' )|
+    @calculatedFrom( ""x y"" ) string chars  ,
+    // a // b
+    char[0 ]
+    u	@lengthOf( i8i8 ) `{ , }` ,repeat char[] o //x
+`// not a comment`, } // c")).
+Eval vm_compute in ("<<<M2548>>>" ++ check (runes_of_ascii "root packet u128{
+    repeat
+    zchar[ zchar[ 65535 ] u `" ++ [28040; 24687; 31867; 22411]%N ++ runes_of_ascii "` ,// `tick` ""quote"" 'q'
+} packet i64_ {repeatCount
+    `
+` ,	} // " ++ [128512]%N ++ runes_of_ascii " emoji")).
+Eval vm_compute in ("<<<M2580>>>" ++ check (runes_of_ascii "root packet u128{
+    repeat
+    zchar[ 65535 ] u `" ++ [28040; 24687; 31867; 22411]%N ++ runes_of_ascii "` ,// `tick` ""quote"" 'q'
+u64 packet i64_ {repeatCount
+    `
+` ,	} // " ++ [128512]%N ++ runes_of_ascii " emoji")).
+Eval vm_compute in ("<<<M2612>>>" ++ check (runes_of_ascii "root packet u128{
+    repeat
+    zchar[ 65535 ] u `" ++ [28040; 24687; 31867; 22411]%N ++ runes_of_ascii "` ,// `tick` ""quote"" 'q'
+} packet i64_ {repeatCount
+    `
+` ,	 // " ++ [128512]%N ++ runes_of_ascii " emoji")).
+Eval vm_compute in ("<<<M2644>>>" ++ check (runes_of_ascii "
+MetaData
+roots roots { int8
+    BodyLength ,//	t
 }
 ")).
-Eval vm_compute in ("<<<M2804>>>" ++ check (runes_of_ascii "MetaData f32a
-{
-    //	t
-    " ++ [233]%N ++ runes_of_ascii " }root
-    packet tag  {
-}
-")).
+Eval vm_compute in ("<<<M2676>>>" ++ check (runes_of_ascii "
+MetaData
+roots { int8
+   ")).
+Eval vm_compute in ("<<<M2708>>>" ++ check (runes_of_ascii "options {")).
+Eval vm_compute in ("<<<M2740>>>" ++ check (runes_of_ascii "options {Packet = ""CRC32""i8i8 = false; leftPad leftPad =
+    '\x00'
+    // `tick` ""quote"" 'q'
+    ; o=255  ;
+    // packet A { u8 x, }
+    }")).
+Eval vm_compute in ("<<<M2772>>>" ++ check (runes_of_ascii "options {Packet = ""CRC32""i8i8 = false; leftPad =
+    '\x00'
+    // `tick` ""quote"" 'q'
+    ; o=""a	b""  ;
+    // packet A { u8 x, }
+    }")).
+Eval vm_compute in ("<<<M2804>>>" ++ check (runes_of_ascii "options {Packet = ""CRC32""i8i8 = false; " ++ [21517; 23383]%N ++ runes_of_ascii " =
+    '\x00'
+    // `tick` ""quote"" 'q'
+    ; o=255  ;
+    // packet A { u8 x, }
+    }")).
 Eval vm_compute in ("<<<M2836>>>" ++ check (runes_of_ascii "
-options
-    {msg_type =
-    float32  root
-packet Z9_{ char /// triple
-crc @lengthOf(
-options1 ) //
-,} MetaData a1{}
-")).
+packet metadata { @rightPad (
+    // packet A { u8 x, }
+    ' ' ) ) repeat u32	A
+,matchKey ,
+    @lengthOf( string_ ) @lengthOf( body )
+    // a // b
+    @lengthOf(float  )	repeat
+int32 u8x
+    // c
+    `tab	here`
+, } // a // b")).
 Eval vm_compute in ("<<<M2868>>>" ++ check (runes_of_ascii "
-options
-    {msg_type =
-    float32  }root
-packet Z9_{ char /// triple
-@lengthOf( crc
-options1 ) //
-,} MetaData a1{}
-")).
+packet metadata { @rightPad (
+    // packet A { u8 x, }
+    ' ' ) repeat u32	A
+,matchKey zchar[
+    @lengthOf( string_ ) @lengthOf( body )
+    // a // b
+    @lengthOf(float  )	repeat
+int32 u8x
+    // c
+    `tab	here`
+, } // a // b")).
 Eval vm_compute in ("<<<M2900>>>" ++ check (runes_of_ascii "
-options
-    {msg_type =
-    float32  }root
-packet Z9_{ char /// triple
-crc @lengthOf(
-options1 ) //
-,}")).
+packet metadata { @rightPad (
+    // packet A { u8 x, }
+    ' ' ) repeat u32	A
+,matchKey ,
+    @lengthOf( string_ ) @lengthOf( body )
+    // a // b
+    float  )	repeat
+int32 u8x
+    // c
+    `tab	here`
+, } // a // b")).
 Eval vm_compute in ("<<<M2932>>>" ++ check (runes_of_ascii "
-options
-    {msg_type =
-    float32  }root
-packet Z9_{ char /// triple
-crc @lengthOf(
-options1 ) //
-@leftpad,} MetaData a1{}
+packet metadata { @rightPad (
+    // packet A { u8 x, }
+    ' ' ) repeat u32	A
+,matchKey ,
+    @lengthOf( string_ ) @lengthOf( body )
+    // a // b
+    @lengthOf(float  )	repeat
+int32 u8x
+    // c
+    ,
+`tab	here` } // a // b")).
+Eval vm_compute in ("<<<M2964>>>" ++ check (runes_of_ascii "
+packet metadata { @rightPad (
+    // packet A { u8 x, }
+    ' ' ) repeat u32	A
+," ++ [252]%N ++ runes_of_ascii "ber ,
+    @lengthOf( string_ ) @lengthOf( body )
+    // a // b
+    @lengthOf(float  )	repeat
+int32 u8x
+    // c
+    `tab	here`
+, } // a // b")).
+Eval vm_compute in ("<<<M2996>>>" ++ check (runes_of_ascii "packet x{
+string
+zchar , //	t
+
 ")).
-Eval vm_compute in ("<<<M2964>>>" ++ check (runes_of_ascii "packet crc{ // " ++ [128512]%N ++ runes_of_ascii " emoji
-repeat string `a\`
-i8i8, }
-")).
-Eval vm_compute in ("<<<M2996>>>" ++ check (runes_of_ascii "packet crc{ // " ++ [128512]%N ++ runes_of_ascii " emoji
-'\x01'repeat string i8i8
-`a\`, }
-")).
-Eval vm_compute in ("<<<M3028>>>" ++ check (runes_of_ascii "packet BodyLength {} MetaData { zchar[// @lengthOf(
-42 ]
-    pack , string_
-A , char[]crc , _x trueish ,
-// " ++ [27880; 37322]%N ++ runes_of_ascii "
-// " ++ [128512]%N ++ runes_of_ascii " emoji
-zchar[
-    3 ]	T // trailing space 
-, } packet body
+Eval vm_compute in ("<<<M3028>>>" ++ check (runes_of_ascii "
+MetaData Logon Logon
+{ // c
+}root packet
+    Pad {
+    } options
 {
-    }
-")).
-Eval vm_compute in ("<<<M3060>>>" ++ check (runes_of_ascii "packet BodyLength {} MetaData zchar{ zchar[// @lengthOf(
-42 ]
-    pack string_ ,
-A , char[]crc , _x trueish ,
-// " ++ [27880; 37322]%N ++ runes_of_ascii "
-// " ++ [128512]%N ++ runes_of_ascii " emoji
-zchar[
-    3 ]	T // trailing space 
-, } packet body
+u
+    =
+    ""CRC32""
+    // " ++ [128512]%N ++ runes_of_ascii " emoji
+    i64_ = u16;
+T =65535 x = ' '
+    ; u128
+= true ; }")).
+Eval vm_compute in ("<<<M3060>>>" ++ check (runes_of_ascii "
+MetaData Logon
+{ // c
+}root packet
+    Pad packet
+    } options
 {
-    }
-")).
-Eval vm_compute in ("<<<M3092>>>" ++ check (runes_of_ascii "packet BodyLength {} MetaData zchar{ zchar[// @lengthOf(
-42 ]
-    pack , string_
-A , char[]crc")).
-Eval vm_compute in ("<<<M3124>>>" ++ check (runes_of_ascii "packet BodyLength {} MetaData zchar{ zchar[// @lengthOf(
-42 ]
-    pack , string_
-A , char[]crc , _x trueish ,
-// " ++ [27880; 37322]%N ++ runes_of_ascii "
-// " ++ [128512]%N ++ runes_of_ascii " emoji
-zchar[
-    3 ]	T T // trailing space 
-, } packet body
+u
+    =
+    ""CRC32""
+    // " ++ [128512]%N ++ runes_of_ascii " emoji
+    i64_ = u16;
+T =65535 x = ' '
+    ; u128
+= true ; }")).
+Eval vm_compute in ("<<<M3092>>>" ++ check (runes_of_ascii "
+MetaData Logon
+{ // c
+}root packet
+    Pad {
+    } options
 {
-    }
+u
+    =
+    ""CRC32""
+    // " ++ [128512]%N ++ runes_of_ascii " emoji
+     = u16;
+T =65535 x = ' '
+    ; u128
+= true ; }")).
+Eval vm_compute in ("<<<M3124>>>" ++ check (runes_of_ascii "
+MetaData Logon
+{ // c
+}root packet
+    Pad {
+    } options
+{
+u
+    =
+    ""CRC32""
+    // " ++ [128512]%N ++ runes_of_ascii " emoji
+    i64_ = u16;
+T =x 65535 = ' '
+    ; u128
+= true ; }")).
+Eval vm_compute in ("<<<M3156>>>" ++ check (runes_of_ascii "
+MetaData Logon
+{ // c
+}root packet
+    Pad {
+    } options
+{
+u
+    =
+    ""CRC32""
+    // " ++ [128512]%N ++ runes_of_ascii " emoji
+    i64_ = u16;
+T =65535 x = ' '
+    ; u128")).
+Eval vm_compute in ("<<<M3188>>>" ++ check (runes_of_ascii "
+MetaData Logon
+{ // c
+}root packet
+    Pad {
+    } options
+{
+u
+    =
+    ""CRC32""
+    // " ++ [128512]%N ++ runes_of_ascii " emoji
+    " ++ [8232]%N ++ runes_of_ascii "i64_ = u16;
+T =65535 x = ' '
+    ; u128
+= true ; }")).
+Eval vm_compute in ("<<<M3220>>>" ++ check (runes_of_ascii "MetaData body{}
+packet	{ Packet x_y_z @calculatedFrom(  ""a\\"")// `tick` ""quote"" 'q'
+, }
 ")).
-Eval vm_compute in ("<<<M3156>>>" ++ check (runes_of_ascii "packet BodyLength {} MetaData zchar{ zchar[// @lengthOf(
-42 ]
-    pack , string_
-A , char[]crc , _x trueish ,
-// " ++ [27880; 37322]%N ++ runes_of_ascii "
-// " ++ [128512]%N ++ runes_of_ascii " emoji
-zchar[
-    3 ]	T // trailing space 
-, } packet body
-{")).
-Eval vm_compute in ("<<<M3188>>>" ++ check (runes_of_ascii "packet")).
-Eval vm_compute in ("<<<M3220>>>" ++ check (runes_of_ascii "packet
-string_ {@lengthOf( int ) match packetx as as f32a {
-    1 :	calculatedFrom , }  ,
-    } packet len
-    //	t
-    { @calculatedFrom( """ ++ [233]%N ++ runes_of_ascii "t" ++ [233]%N ++ runes_of_ascii """ ) body Header , char[] lengthOf  `two words` ,chars{repeat string_ matchKey ,
-    } ,
-    }
+Eval vm_compute in ("<<<M3252>>>" ++ check (runes_of_ascii "MetaData body{}
+packet	Packet { x_y_z @calculatedFrom(  ""a\\"")")).
+Eval vm_compute in ("<<<M3284>>>" ++ check (runes_of_ascii "packet  {} root packet len {repeat u // " ++ [128512]%N ++ runes_of_ascii " emoji
+`{ , }` , }
 ")).
-Eval vm_compute in ("<<<M3252>>>" ++ check (runes_of_ascii "packet
-string_ {@lengthOf( int ) match packetx as f32a {
-    1 :	calculatedFrom 10 }  ,
-    } packet len
-    //	t
-    { @calculatedFrom( """ ++ [233]%N ++ runes_of_ascii "t" ++ [233]%N ++ runes_of_ascii """ ) body Header , char[] lengthOf  `two words` ,chars{repeat string_ matchKey ,
-    } ,
-    }
+Eval vm_compute in ("<<<M3316>>>" ++ check (runes_of_ascii "packet f32a {} root packet len repeat{ u // " ++ [128512]%N ++ runes_of_ascii " emoji
+`{ , }` , }
 ")).
-Eval vm_compute in ("<<<M3284>>>" ++ check (runes_of_ascii "packet
-string_ {@lengthOf( int ) match packetx as f32a {
-    1 :	calculatedFrom , }  ,
-    } packet len
-    //	t
-    {  """ ++ [233]%N ++ runes_of_ascii "t" ++ [233]%N ++ runes_of_ascii """ ) body Header , char[] lengthOf  `two words` ,chars{repeat string_ matchKey ,
-    } ,
-    }
+Eval vm_compute in ("<<<M3348>>>" ++ check (runes_of_ascii "packet f32a {} root packet len {repeat u // " ++ [128512]%N ++ runes_of_ascii " emoji
+`{ , }` '1', }
 ")).
-Eval vm_compute in ("<<<M3316>>>" ++ check (runes_of_ascii "packet
-string_ {@lengthOf( int ) match packetx as f32a {
-    1 :	calculatedFrom , }  ,
-    } packet len
-    //	t
-    { @calculatedFrom( """ ++ [233]%N ++ runes_of_ascii "t" ++ [233]%N ++ runes_of_ascii """ ) body Header , lengthOf char[]  `two words` ,chars{repeat string_ matchKey ,
-    } ,
-    }
-")).
-Eval vm_compute in ("<<<M3348>>>" ++ check (runes_of_ascii "packet
-string_ {@lengthOf( int ) match packetx as f32a {
-    1 :	calculatedFrom , }  ,
-    } packet len
-    //	t
-    { @calculatedFrom( """ ++ [233]%N ++ runes_of_ascii "t" ++ [233]%N ++ runes_of_ascii """ ) body Header , char[] lengthOf  `two words` ,chars{")).
-Eval vm_compute in ("<<<M3380>>>" ++ check (runes_of_ascii "packet
-string_ {@lengthOf( int ) match packetx as f32a {
-    1 :	calculatedFrom , }  ,
-    } packet len
-    //	t
-    { @calculatedFrom( """ ++ [233]%N ++ runes_of_ascii "t" ++ [233]%N ++ runes_of_ascii """ ) body Header , char[] lengthOf  `two words` ,chars{repeat string_ matchKey ,
-    } ,")).
-Eval vm_compute in ("<<<M3412>>>" ++ check (runes_of_ascii "/// triple
-root
-packet // packet A { u8 x, }
-chars { @lengthOf(charz )
-stringy,  @tag(  0 ) // a // b
-asx
-    As
-,
-// trailing space 
-// trailing space 
-x_y_z {
-repeat i16 charz , }")).
-Eval vm_compute in ("<<<M3444>>>" ++ check (runes_of_ascii "/// triple
-root
-packet // packet A { u8 x, }
-chars { @lengthOf(charz )
-stringy,  @tag(  0 ) // a // b
-asx
-    As
-,
-// trailing space 
-// trailing space 
-x_y_z { {
-repeat i16 charz , } ,	int16  crc ,}
-")).
-Eval vm_compute in ("<<<M3476>>>" ++ check (runes_of_ascii "/// triple
-root
-packet // packet A { u8 x, }
-chars @lengthOf( {charz )
-stringy,  @tag(  0 ) // a // b
-asx
-    As
-,
-// trailing space 
-// trailing space 
-x_y_z {
-repeat i16 charz , } ,	int16  crc ,}
-")).
+Eval vm_compute in ("<<<M3380>>>" ++ check (runes_of_ascii "options{ _x=""\" ++ [233]%N ++ runes_of_ascii """;
+    Logon = 10	; Foo= 7;
+i64_= char[]} options {
+matchKey = ""// no comment"" // a // b
+falsey = string
+; trueish =
+    4294967296
+options1=
+    ""it's"" ""it's"" string_	= true } options {
+    /// triple
+    }")).
+Eval vm_compute in ("<<<M3412>>>" ++ check (runes_of_ascii "options{ _x=""\" ++ [233]%N ++ runes_of_ascii """;
+    Logon = 10	; Foo= 7;
+i64_= char[]} options {
+matchKey = ""// no comment"" // a // b
+falsey = string
+; trueish =
+    4294967296
+options1= =
+    ""it's"" string_	= true } options {
+    /// triple
+    }")).
+Eval vm_compute in ("<<<M3444>>>" ++ check (runes_of_ascii "options{ _x=""\" ++ [233]%N ++ runes_of_ascii """;
+    Logon = 10	; Foo= 7;
+=i64_ char[]} options {
+matchKey = ""// no comment"" // a // b
+falsey = string
+; trueish =
+    4294967296
+options1=
+    ""it's"" string_	= true } options {
+    /// triple
+    }")).
+Eval vm_compute in ("<<<M3476>>>" ++ check (runes_of_ascii "options{ _x=""\" ++ [233]%N ++ runes_of_ascii """;
+    Logon = 10	; Foo= 7;
+i64_= char[]} options {
+matchKey = ""// no comment"" // a // b
+falsey = string
+; trueish =
+    4294967296
+options1=
+    ""it's"" string_	= = true } options {
+    /// triple
+    }")).
 Eval vm_compute in ("<<<M3508>>>" ++ check (runes_of_ascii "i8i8")).
 Eval vm_compute in ("<<<M3540>>>" ++ check (runes_of_ascii "'\x0'")).
 Eval vm_compute in ("<<<M3572>>>" ++ check (runes_of_ascii """")).
@@ -1942,11 +1746,13 @@ Eval vm_compute in ("<<<M3636>>>" ++ check (runes_of_ascii "packet A { x }")).
 Eval vm_compute in ("<<<M3668>>>" ++ check (runes_of_ascii "packet A { B { match k as n { 1 : C }, }, }")).
 Eval vm_compute in ("<<<M3700>>>" ++ check (runes_of_ascii "packet A { } 1")).
 Eval vm_compute in ("<<<M3732>>>" ++ check (runes_of_ascii "options { a = char[3]; b = zchar[0] c = char[] d = string e = u8 }")).
-Eval vm_compute in ("<<<M3764>>>" ++ check ([65533]%N ++ runes_of_ascii "D'" ++ [65533]%N ++ runes_of_ascii "	@" ++ [33821; 65533; 65533; 65533; 6]%N ++ runes_of_ascii "Ug}r" ++ [65533; 15]%N ++ runes_of_ascii "!" ++ [65533; 65533]%N ++ runes_of_ascii "e" ++ [65533; 65533]%N ++ runes_of_ascii "\" ++ [65533; 65533; 65533]%N ++ runes_of_ascii "@" ++ [65533; 65533; 65533; 65533]%N ++ runes_of_ascii "T" ++ [65533; 65533]%N)).
-Eval vm_compute in ("<<<M3796>>>" ++ check ([65533; 65533]%N ++ runes_of_ascii "	" ++ [65533]%N ++ runes_of_ascii ".}" ++ [65533]%N)).
-Eval vm_compute in ("<<<M3828>>>" ++ check ([30]%N ++ runes_of_ascii "V/" ++ [65533]%N ++ runes_of_ascii "ic" ++ [65533; 65533; 65533]%N ++ runes_of_ascii "%" ++ [65533; 65533; 65533]%N ++ runes_of_ascii "O" ++ [65533]%N ++ runes_of_ascii "!" ++ [65533]%N ++ runes_of_ascii "o" ++ [65533]%N ++ runes_of_ascii "]" ++ [65533; 65533; 65533; 11]%N)).
-Eval vm_compute in ("<<<M3860>>>" ++ check ([65533]%N ++ runes_of_ascii "Ze" ++ [3; 65533; 19; 65533; 19]%N ++ runes_of_ascii "o" ++ [22]%N ++ runes_of_ascii "5" ++ [65533; 65533; 65533]%N ++ runes_of_ascii "*Zk)" ++ [4; 65533]%N ++ runes_of_ascii "T" ++ [65533; 65533; 6]%N ++ runes_of_ascii "K?" ++ [65533; 65533; 27; 65533; 0; 65533; 65533; 65533; 65533; 65533; 127; 65533]%N ++ runes_of_ascii ";")).
-Eval vm_compute in ("<<<M3892>>>" ++ check ([65533; 1687; 65533]%N ++ runes_of_ascii "'?" ++ [65533]%N ++ runes_of_ascii """>" ++ [65533; 65533; 65533; 1235; 65533]%N ++ runes_of_ascii "zPN" ++ [21; 65533; 65533]%N)).
-Eval vm_compute in ("<<<M3924>>>" ++ check ([40659; 65533; 65533; 65533]%N ++ runes_of_ascii "f")).
-Eval vm_compute in ("<<<M3956>>>" ++ check ([1581]%N ++ runes_of_ascii "b" ++ [997]%N ++ runes_of_ascii "2Noo" ++ [65533]%N ++ runes_of_ascii "0/$T" ++ [65533]%N ++ runes_of_ascii "i" ++ [65533; 65533; 65533; 2]%N ++ runes_of_ascii "/v")).
-Eval vm_compute in ("<<<M3988>>>" ++ check ([27; 65533; 65533]%N ++ runes_of_ascii ",%" ++ [65533]%N ++ runes_of_ascii "v" ++ [65533]%N ++ runes_of_ascii "@" ++ [65533; 2; 65533]%N ++ runes_of_ascii "8G6" ++ [65533; 65533]%N ++ runes_of_ascii "A" ++ [48969; 65533; 12]%N ++ runes_of_ascii "b" ++ [65533; 127; 65533; 8; 65533; 65533; 65533]%N)).
+Eval vm_compute in ("<<<M3764>>>" ++ check (runes_of_ascii "r4" ++ [65533; 65533]%N ++ runes_of_ascii "xQ" ++ [8]%N)).
+Eval vm_compute in ("<<<M3796>>>" ++ check (runes_of_ascii "up30`" ++ [1680]%N)).
+Eval vm_compute in ("<<<M3828>>>" ++ check ([65533; 65533]%N ++ runes_of_ascii "_e" ++ [65533]%N ++ runes_of_ascii ":" ++ [65533; 65533; 6220]%N ++ runes_of_ascii "ASzc" ++ [65533; 15]%N ++ runes_of_ascii "8%'" ++ [65533]%N ++ runes_of_ascii "Q$&q@" ++ [65533; 1890; 65533; 65533]%N ++ runes_of_ascii "J
+
+" ++ [24; 65533]%N ++ runes_of_ascii "q" ++ [65533]%N)).
+Eval vm_compute in ("<<<M3860>>>" ++ check (runes_of_ascii "u" ++ [65533]%N ++ runes_of_ascii "e" ++ [65533; 65533; 27]%N ++ runes_of_ascii "1" ++ [65533; 65533]%N ++ runes_of_ascii "w" ++ [65533; 65533; 65533; 65533]%N ++ runes_of_ascii "k" ++ [65533; 65533]%N ++ runes_of_ascii "Vw" ++ [65533; 65533; 65533; 65533]%N)).
+Eval vm_compute in ("<<<M3892>>>" ++ check ([65533; 65533]%N ++ runes_of_ascii "7" ++ [65533]%N ++ runes_of_ascii "r%" ++ [65533; 65533]%N ++ runes_of_ascii "U" ++ [65533; 65533]%N ++ runes_of_ascii "k+ " ++ [65533; 20; 65533; 20; 20]%N)).
+Eval vm_compute in ("<<<M3924>>>" ++ check (runes_of_ascii "D" ++ [65533; 65533; 22]%N ++ runes_of_ascii "j" ++ [65533]%N ++ runes_of_ascii "bXq'8]" ++ [65533; 65533]%N ++ runes_of_ascii "`" ++ [65533; 16]%N ++ runes_of_ascii "a]" ++ [20; 25; 65533; 2; 65533; 65533]%N ++ runes_of_ascii "85")).
+Eval vm_compute in ("<<<M3956>>>" ++ check ([31; 27; 65533]%N ++ runes_of_ascii "+" ++ [65533]%N)).
+Eval vm_compute in ("<<<M3988>>>" ++ check ([65533; 65533]%N ++ runes_of_ascii "[ " ++ [65533; 65533]%N ++ runes_of_ascii "1" ++ [65533]%N ++ runes_of_ascii "w" ++ [65533; 23; 65533]%N ++ runes_of_ascii "(" ++ [65533; 65533; 65533; 5; 65533]%N)).
